@@ -5,9 +5,12 @@ import (
 	"go/constant"
 	"go/token"
 	"go/types"
+	"os"
 	"regexp"
 	"sort"
+	"strconv"
 	"strings"
+	"time"
 
 	"golang.org/x/tools/go/ssa"
 )
@@ -16,186 +19,68 @@ func init() {
 	register(&PropSpec{
 		ID:    "C18",
 		Title: "The HTTP blob protocol gives clients the same map semantics end to end",
-		Explanation: "Decided (structural necessary conditions of the wire protocol, on the handlers in pkg/blobserver/handlers + gethandler and on pkg/client): " +
-			"N-longpoll — in every handler that long-polls with blobserver.WaitForBlob, under the assumptions 'long-poll requested (wait seconds != 0)' and 'the deadline has not passed' the storage query is reachable from entry and the wait is reachable after the query, and under 'the deadline has passed' the query cannot reach itself again (guard polarity of the time comparisons, evaluated symbolically on the CFG; the two sibling handlers are held to the same rule); " +
-			"N-continue — the enumerate handler passes the request's 'after' and a limit clamped by the storage's maximum to EnumerateBlobs, emits continueAfter only when non-empty, derives it from the last emitted ref, clears it on the short-page edge (count < limit), and on an enumeration error never reaches the writes that terminate a well-formed response; " +
-			"N-client-page — the client's enumerate loop continues exactly on the presence of continueAfter, feeds its value into the next request's after= parameter, and what it sends on the channel is parsed from the blobRef/size members; " +
-			"N-keys — writer/reader agreement by constant values: query keys the client writes are keys the enumerate/stat/remove handlers read, JSON members the client reads are members the enumerate handler writes, numbered blobN keys use the same prefix and the same first index on both sides, stat and remove responses are encoded and decoded through the same struct types; " +
-			"N-compat — the client never builds a request the handler is bound to reject: for every handler function routed by serverinit.camliHandlerUsingStorage (enumerate-blobs, stat, upload, remove, get) the minimal conjunctions of request-key atoms (FormValue/PostFormValue/Query().Get value empty / non-empty, its strconv-parsed integer != 0 / > 0) under which every path from entry ends in an error response (status >= 400) are extracted (today: enumerate after!=\"\" && int(maxwaitsec)!=0; stat camliversion==\"\"); for every request pkg/client builds for the same /camli/<action> URL (URL and body text modelled as format calls, literals, concatenations, bytes.Buffer writes, url.Values) some atom can never hold, or two atoms exclude each other on every pair of values the two keys may carry, by a guard about the very value emitted for the other key that is evaluated for the iteration being formatted (no loop-carried phi at or above that value's definition between the guard and the request); " +
-			"N-stat — the stat handler records a requested ref only when it parsed and the per-request count is within the limit, answers 200/JSON only when no StatBlobs call failed, and records results only from the callback's own argument; " +
-			"N-get — ServeBlobRef reaches http.ServeContent only on the err==nil edge of Fetch, serves content derived from that fetch's reader with that fetch's size, and closes the reader on every path. " +
+		Explanation: "Every rule works on the EFFECTIVE BODY of its anchor (the function plus, transitively to depth 7, the unexported same-package functions/methods and function literals it calls statically, one copy per call site, parameters standing for the caller's arguments and call results for the returned values; go'd/deferred/escaping literals attached where they are spawned; dominance and dominating facts carry across a call through per-return clones of the continuation), and anchors are resolved by role: the handler bodies are those reachable from the pkg/blobserver/handlers constructors that pkg/serverinit calls under an `action == \"...\"` comparison, client requests are the net/http.NewRequest* calls of pkg/client whose URL names /camli/<action>. " +
+			"Decided (structural necessary conditions of the wire protocol): " +
+			"N-longpoll — in every handler body that long-polls with blobserver.WaitForBlob, under the assumptions 'long-poll requested (wait seconds != 0)' and 'the deadline has not passed' the storage query is reachable from entry and the wait is reachable after the query, and under 'the deadline has passed' the query cannot reach itself again (guard polarity of the time comparisons, evaluated symbolically on the inlined CFG, also through bool helpers and conditions hoisted into locals); " +
+			"N-continue — the enumerate handler passes the request's 'after' and a limit clamped by the storage's maximum to EnumerateBlobs (every definition of the limit value that derives from the parsed request value is guarded by a comparison with MaxEnumerate or is min(.., max)), emits continueAfter only when non-empty, derives it from the last emitted ref, clears it on the short-page edge (count < the very limit passed to EnumerateBlobs), and on an enumeration error never reaches the writes that terminate a well-formed response; " +
+			"N-client-page — the client's enumerate loop continues on the continueAfter member of the previous response, feeds its value into the next request's after= parameter, and what it sends on the caller's channel derives from the blobRef/size members; " +
+			"N-keys — writer/reader agreement by constant values: query keys every pkg/client request writes are keys the routed handler of the same action reads (enumerate-blobs, stat, remove), JSON members the client reads are members the enumerate handler writes, numbered blobN keys use the same prefix and the same first index on both sides, stat and remove responses are encoded and decoded through the same struct types; " +
+			"N-compat — the client never builds a request the handler is bound to reject: for every routed handler body the minimal conjunctions of request-key atoms (value empty / non-empty, its strconv-parsed integer != 0 / > 0) under which every path from entry ends in an error response (status >= 400) are extracted (today: enumerate after!=\"\" && int(maxwaitsec)!=0; stat camliversion==\"\"); for every request pkg/client builds for the same /camli/<action> URL (URL and body text modelled as format calls, literals, concatenations, bytes.Buffer writes, url.Values) some atom can never hold, or two atoms exclude each other on every pair of values the two keys may carry, by a guard about the very value emitted for the other key that is evaluated for the iteration being formatted; a request whose pieces arrive through the parameters of an unexported helper is judged in the helper's callers; " +
+			"N-stat — the stat handler records a requested ref only when it parsed and the per-request count is within the limit, rejects for 'too many' only after having seen a non-empty value for that index (a batch of exactly the limit is answered), answers 200/JSON only when no StatBlobs call failed, and records results only from the callback's own argument; " +
+			"N-get — ServeBlobRef reaches http.ServeContent only on the err==nil edge of Fetch, serves content derived from that fetch's reader with that fetch's size, and closes the reader on every path (deferred or explicit). " +
 			"NOT decided: that a concrete client/server exchange over any configuration returns the reference map's answer; pagination completeness for concrete histories; batch-size limits at run time (the numeric rejections 'too many blobN', 'blob too big', malformed refs are outside N-compat: only rejections decided by key presence/emptiness/zero-ness alone are compared; header- and method-based rejections are not modelled); protocol clients outside pkg/client; the multipart/PUT upload handlers (claimed under C02 R-http) and authentication (C17); HTTP framing done by net/http.",
 		RuleDocs: map[string]string{
-			"N-longpoll":    "symbolic guard evaluation over the CFG of each caller of blobserver.WaitForBlob in pkg/blobserver/handlers: reachability of the query / the wait under {wait!=0, now<deadline}; no query->query cycle under {wait!=0, now>deadline}",
-			"N-continue":    "value dependence + dominance in handlers.handleEnumerateBlobs (after/limit arguments, continueAfter emission, short-page reset, error exit before terminator)",
-			"N-client-page": "value dependence in client.(*Client).EnumerateBlobsOpts (continueAfter -> loop guard and next after=; sends derive from blobRef/size)",
-			"N-compat":      "per routed handler: minimal sets of request-key atoms (empty/non-empty, parsed int zero/non-zero/positive) that force an error response on every path (symbolic guard evaluation on the handler CFG); per pkg/client request for the same action: request-text model (format calls, literals, +, bytes.Buffer writes, url.Values), per key the values it may carry traced through phis with the guards of each edge; rule: some atom unsatisfiable, or two atoms mutually exclusive on all value pairs by a same-iteration guard on the other key's emitted value",
-			"N-keys":        "table agreement by go/constant values between pkg/client request builders / response readers and the handlers' FormValue keys / written members; numbered key base; shared response struct types",
-			"N-stat":        "dominance/reachability in handlers.handleStat (reject-before-record, error exit before ReturnJSON, callback appends its own argument)",
-			"N-get":         "dominance + value dependence + pairing in gethandler.ServeBlobRef",
+			"N-longpoll":    "symbolic guard evaluation over the inlined CFG of each handler body that calls blobserver.WaitForBlob: reachability of the query / the wait under {wait!=0, now<deadline}; no query->query cycle under {wait!=0, now>deadline}",
+			"N-continue":    "value dependence + dominance in the effective body of the enumerate-blobs handler (after/limit arguments, clamp of every limit definition, continueAfter emission, short-page reset against the limit passed on, error exit before terminator)",
+			"N-client-page": "value dependence in the effective body of client.(*Client).EnumerateBlobsOpts (continueAfter member -> loop guard and next after=; sends on the caller's channel derive from blobRef/size members)",
+			"N-compat":      "per routed handler body: minimal sets of request-key atoms (empty/non-empty, parsed int zero/non-zero/positive) that force an error response on every path (symbolic guard evaluation on the inlined CFG); per pkg/client request for the same action: request-text model (format calls, literals, +, bytes.Buffer writes, url.Values), per key the values it may carry traced through phis, parameters and helper results with the guards of each edge; rule: some atom unsatisfiable, or two atoms mutually exclusive on all value pairs by a same-iteration guard on the other key's emitted value",
+			"N-keys":        "table agreement by go/constant values between the pkg/client request models / response readers and the routed handlers' request-key reads / written members; numbered key base; shared response struct types",
+			"N-stat":        "dominance/reachability in the effective body of the stat handler (reject-before-record, over-limit reject only after a non-empty value, error exit before ReturnJSON, callback appends its own argument)",
+			"N-get":         "dominance + value dependence + all-paths pairing in the effective body of gethandler.ServeBlobRef",
 		},
 		Run:       runC18,
 		DesignRef: "DESIGN.md §4 C18",
-		Technique: "static analysis: symbolic guard evaluation on the CFG (long-poll polarity; key-only rejection conjunctions of the handlers), value-dependence and dominance rules on the handlers and the client, guarded value tracing through phis with an incarnation (loop-iteration) check for client request parameters, table agreement of protocol keys by constant values",
-		LevelText: "Decides structural necessary conditions of the wire protocol only: long-poll loops query before the deadline and stop after it; the enumerate continuation is produced from the last emitted ref exactly on full pages and consumed by the client's loop; protocol keys and numbered-key bases agree between client and handlers; no pkg/client request builder can emit a combination of parameters (per loop iteration) that a routed handler rejects on key presence/emptiness/zero-ness alone; stat/get handlers answer success only on the success edge of the storage call. Does not decide end-to-end map semantics for any concrete history or configuration.",
+		Technique: "static analysis on the inlined view of each anchor's effective body (contexts per call site, parameter/result mapping, per-return and per-phi-edge clones so that dominance carries across helper calls): symbolic guard evaluation (long-poll polarity; key-only rejection conjunctions of the handlers), value-dependence and dominance rules on the handlers and the client, guarded value tracing with an incarnation (loop-iteration) check for client request parameters, table agreement of protocol keys by constant values",
+		LevelText: "Decides structural necessary conditions of the wire protocol only: long-poll loops query before the deadline and stop after it; the enumerate continuation is produced from the last emitted ref exactly on full pages and consumed by the client's loop; protocol keys and numbered-key bases agree between client and handlers; no pkg/client request builder can emit a combination of parameters (per loop iteration) that a routed handler rejects on key presence/emptiness/zero-ness alone; stat/get handlers answer success only on the success edge of the storage call and a stat batch of exactly the limit is not refused. Does not decide end-to-end map semantics for any concrete history or configuration.",
 	})
 }
 
 func runC18(p *Program, r *Reporter) {
-	c18Longpoll(p, r)
-	c18Continue(p, r)
-	c18ClientPage(p, r)
-	c18Keys(p, r)
-	c18Compat(p, r)
-	c18Stat(p, r)
-	c18Get(p, r)
+	t0 := time.Now()
+	step := func(name string, f func(*Program, *Reporter)) {
+		t := time.Now()
+		f(p, r)
+		if c18Debug {
+			fmt.Printf("DBG time %-14s %6.0f ms\n", name, float64(time.Since(t).Microseconds())/1000)
+		}
+	}
+	step("N-longpoll", c18Longpoll)
+	step("N-continue", c18Continue)
+	step("N-client-page", c18ClientPage)
+	step("N-keys", c18Keys)
+	step("N-compat", c18Compat)
+	step("N-stat", c18Stat)
+	step("N-get", c18Get)
+	// an effective body that exceeded the node budget was analysed with some
+	// calls left opaque: say so rather than pass silently
+	seenT := map[*c18X]bool{}
+	for _, x := range c18TruncatedGraphs {
+		if x.P == p && !seenT[x] {
+			seenT[x] = true
+			r.Undecided("N-compat", FuncKey(x.Root)+"#effective-body", p.Pos(x.Root.Pos()), fmt.Sprintf("the effective body of this function exceeds the analysis budget (%d nodes): calls beyond it were left opaque", c18MaxNodes))
+		}
+	}
+	c18TruncatedGraphs = nil
+	if c18Debug {
+		fmt.Printf("DBG time total %.0f ms\n", float64(time.Since(t0).Microseconds())/1000)
+		for _, x := range c18XCache[p] {
+			fmt.Printf("DBG graph %s truncated=%v\n", x, x.Truncated)
+		}
+	}
 }
 
 // ---------------------------------------------------------------------------
 // shared helpers
-
-// c18Reach returns the instructions reachable after start when branch
-// conditions decided by assume are followed only along the decided edge.
-func c18Reach(start ssa.Instruction, assume func(ssa.Value) (known, val bool)) map[ssa.Instruction]bool {
-	out := map[ssa.Instruction]bool{}
-	seen := map[*ssa.BasicBlock]bool{}
-	var walk func(b *ssa.BasicBlock, from int)
-	walk = func(b *ssa.BasicBlock, from int) {
-		for i := from; i < len(b.Instrs); i++ {
-			in := b.Instrs[i]
-			out[in] = true
-			if ifi, ok := in.(*ssa.If); ok && assume != nil {
-				if k, v := assume(ifi.Cond); k {
-					s := b.Succs[1]
-					if v {
-						s = b.Succs[0]
-					}
-					if !seen[s] {
-						seen[s] = true
-						walk(s, 0)
-					}
-					return
-				}
-			}
-		}
-		for _, s := range b.Succs {
-			if !seen[s] {
-				seen[s] = true
-				walk(s, 0)
-			}
-		}
-	}
-	walk(start.Block(), instrIndex(start)+1)
-	return out
-}
-
-// c18Depends is DependsOn extended through loads of struct/array locals: a
-// load of (a field or element of) a local Alloc depends on every value stored
-// to any address rooted at that Alloc (composite literals, `sb := <-ch`
-// followed by sb.Ref).
-func c18Depends(v ssa.Value, target func(ssa.Value) bool) bool {
-	seen := map[ssa.Value]bool{}
-	var rootAlloc func(a ssa.Value) *ssa.Alloc
-	rootAlloc = func(a ssa.Value) *ssa.Alloc {
-		for i := 0; i < 8; i++ {
-			switch x := a.(type) {
-			case *ssa.Alloc:
-				return x
-			case *ssa.FieldAddr:
-				a = x.X
-			case *ssa.IndexAddr:
-				a = x.X
-			default:
-				return nil
-			}
-		}
-		return nil
-	}
-	var walk func(v ssa.Value, depth int) bool
-	walk = func(v ssa.Value, depth int) bool {
-		if v == nil || seen[v] || depth > 80 {
-			return false
-		}
-		seen[v] = true
-		if DependsOn(v, target) {
-			return true
-		}
-		found := false
-		DependsOn(v, func(x ssa.Value) bool {
-			if found {
-				return true
-			}
-			u, ok := x.(*ssa.UnOp)
-			if !ok || u.Op != token.MUL {
-				return false
-			}
-			al := rootAlloc(u.X)
-			if al == nil {
-				return false
-			}
-			fn := al.Parent()
-			for _, b := range fn.Blocks {
-				for _, in := range b.Instrs {
-					if st, ok := in.(*ssa.Store); ok && rootAlloc(st.Addr) == al {
-						if walk(st.Val, depth+1) {
-							found = true
-							return true
-						}
-					}
-				}
-			}
-			return false
-		})
-		return found
-	}
-	return walk(v, 0)
-}
-
-// c18ConstStrings lists the string constants used as operands in fn (and,
-// with deep, in its literals), in program order.
-func c18ConstStrings(fn *ssa.Function, deep bool) []string {
-	var out []string
-	var walk func(f *ssa.Function)
-	walk = func(f *ssa.Function) {
-		for _, b := range f.Blocks {
-			for _, in := range b.Instrs {
-				for _, op := range in.Operands(nil) {
-					if *op == nil {
-						continue
-					}
-					if c, ok := (*op).(*ssa.Const); ok && c.Value != nil && c.Value.Kind() == constant.String {
-						out = append(out, constant.StringVal(c.Value))
-					}
-				}
-			}
-		}
-		if deep {
-			for _, a := range f.AnonFuncs {
-				walk(a)
-			}
-		}
-	}
-	walk(fn)
-	return out
-}
-
-// c18CallsWithConstArg finds calls in fn whose callee satisfies pred and that
-// have the constant string s among their arguments.
-func c18CallsWithConstArg(fn *ssa.Function, s string, pred func(CallSite) bool) []CallSite {
-	return FindCalls(fn, true, func(c CallSite) bool {
-		if !pred(c) {
-			return false
-		}
-		for _, a := range c.Common().Args {
-			if v, ok := ConstString(a); ok && v == s {
-				return true
-			}
-		}
-		return false
-	})
-}
-
-func c18IsFormValue(c CallSite) bool { return c.IsStatic("net/http", "Request", "FormValue") }
 
 // c18VarargElems returns the values stored into the variadic slice argument v
 // (a `slice t[:]` of a `new [N]any (varargs)` array).
@@ -225,17 +110,29 @@ func c18VarargElems(v ssa.Value) []ssa.Value {
 	return out
 }
 
-// c18FormatCalls returns fmt.Sprintf/Fprintf calls in fn (deep) whose constant
-// format string satisfies match, with their variadic argument values.
-type c18Fmt struct {
-	Call   CallSite
-	Format string
-	Args   []ssa.Value
+// varargs returns the elements of the variadic argument v of a call made in
+// context ctx (the argument may be a parameter of an inlined helper).
+func (x *c18X) varargs(ctx *c18Ctx, v ssa.Value) []c18XV {
+	c := x.Canon(c18XV{ctx, v})
+	var out []c18XV
+	for _, e := range c18VarargElems(c.V) {
+		out = append(out, c18XV{c.Ctx, e})
+	}
+	return out
 }
 
-func c18FormatCalls(fn *ssa.Function, match func(string) bool) []c18Fmt {
+type c18Fmt struct {
+	Call   c18XI
+	Format string
+	Args   []c18XV
+}
+
+// formatCalls returns the fmt.Sprintf/Errorf/Fprintf call instances of the
+// graph whose constant format string satisfies match.
+func (x *c18X) formatCalls(match func(string) bool) []c18Fmt {
 	var out []c18Fmt
-	for _, c := range CallsIn(fn, true) {
+	for _, xi := range x.Calls(func(xi c18XI, c CallSite) bool { return true }) {
+		c := CallSite{xi.Ctx.Fn, xi.In.(ssa.CallInstruction)}
 		fi := -1
 		switch {
 		case c.IsStatic("fmt", "", "Sprintf"), c.IsStatic("fmt", "", "Errorf"):
@@ -247,537 +144,88 @@ func c18FormatCalls(fn *ssa.Function, match func(string) bool) []c18Fmt {
 			continue
 		}
 		args := c.Common().Args
-		f, ok := ConstString(args[fi])
+		f, ok := x.ConstString(c18XV{xi.Ctx, args[fi]})
 		if !ok || !match(f) {
 			continue
 		}
-		out = append(out, c18Fmt{c, f, c18VarargElems(args[len(args)-1])})
+		out = append(out, c18Fmt{xi, f, x.varargs(xi.Ctx, args[len(args)-1])})
 	}
 	return out
 }
 
-// ---------------------------------------------------------------------------
-// N-longpoll
-
-func c18Longpoll(p *Program, r *Reporter) {
-	wait := p.Func("pkg/blobserver", "", "WaitForBlob")
-	n := 0
-	for _, c := range p.StaticCallers(wait) {
-		fn := c.Fn
-		if RelPkg(fn.Pkg.Pkg) != "pkg/blobserver/handlers" || fn.Parent() != nil {
-			continue
-		}
-		n++
-		key := FuncKey(fn)
-		site := p.Pos(c.Pos())
-		// deadline value = second argument of WaitForBlob; must be time.Now().Add(dur)
-		deadline := originValue(c.Common().Args[1])
-		add, ok := deadline.(*ssa.Call)
-		if !ok || !(CallSite{fn, add}).IsStatic("time", "Time", "Add") {
-			r.Undecided("N-longpoll", key+"#deadline", site, "the deadline passed to WaitForBlob is not a time.Now().Add(d) value computed in this function; cannot evaluate the long-poll guards")
-			continue
-		}
-		dur := add.Call.Args[1]
-		isWait := func(v ssa.Value) bool {
-			o := originValue(v)
-			if _, isConst := o.(*ssa.Const); isConst {
-				return false
-			}
-			if b, ok := o.Type().Underlying().(*types.Basic); !ok || b.Info()&types.IsInteger == 0 {
-				return false
-			}
-			return DependsOn(dur, func(x ssa.Value) bool { return x == o })
-		}
-		mkAssume := func(before bool) func(ssa.Value) (bool, bool) {
-			var ev func(cond ssa.Value) (bool, bool)
-			ev = func(cond ssa.Value) (bool, bool) {
-				switch x := cond.(type) {
-				case *ssa.UnOp:
-					if x.Op == token.NOT {
-						k, v := ev(x.X)
-						return k, !v
-					}
-				case *ssa.BinOp:
-					if x.Op == token.EQL || x.Op == token.NEQ {
-						var other ssa.Value
-						if z, ok := ConstInt(x.Y); ok && z == 0 {
-							other = x.X
-						} else if z, ok := ConstInt(x.X); ok && z == 0 {
-							other = x.Y
-						}
-						if other != nil && isWait(other) {
-							return true, x.Op == token.NEQ // wait != 0 is assumed
-						}
-					}
-				case *ssa.Call:
-					cs := CallSite{x.Parent(), x}
-					isBefore := cs.IsStatic("time", "Time", "Before")
-					isAfter := cs.IsStatic("time", "Time", "After")
-					if (isBefore || isAfter) && len(x.Call.Args) == 2 {
-						recv, arg := originValue(x.Call.Args[0]), originValue(x.Call.Args[1])
-						nowCall := func(v ssa.Value) bool {
-							cl, ok := v.(*ssa.Call)
-							return ok && (CallSite{cl.Parent(), cl}).IsStatic("time", "", "Now")
-						}
-						switch {
-						case nowCall(recv) && arg == deadline: // now.Before(deadline) / now.After(deadline)
-							return true, isBefore == before
-						case recv == deadline && nowCall(arg): // deadline.After(now) / deadline.Before(now)
-							return true, isAfter == before
-						}
-					}
-				}
-				return false, false
-			}
-			return ev
-		}
-		// the storage query: an invoke of EnumerateBlobs/StatBlobs in fn, or the go/call of a literal containing one
-		isQuery := func(cs CallSite) bool {
-			cc := cs.Common()
-			return cc.IsInvoke() && (cc.Method.Name() == "EnumerateBlobs" || cc.Method.Name() == "StatBlobs")
-		}
-		var query ssa.Instruction
-		for _, cs := range CallsIn(fn, false) {
-			if isQuery(cs) {
-				query = cs.Instr
-				break
-			}
-			if lit := ClosureOf(cs); lit != nil && len(FindCalls(lit, true, isQuery)) > 0 {
-				query = cs.Instr
-				break
-			}
-		}
-		if query == nil {
-			r.Undecided("N-longpoll", key+"#query", site, "no EnumerateBlobs/StatBlobs query found in a handler that long-polls")
-			continue
-		}
-		entry := fn.Blocks[0].Instrs[0]
-		beforeReach := c18Reach(entry, mkAssume(true))
-		r.Check(beforeReach[query] || entry == query, "N-longpoll", key+"#query-before-deadline", p.Pos(query.Pos()),
-			"with long-poll requested and the deadline not yet passed, the storage query is reachable from entry",
-			"with long-poll requested (wait seconds != 0) and the deadline not yet passed, no path from entry reaches the storage query: the handler answers without ever asking the storage (time comparison has the wrong polarity)")
-		afterQ := c18Reach(query, mkAssume(true))
-		r.Check(afterQ[c.Instr], "N-longpoll", key+"#wait-after-query", site,
-			"with long-poll requested and the deadline not yet passed, WaitForBlob is reachable after the query",
-			"with long-poll requested and the deadline not yet passed, WaitForBlob is unreachable after the query: the handler cannot wait for new blobs")
-		late := c18Reach(query, mkAssume(false))
-		r.Check(!late[query], "N-longpoll", key+"#stops-at-deadline", p.Pos(query.Pos()),
-			"once the deadline has passed the query cannot be reached again (the loop ends)",
-			"with the deadline passed the storage query can still reach itself: the long-poll loop does not stop at the deadline")
+// reqKeyArg: v is the value of a request key (FormValue/PostFormValue, or Get
+// on req.URL.Query() / req.Form); returns the key argument.
+func (x *c18X) reqKeyArg(v c18XV) (c18XV, bool) {
+	v = x.Canon(v)
+	cl, ok := v.V.(*ssa.Call)
+	if !ok {
+		return c18XV{}, false
 	}
-	r.Floor("N-longpoll", 6)
-	r.Analysed("longpoll_handlers", n)
-}
-
-// ---------------------------------------------------------------------------
-// N-continue
-
-func c18Continue(p *Program, r *Reporter) {
-	fn := p.Func("pkg/blobserver/handlers", "", "handleEnumerateBlobs")
-	key := FuncKey(fn)
-	enumIface := p.Iface("pkg/blobserver", "BlobEnumerator")
-	qs := FindCalls(fn, true, func(c CallSite) bool { return c.IsMethod("EnumerateBlobs", enumIface) })
-	if len(qs) != 1 {
-		brokenf("anchor unresolved: expected exactly one EnumerateBlobs call in %s, found %d", key, len(qs))
-	}
-	q := qs[0]
-	args := q.Args() // recv, ctx, dest, after, limit
-	formCall := func(name string) func(ssa.Value) bool {
-		return func(v ssa.Value) bool {
-			cl, ok := v.(*ssa.Call)
-			if !ok || !c18IsFormValue(CallSite{cl.Parent(), cl}) {
-				return false
+	cs := CallSite{cl.Parent(), cl}
+	switch {
+	case cs.IsStatic("net/http", "Request", "FormValue"), cs.IsStatic("net/http", "Request", "PostFormValue"):
+		return c18XV{v.Ctx, cl.Call.Args[1]}, true
+	case cs.IsStatic("net/url", "Values", "Get"):
+		fromReq := x.Depends(c18XV{v.Ctx, cl.Call.Args[0]}, func(y c18XV) bool {
+			if c2, ok := y.V.(*ssa.Call); ok && (CallSite{c2.Parent(), c2}).IsStatic("net/url", "URL", "Query") {
+				return true
 			}
-			s, ok := ConstString(cl.Call.Args[1])
-			return ok && s == name
-		}
-	}
-	r.Check(DependsOn(args[3], formCall("after")), "N-continue", key+"#after-arg", p.Pos(q.Pos()),
-		"the cursor passed to EnumerateBlobs derives from the request's 'after' parameter",
-		"the cursor passed to EnumerateBlobs does not derive from FormValue(\"after\"): a continuation request restarts or skips")
-	// limit: every store to the limit variable that depends on the parsed request value is on the
-	// not-greater edge of a comparison with the storage maximum
-	limitArg := args[4]
-	r.Check(DependsOn(limitArg, formCall("limit")), "N-continue", key+"#limit-arg", p.Pos(q.Pos()),
-		"the limit passed to EnumerateBlobs derives from the request's 'limit' parameter",
-		"the limit passed to EnumerateBlobs does not derive from FormValue(\"limit\")")
-	limitCell := c18CellOf(limitArg)
-	if limitCell == nil {
-		r.Undecided("N-continue", key+"#limit-clamp", p.Pos(q.Pos()), "cannot identify the variable holding the limit")
-	} else {
-		isParsed := func(v ssa.Value) bool {
-			cl, ok := v.(*ssa.Call)
-			return ok && ((CallSite{cl.Parent(), cl}).IsStatic("strconv", "", "ParseUint") || (CallSite{cl.Parent(), cl}).IsStatic("strconv", "", "Atoi") || (CallSite{cl.Parent(), cl}).IsStatic("strconv", "", "ParseInt"))
-		}
-		isMax := func(v ssa.Value) bool {
-			return DependsOn(v, func(x ssa.Value) bool {
-				cl, ok := x.(*ssa.Call)
-				if ok && cl.Call.IsInvoke() && cl.Call.Method.Name() == "MaxEnumerate" {
-					return true
-				}
-				return false
-			})
-		}
-		okClamp, parsedStores := true, 0
-		why := ""
-		for _, st := range storesTo(limitCell) {
-			if !DependsOn(st.Val, isParsed) {
-				continue
-			}
-			parsedStores++
-			clamped := false
-			for _, f := range FactsAt(st.Block()) {
-				bo, ok := f.Cond.(*ssa.BinOp)
-				if !ok {
-					continue
-				}
-				// parsed > max  (false)   or  parsed <= max (true) ...
-				lp, rp := DependsOn(bo.X, isParsed), DependsOn(bo.Y, isParsed)
-				lm, rm := isMax(bo.X), isMax(bo.Y)
-				switch {
-				case lp && rm && (bo.Op == token.GTR && !f.Val || bo.Op == token.LEQ && f.Val || bo.Op == token.GEQ && !f.Val || bo.Op == token.LSS && f.Val):
-					clamped = true
-				case rp && lm && (bo.Op == token.LSS && !f.Val || bo.Op == token.GEQ && f.Val || bo.Op == token.LEQ && !f.Val || bo.Op == token.GTR && f.Val):
-					clamped = true
+			if fa, ok := y.V.(*ssa.FieldAddr); ok {
+				if pt, ok := fa.X.Type().Underlying().(*types.Pointer); ok && IsNamed(pt.Elem(), "net/http", "Request") {
+					n := fieldName(pt.Elem(), fa.Field)
+					return n == "Form" || n == "PostForm"
 				}
 			}
-			if !clamped {
-				okClamp = false
-				why = fmt.Sprintf("the store of the parsed request value into the limit at line %d is not guarded by a comparison with the storage's MaxEnumerate", p.Fset.Position(st.Pos()).Line)
-			}
-		}
-		if parsedStores == 0 {
-			okClamp, why = false, "no store of the parsed 'limit' value found"
-		}
-		r.Check(okClamp, "N-continue", key+"#limit-clamp", p.Pos(q.Pos()),
-			"the client-supplied limit reaches EnumerateBlobs only when not greater than the storage's maximum", why)
-	}
-	// continueAfter emission
-	conts := c18FormatCalls(fn, func(f string) bool { return strings.Contains(f, "continueAfter") })
-	if len(conts) != 1 || len(conts[0].Args) != 1 {
-		r.Violation("N-continue", key+"#continueAfter", p.Pos(fn.Pos()), "the handler no longer writes exactly one continueAfter member from one value: full pages cannot be continued")
-		r.Floor("N-continue", 7)
-		return
-	}
-	cont := conts[0]
-	cv := cont.Args[0]
-	if mi, ok := cv.(*ssa.MakeInterface); ok {
-		cv = mi.X
-	}
-	// (1) emitted only when non-empty
-	nonEmpty := false
-	for _, f := range FactsAt(cont.Call.Block()) {
-		if bo, ok := f.Cond.(*ssa.BinOp); ok && (bo.Op == token.NEQ && f.Val || bo.Op == token.EQL && !f.Val) {
-			if s, ok := ConstString(bo.Y); ok && s == "" && sameOrigin(bo.X, cv) {
-				nonEmpty = true
-			}
-		}
-	}
-	r.Check(nonEmpty, "N-continue", key+"#continueAfter-nonempty", p.Pos(cont.Call.Pos()),
-		"continueAfter is written only under value != \"\"", "continueAfter is written without testing that the value is non-empty: clients loop forever on the last page")
-	// (2) derives from Ref.String() of a value received from the channel fed by the query
-	fromRecv := DependsOn(cv, func(x ssa.Value) bool {
-		cl, ok := x.(*ssa.Call)
-		if !ok || !(CallSite{cl.Parent(), cl}).IsStatic("perkeep.org/pkg/blob", "Ref", "String") {
 			return false
-		}
-		return c18Depends(cl.Call.Args[0], func(y ssa.Value) bool {
-			u, ok := y.(*ssa.UnOp)
-			return ok && u.Op == token.ARROW
 		})
-	})
-	r.Check(fromRecv, "N-continue", key+"#continueAfter-last-ref", p.Pos(cont.Call.Pos()),
-		"the continueAfter value derives from the String() of a ref received from the enumeration channel",
-		"the continueAfter value does not derive from a ref received from the enumeration: the next page would not start after the last emitted blob")
-	// (3) cleared on the short-page edge: a phi on the value's chain receives "" from a block
-	// guarded by count < limit (count incremented per received blob)
-	cleared, clearWhy := c18ShortPageReset(cv, limitCell)
-	r.Check(cleared, "N-continue", key+"#short-page-reset", p.Pos(cont.Call.Pos()),
-		"the continuation value is reset to \"\" on the edge where fewer blobs than the limit were received", clearWhy)
-	// (4) an enumeration error exits before the terminator writes
-	var errRecv *ssa.UnOp
-	for _, b := range fn.Blocks {
-		for _, in := range b.Instrs {
-			if u, ok := in.(*ssa.UnOp); ok && u.Op == token.ARROW && isErrorType(u.Type()) {
-				errRecv = u
-			}
+		if fromReq {
+			return c18XV{v.Ctx, cl.Call.Args[1]}, true
 		}
 	}
-	if errRecv == nil {
-		r.Violation("N-continue", key+"#error-exit", p.Pos(q.Pos()), "the handler no longer receives the enumeration's error result: a failed enumeration would be reported as a complete list")
-	} else {
-		okErr := false
-		why := "the enumeration error is never tested"
-		for _, b := range fn.Blocks {
-			ifi, ok := b.Instrs[len(b.Instrs)-1].(*ssa.If)
-			if !ok {
-				continue
-			}
-			k, isNil := condSaysNil(ifi.Cond, true, errRecv)
-			if !k {
-				continue
-			}
-			errSucc := b.Succs[0]
-			if isNil {
-				errSucc = b.Succs[1]
-			}
-			reach := map[ssa.Instruction]bool{}
-			if len(errSucc.Instrs) > 0 {
-				reach = c18Reach(errSucc.Instrs[0], nil)
-				reach[errSucc.Instrs[0]] = true
-			}
-			okErr = true
-			for in := range reach {
-				ci, ok := in.(ssa.CallInstruction)
-				if !ok {
-					continue
-				}
-				cs := CallSite{fn, ci}
-				if cs.IsStatic("io", "", "WriteString") || cs.IsStatic("fmt", "", "Fprintf") {
-					for _, a := range cs.Common().Args {
-						if s, ok := ConstString(a); ok && (strings.Contains(s, "]") || strings.Contains(s, "continueAfter")) && !strings.Contains(s, "{{{") {
-							okErr = false
-							why = fmt.Sprintf("from the err != nil edge of the enumeration result the write %q at line %d is reachable: a failed enumeration is answered as a well-formed (truncated) list", s, p.Fset.Position(cs.Pos()).Line)
-						}
-					}
-				}
-			}
-		}
-		r.Check(okErr, "N-continue", key+"#error-exit", p.Pos(errRecv.Pos()),
-			"on the err != nil edge of the enumeration result the list/continuation terminator writes are unreachable", why)
-	}
-	r.Floor("N-continue", 7)
+	return c18XV{}, false
 }
 
-// c18CellOf returns the variable cell a value is loaded from (through
-// closure captures), or nil.
-func c18CellOf(v ssa.Value) *ssa.Alloc {
-	for i := 0; i < 8; i++ {
-		switch x := v.(type) {
-		case *ssa.UnOp:
-			if x.Op == token.MUL {
-				if cell, ok := varOf(x.X); ok {
-					al, _ := cell.(*ssa.Alloc)
-					return al
-				}
-			}
-			return nil
-		case *ssa.ChangeType:
-			v = x.X
-		case *ssa.Convert:
-			v = x.X
-		default:
-			return nil
-		}
+func (x *c18X) reqKeyOf(v c18XV) (string, bool) {
+	a, ok := x.reqKeyArg(v)
+	if !ok {
+		return "", false
 	}
-	return nil
+	return x.ConstString(a)
 }
 
-// c18ShortPageReset: somewhere on the phi chain feeding cv there is a phi with
-// a "" edge coming from the true edge of `count < limit` (or the false edge of
-// `count >= limit`, or `count != limit` true...), where limit loads limitCell
-// and count is a loop counter (phi of 0 and itself+1).
-func c18ShortPageReset(cv ssa.Value, limitCell *ssa.Alloc) (bool, string) {
-	seen := map[ssa.Value]bool{}
-	var phis []*ssa.Phi
-	var walk func(v ssa.Value)
-	walk = func(v ssa.Value) {
-		if seen[v] {
-			return
-		}
-		seen[v] = true
-		if ph, ok := v.(*ssa.Phi); ok {
-			phis = append(phis, ph)
-			for _, e := range ph.Edges {
-				walk(e)
-			}
-		}
-	}
-	walk(cv)
-	isCounter := func(v ssa.Value) bool {
-		ph, ok := v.(*ssa.Phi)
-		if !ok {
-			return false
-		}
-		zero, inc := false, false
-		for _, e := range ph.Edges {
-			if z, ok := ConstInt(e); ok && z == 0 {
-				zero = true
-			}
-			if bo, ok := e.(*ssa.BinOp); ok && bo.Op == token.ADD && bo.X == ssa.Value(ph) {
-				if o, ok := ConstInt(bo.Y); ok && o == 1 {
-					inc = true
-				}
-			}
-		}
-		return zero && inc
-	}
-	isLimit := func(v ssa.Value) bool {
-		c := c18CellOf(v)
-		return c != nil && c == limitCell
-	}
-	for _, ph := range phis {
-		for i, e := range ph.Edges {
-			if s, ok := ConstString(e); !ok || s != "" {
-				continue
-			}
-			pred := ph.Block().Preds[i]
-			// facts at pred (plus pred itself being the branch target)
-			for _, f := range FactsAt(pred) {
-				bo, ok := f.Cond.(*ssa.BinOp)
-				if !ok {
-					continue
-				}
-				cl := isCounter(bo.X) && isLimit(bo.Y)
-				lc := isLimit(bo.X) && isCounter(bo.Y)
-				switch {
-				case cl && (bo.Op == token.LSS && f.Val || bo.Op == token.GEQ && !f.Val || bo.Op == token.NEQ && f.Val || bo.Op == token.EQL && !f.Val):
-					return true, ""
-				case lc && (bo.Op == token.GTR && f.Val || bo.Op == token.LEQ && !f.Val || bo.Op == token.NEQ && f.Val || bo.Op == token.EQL && !f.Val):
-					return true, ""
-				}
-			}
-		}
-	}
-	return false, "the continuation value is never reset to \"\" on a 'received count < limit' edge: a short (last) page would still announce a continuation, or a full page would not"
-}
-
-// ---------------------------------------------------------------------------
-// N-client-page
-
-func c18ClientPage(p *Program, r *Reporter) {
-	fn := p.Func("pkg/client", "Client", "EnumerateBlobsOpts")
-	key := FuncKey(fn)
-	inClient := func(c CallSite) bool {
-		f := c.Callee()
-		return f != nil && InModule(f) && RelPkg(f.Pkg.Pkg) == "pkg/client"
-	}
-	ks := c18CallsWithConstArg(fn, "continueAfter", inClient)
-	if len(ks) != 1 || ks[0].Value() == nil {
-		r.Violation("N-client-page", key+"#continueAfter-read", p.Pos(fn.Pos()), "the client no longer reads the continueAfter member exactly once per page")
-		r.Floor("N-client-page", 4)
-		return
-	}
-	k := ks[0].Value()
-	val, present := ResultValue(k, 0), ResultValue(k, 1)
-	urls := c18FormatCalls(fn, func(f string) bool { return strings.Contains(f, "enumerate-blobs") })
-	if len(urls) != 1 {
-		brokenf("anchor unresolved: enumerate-blobs request URL in %s", key)
-	}
-	u := urls[0]
-	dependsVal := false
-	if val != nil {
-		for _, a := range u.Args {
-			if DependsOn(a, func(x ssa.Value) bool { return x == val }) {
-				dependsVal = true
-			}
-		}
-	}
-	r.Check(dependsVal, "N-client-page", key+"#next-after", p.Pos(u.Call.Pos()),
-		"the next request's URL depends on the continueAfter value of the previous response",
-		"the request URL does not depend on the previous response's continueAfter value: every page would be the first page")
-	// which URL key receives it: the verb position of the dependent argument must follow "after="
-	afterPos := false
-	if val != nil {
-		verbs := regexp.MustCompile(`%[a-zA-Z]`).FindAllStringIndex(u.Format, -1)
-		for i, a := range u.Args {
-			if i < len(verbs) && DependsOn(a, func(x ssa.Value) bool { return x == val }) {
-				if strings.HasSuffix(u.Format[:verbs[i][0]], "after=") {
-					afterPos = true
-				}
-			}
-		}
-	}
-	r.Check(afterPos, "N-client-page", key+"#after-key", p.Pos(u.Call.Pos()),
-		"the continuation value is sent as the after= parameter", "the continuation value is not placed after \"after=\" in the request URL")
-	guard := false
-	if present != nil {
-		for _, f := range FactsAt(u.Call.Block()) {
-			if f.Val && DependsOn(f.Cond, func(x ssa.Value) bool { return x == present }) {
-				guard = true
-			}
-		}
-	}
-	r.Check(guard, "N-client-page", key+"#loop-guard", p.Pos(u.Call.Pos()),
-		"the request loop is guarded by the presence flag of continueAfter",
-		"the request loop is not guarded by the presence of continueAfter in the previous response: paging stops early or never")
-	// sends
-	nSend := 0
-	okSend := true
-	chk := func(v ssa.Value, pos token.Pos) {
-		nSend++
-		for _, member := range []string{"blobRef", "size"} {
-			if !c18Depends(v, func(x ssa.Value) bool {
-				cl, ok := x.(*ssa.Call)
-				if !ok || !inClient(CallSite{cl.Parent(), cl}) {
-					return false
-				}
-				for _, a := range cl.Call.Args {
-					if s, ok := ConstString(a); ok && s == member {
-						return true
-					}
-				}
-				return false
-			}) {
-				okSend = false
-			}
-		}
-	}
-	for _, b := range fn.Blocks {
-		for _, in := range b.Instrs {
-			switch x := in.(type) {
-			case *ssa.Send:
-				chk(x.X, x.Pos())
-			case *ssa.Select:
-				for _, st := range x.States {
-					if st.Dir == types.SendOnly {
-						chk(st.Send, st.Pos)
-					}
-				}
-			}
-		}
-	}
-	r.Check(okSend && nSend > 0, "N-client-page", key+"#sends", p.Pos(fn.Pos()),
-		fmt.Sprintf("%d send(s): every value sent to the caller derives from the blobRef and size members of a response item", nSend),
-		"a value sent to the caller does not derive from both the blobRef and the size member of a response item")
-	r.Floor("N-client-page", 4)
-}
-
-// ---------------------------------------------------------------------------
-// N-keys
-
-var c18QueryKeyRE = regexp.MustCompile(`(?:^|[?&])([A-Za-z]+)(%[dv])?=`)
-
-// c18FirstValue evaluates the value an integer expression has the first time
-// it is computed: constants, +const, and loop phis (taking their constant
-// entry edge).
-func c18FirstValue(v ssa.Value, depth int) (int64, bool) {
-	if depth > 8 {
+// firstValue evaluates the value an integer expression has the first time it
+// is computed: constants, +const, and loop phis (taking their constant entry
+// edge).
+func (x *c18X) firstValue(v c18XV, depth int) (int64, bool) {
+	if depth > 10 {
 		return 0, false
 	}
-	switch x := v.(type) {
+	v = x.Canon(v)
+	switch t := v.V.(type) {
 	case *ssa.Const:
-		return ConstInt(x)
-	case *ssa.MakeInterface:
-		return c18FirstValue(x.X, depth+1)
+		if t.Value != nil && t.Value.Kind() == constant.Int {
+			return t.Int64(), true
+		}
 	case *ssa.Convert:
-		return c18FirstValue(x.X, depth+1)
+		return x.firstValue(c18XV{v.Ctx, t.X}, depth+1)
 	case *ssa.BinOp:
-		if x.Op == token.ADD {
-			if c, ok := ConstInt(x.Y); ok {
-				if b, ok := c18FirstValue(x.X, depth+1); ok {
+		if t.Op == token.ADD {
+			if c, ok := x.ConstInt(c18XV{v.Ctx, t.Y}); ok {
+				if b, ok := x.firstValue(c18XV{v.Ctx, t.X}, depth+1); ok {
+					return b + c, true
+				}
+			} else if c, ok := x.ConstInt(c18XV{v.Ctx, t.X}); ok {
+				if b, ok := x.firstValue(c18XV{v.Ctx, t.Y}, depth+1); ok {
 					return b + c, true
 				}
 			}
 		}
 	case *ssa.Phi:
 		n, val := 0, int64(0)
-		for _, e := range x.Edges {
-			if c, ok := e.(*ssa.Const); ok {
-				if z, ok := ConstInt(c); ok {
-					n++
-					val = z
-				}
+		for _, e := range t.Edges {
+			if z, ok := x.ConstInt(c18XV{v.Ctx, e}); ok {
+				n++
+				val = z
 			}
 		}
 		if n == 1 {
@@ -787,197 +235,78 @@ func c18FirstValue(v ssa.Value, depth int) (int64, bool) {
 	return 0, false
 }
 
-func c18Keys(p *Program, r *Reporter) {
-	// --- enumerate: query keys and JSON members
-	hEnum := p.Func("pkg/blobserver/handlers", "", "handleEnumerateBlobs")
-	cEnum := p.Func("pkg/client", "Client", "EnumerateBlobsOpts")
-	serverKeys := func(fn *ssa.Function) (plain map[string]bool, numbered map[string]int64) {
-		plain, numbered = map[string]bool{}, map[string]int64{}
-		for _, c := range FindCalls(fn, true, c18IsFormValue) {
-			arg := c.Common().Args[1]
-			if s, ok := ConstString(arg); ok {
-				plain[s] = true
-				continue
-			}
-			if cl, ok := originValue(arg).(*ssa.Call); ok && (CallSite{cl.Parent(), cl}).IsStatic("fmt", "", "Sprintf") {
-				if f, ok := ConstString(cl.Call.Args[0]); ok {
-					if m := regexp.MustCompile(`^([A-Za-z]+)%[dv]$`).FindStringSubmatch(f); m != nil {
-						el := c18VarargElems(cl.Call.Args[1])
-						if len(el) == 1 {
-							if fv, ok := c18FirstValue(el[0], 0); ok {
-								numbered[m[1]] = fv
-								continue
-							}
-						}
-						numbered[m[1]] = -999
+var c18NumFmtRE = regexp.MustCompile(`^([A-Za-z]+)%[dv]$`)
+
+// numberedKey: key is "<prefix><n>" built by Sprintf("prefix%d", n),
+// "prefix"+strconv.Itoa(n) or "prefix"+fmt.Sprint(n); returns the prefix and
+// the first value of n (-999 when it cannot be evaluated).
+func (x *c18X) numberedKey(key c18XV) (string, int64, bool) {
+	key = x.Canon(key)
+	first := func(v c18XV) int64 {
+		if fv, ok := x.firstValue(v, 0); ok {
+			return fv
+		}
+		return -999
+	}
+	switch t := key.V.(type) {
+	case *ssa.Call:
+		if (CallSite{t.Parent(), t}).IsStatic("fmt", "", "Sprintf") {
+			if f, ok := x.ConstString(c18XV{key.Ctx, t.Call.Args[0]}); ok {
+				if m := c18NumFmtRE.FindStringSubmatch(f); m != nil {
+					el := x.varargs(key.Ctx, t.Call.Args[1])
+					if len(el) == 1 {
+						return m[1], first(el[0]), true
 					}
+					return m[1], -999, true
 				}
 			}
 		}
-		return
-	}
-	// client-side keys: from constant format strings containing key=...; numbered keys with the first value of their argument
-	clientKeys := func(fcs []c18Fmt) (plain map[string]bool, numbered map[string]int64) {
-		plain, numbered = map[string]bool{}, map[string]int64{}
-		for _, fc := range fcs {
-			q := fc.Format
-			if i := strings.Index(q, "?"); i >= 0 {
-				q = q[i:]
-			} else if !strings.Contains(q, "=") && !regexp.MustCompile(`^[A-Za-z]+%[dv]$`).MatchString(q) {
-				continue
-			}
-			if m := regexp.MustCompile(`^([A-Za-z]+)%[dv]$`).FindStringSubmatch(q); m != nil && len(fc.Args) == 1 {
-				// a key built on its own: Sprintf("blob%v", n+1)
-				fv, ok := c18FirstValue(fc.Args[0], 0)
-				if !ok {
-					fv = -999
-				}
-				numbered[m[1]] = fv
-				continue
-			}
-			verbs := regexp.MustCompile(`%[a-zA-Z]`).FindAllStringIndex(q, -1)
-			for _, m := range c18QueryKeyRE.FindAllStringSubmatchIndex(q, -1) {
-				name := q[m[2]:m[3]]
-				if m[4] >= 0 { // numbered key: which verb index is it?
-					vi := -1
-					for i, vb := range verbs {
-						if vb[0] == m[4] {
-							vi = i
-						}
-					}
-					fv := int64(-999)
-					if vi >= 0 && vi < len(fc.Args) {
-						if x, ok := c18FirstValue(fc.Args[vi], 0); ok {
-							fv = x
-						}
-					}
-					numbered[name] = fv
-				} else {
-					plain[name] = true
+	case *ssa.BinOp:
+		if t.Op != token.ADD {
+			break
+		}
+		pfx, ok := x.ConstString(c18XV{key.Ctx, t.X})
+		if !ok || !regexp.MustCompile(`^[A-Za-z]+$`).MatchString(pfx) {
+			break
+		}
+		num := x.Canon(c18XV{key.Ctx, t.Y})
+		if cl, ok := num.V.(*ssa.Call); ok {
+			cs := CallSite{cl.Parent(), cl}
+			switch {
+			case cs.IsStatic("strconv", "", "Itoa"), cs.IsStatic("strconv", "", "FormatInt"), cs.IsStatic("strconv", "", "FormatUint"):
+				return pfx, first(c18XV{num.Ctx, cl.Call.Args[0]}), true
+			case cs.IsStatic("fmt", "", "Sprint"):
+				el := x.varargs(num.Ctx, cl.Call.Args[0])
+				if len(el) == 1 {
+					return pfx, first(el[0]), true
 				}
 			}
 		}
-		return
+		return pfx, -999, true
 	}
-	cmp := func(what, ckey string, cp map[string]bool, cn map[string]int64, sp map[string]bool, sn map[string]int64, site string, wantPlain, wantNum int) {
-		if len(cp) < wantPlain || len(cn) < wantNum {
-			r.Violation("N-keys", ckey+"#"+what+"-extract", site, fmt.Sprintf("extracted only %d plain / %d numbered request keys on the client side (expected at least %d / %d): the request builder changed shape; cannot compare", len(cp), len(cn), wantPlain, wantNum))
-			return
-		}
-		var names []string
-		for k := range cp {
-			names = append(names, k)
-		}
-		sort.Strings(names)
-		for _, k := range names {
-			r.Check(sp[k], "N-keys", ckey+"#"+what+"-key-"+k, site,
-				"request key '"+k+"' written by the client is read by the handler",
-				"request key '"+k+"' written by the client is not read by the handler (FormValue keys: "+c18SetString(sp)+")")
-		}
-		names = names[:0]
-		for k := range cn {
-			names = append(names, k)
-		}
-		sort.Strings(names)
-		for _, k := range names {
-			sv, ok := sn[k]
-			r.Check(ok && sv == cn[k] && sv != -999, "N-keys", ckey+"#"+what+"-numbered-"+k, site,
-				fmt.Sprintf("numbered key '%sN' starts at %d on both sides", k, sv),
-				fmt.Sprintf("numbered key '%sN': client starts at %d, handler at %d (present=%v): the handler's scan stops at the first missing index, so every blob of the request is ignored or the first one is", k, cn[k], sv, ok))
-		}
-	}
-	sp, sn := serverKeys(hEnum)
-	// every text fragment that flows into the URL or the body of the requests fn
-	// builds for the action (format calls, literals, buffer writes, url.Values
-	// entries - see the request model of N-compat)
-	modelFmts := func(fn *ssa.Function, action string) []c18Fmt {
-		var out []c18Fmt
-		for _, rq := range c18Requests(fn) {
-			if rq.Action != action {
-				continue
-			}
-			seenAt := map[ssa.Instruction]bool{}
-			for _, f := range rq.Frags {
-				if !seenAt[f.At] || f.Literal {
-					seenAt[f.At] = true
-					out = append(out, c18Fmt{Format: f.Text, Args: f.Args})
-				}
-			}
-		}
-		return out
-	}
-	cp, cn := clientKeys(modelFmts(cEnum, "enumerate-blobs"))
-	cmp("enumerate", FuncKey(cEnum), cp, cn, sp, sn, p.Pos(cEnum.Pos()), 3, 0)
-	// JSON members read by the client vs text written by the handler
-	written := strings.Join(c18ConstStrings(hEnum, true), "\x00")
-	members := map[string]bool{}
-	for _, c := range CallsIn(cEnum, true) {
-		f := c.Callee()
-		if f == nil || !InModule(f) || RelPkg(f.Pkg.Pkg) != "pkg/client" || !strings.HasPrefix(f.Name(), "getJSONMap") {
+	return "", 0, false
+}
+
+// reqKeyReads lists the request-key reads of the graph: plain constant keys and
+// numbered keys with their first index.
+func (x *c18X) reqKeyReads() (plain map[string]bool, numbered map[string]int64) {
+	plain, numbered = map[string]bool{}, map[string]int64{}
+	for _, xi := range x.Instrs(func(xi c18XI) bool { _, ok := xi.In.(*ssa.Call); return ok }) {
+		a, ok := x.reqKeyArg(c18XV{xi.Ctx, xi.In.(*ssa.Call)})
+		if !ok {
 			continue
 		}
-		for _, a := range c.Common().Args {
-			if s, ok := ConstString(a); ok {
-				members[s] = true
+		if s, ok := x.ConstString(a); ok {
+			plain[s] = true
+			continue
+		}
+		if pfx, fv, ok := x.numberedKey(a); ok {
+			if old, have := numbered[pfx]; !have || old == -999 {
+				numbered[pfx] = fv
 			}
 		}
 	}
-	var ms []string
-	for m := range members {
-		ms = append(ms, m)
-	}
-	sort.Strings(ms)
-	for _, m := range ms {
-		r.Check(strings.Contains(written, `"`+m+`"`), "N-keys", FuncKey(cEnum)+"#enumerate-member-"+m, p.Pos(cEnum.Pos()),
-			"response member \""+m+"\" read by the client is written by the handler",
-			"response member \""+m+"\" read by the client is not written by the enumerate handler")
-	}
-	if len(ms) < 4 {
-		r.Violation("N-keys", FuncKey(cEnum)+"#enumerate-members", p.Pos(cEnum.Pos()), fmt.Sprintf("only %d response members found on the client side (blobs, blobRef, size, continueAfter expected)", len(ms)))
-	}
-	// --- stat
-	hStat := p.Func("pkg/blobserver/handlers", "", "handleStat")
-	cStat := p.Func("pkg/client", "Client", "doStat")
-	sp, sn = serverKeys(hStat)
-	cp, cn = clientKeys(modelFmts(cStat, "stat"))
-	cmp("stat", FuncKey(cStat), cp, cn, sp, sn, p.Pos(cStat.Pos()), 2, 1)
-	// --- remove
-	hRem := p.Func("pkg/blobserver/handlers", "", "handleRemove")
-	cRem := p.Func("pkg/client", "Client", "RemoveBlobs")
-	sp, sn = serverKeys(hRem)
-	cp, cn = clientKeys(modelFmts(cRem, "remove"))
-	cmp("remove", FuncKey(cRem), cp, cn, sp, sn, p.Pos(cRem.Pos()), 0, 1)
-	// --- response struct types shared
-	statResp := p.NamedType("pkg/blobserver/protocol", "StatResponse")
-	usesType := func(fn *ssa.Function, n *types.Named) bool {
-		found := false
-		var walk func(f *ssa.Function)
-		walk = func(f *ssa.Function) {
-			for _, b := range f.Blocks {
-				for _, in := range b.Instrs {
-					if al, ok := in.(*ssa.Alloc); ok {
-						if nn := NamedOf(al.Type().(*types.Pointer).Elem()); nn != nil && nn.Obj() == n.Obj() {
-							found = true
-						}
-					}
-				}
-			}
-			for _, a := range f.AnonFuncs {
-				walk(a)
-			}
-		}
-		walk(fn)
-		return found
-	}
-	parse := p.Func("pkg/client", "", "parseStatResponse")
-	r.Check(usesType(hStat, statResp) && usesType(parse, statResp), "N-keys", "pkg/blobserver/protocol.StatResponse#shared", p.Pos(parse.Pos()),
-		"the stat handler encodes and the client decodes the same struct type protocol.StatResponse",
-		"the stat handler and the client no longer share protocol.StatResponse: member names can drift apart")
-	remResp := p.NamedType("pkg/blobserver/handlers", "RemoveResponse")
-	r.Check(usesType(hRem, remResp) && usesType(cRem, remResp), "N-keys", "pkg/blobserver/handlers.RemoveResponse#shared", p.Pos(cRem.Pos()),
-		"the remove handler encodes and the client decodes the same struct type handlers.RemoveResponse",
-		"the remove handler and the client no longer share handlers.RemoveResponse")
-	r.Floor("N-keys", 13)
+	return
 }
 
 func c18SetString(m map[string]bool) string {
@@ -989,130 +318,564 @@ func c18SetString(m map[string]bool) string {
 	return "{" + strings.Join(s, ",") + "}"
 }
 
-// ---------------------------------------------------------------------------
-// N-stat
+func c18HasReqParam(f *ssa.Function) bool {
+	for _, pa := range f.Params {
+		if pt, ok := pa.Type().(*types.Pointer); ok && IsNamed(pt.Elem(), "net/http", "Request") {
+			return true
+		}
+	}
+	return false
+}
 
-func c18Stat(p *Program, r *Reporter) {
-	fn := p.Func("pkg/blobserver/handlers", "", "handleStat")
-	key := FuncKey(fn)
-	// (1) the needStat map update is dominated by blob.Parse ok==true on the FormValue value and by the false edge of the count check
-	var upd *ssa.MapUpdate
-	for _, b := range fn.Blocks {
-		for _, in := range b.Instrs {
-			if mu, ok := in.(*ssa.MapUpdate); ok {
-				if n := NamedOf(mu.Key.Type()); n != nil && n.Obj().Name() == "Ref" {
-					upd = mu
-				}
-			}
+// errTest interprets cond as a nil test of error value ev under the
+// assumption that ev is nil: which edge is taken.
+func (x *c18X) assumeNil(ev c18XV) c18Assume {
+	return func(n *c18XB, cond ssa.Value) (bool, bool) {
+		if k, isNil := x.condNil(n, cond, true, ev); k {
+			return true, isNil
 		}
-	}
-	if upd == nil {
-		brokenf("anchor unresolved: map update recording a requested ref in %s", key)
-	}
-	parseOK, fromForm := false, false
-	if ex, ok := originValue(upd.Key).(*ssa.Extract); ok {
-		if cl, ok := ex.Tuple.(*ssa.Call); ok && (CallSite{fn, cl}).IsStatic("perkeep.org/pkg/blob", "", "Parse") {
-			fromForm = DependsOn(cl.Call.Args[0], func(x ssa.Value) bool {
-				c2, ok := x.(*ssa.Call)
-				return ok && c18IsFormValue(CallSite{fn, c2})
-			})
-			okv := ResultValue(cl, 1)
-			for _, f := range FactsAt(upd.Block()) {
-				if f.Val && okv != nil && sameOrigin(f.Cond, okv) {
-					parseOK = true
-				}
-			}
-		}
-	}
-	r.Check(parseOK && fromForm, "N-stat", key+"#record-parsed", p.Pos(upd.Pos()),
-		"a requested ref is recorded only when blob.Parse of the form value succeeded",
-		"the ref recorded for stat is not the successfully parsed form value: malformed requests are silently answered")
-	// count bound: some dominating fact compares the running index with a constant and the recording is on the not-greater edge
-	bound := false
-	for _, f := range FactsAt(upd.Block()) {
-		if bo, ok := f.Cond.(*ssa.BinOp); ok {
-			if c, ok := ConstInt(bo.Y); ok && c >= 1 && (bo.Op == token.GTR && !f.Val || bo.Op == token.LEQ && f.Val || bo.Op == token.GEQ && !f.Val || bo.Op == token.LSS && f.Val) {
-				if _, ok := c18FirstValue(bo.X, 0); ok {
-					bound = true
-				}
-			}
-		}
-	}
-	r.Check(bound, "N-stat", key+"#count-bound", p.Pos(upd.Pos()),
-		"recording a requested ref is on the within-limit edge of the per-request count check",
-		"the per-request count check no longer guards the recording of requested refs")
-	// rejects answer with an error, not silently: every return reachable from the !ok edge or the over-limit edge is preceded by BadRequestError
-	// (2) error exit: from err != nil of StatBlobs, ReturnJSON unreachable
-	statIface := p.Iface("pkg/blobserver", "BlobStatter")
-	qs := FindCalls(fn, false, func(c CallSite) bool { return c.IsMethod("StatBlobs", statIface) })
-	if len(qs) != 1 || qs[0].Value() == nil {
-		brokenf("anchor unresolved: StatBlobs call in %s", key)
-	}
-	q := qs[0]
-	rets := FindCalls(fn, false, func(c CallSite) bool { return c.IsStatic("perkeep.org/internal/httputil", "", "ReturnJSON") })
-	okErr := len(rets) > 0
-	why := "no ReturnJSON call found"
-	ev, _, discarded := ErrValue(q.Value())
-	if discarded {
-		okErr, why = false, "the error result of StatBlobs is discarded"
-	} else {
-		for _, b := range fn.Blocks {
-			ifi, ok := b.Instrs[len(b.Instrs)-1].(*ssa.If)
-			if !ok {
+		// err == <a sentinel that is never nil>
+		c, val := cond, true
+		for {
+			if u, ok := c.(*ssa.UnOp); ok && u.Op == token.NOT {
+				c, val = u.X, !val
 				continue
 			}
-			k, isNil := condSaysNil(ifi.Cond, true, ev)
-			if !k {
-				continue
-			}
-			errSucc := b.Succs[0]
-			if isNil {
-				errSucc = b.Succs[1]
-			}
-			reach := c18Reach(errSucc.Instrs[0], nil)
-			reach[errSucc.Instrs[0]] = true
-			for _, rc := range rets {
-				if reach[rc.Instr] {
-					okErr = false
-					why = "ReturnJSON (200 + JSON) is reachable from the err != nil edge of StatBlobs: a failed stat is answered as 'these blobs are absent'"
-				}
+			break
+		}
+		if bo, ok := c.(*ssa.BinOp); ok && (bo.Op == token.EQL || bo.Op == token.NEQ) {
+			l, rr := x.Resolve(n, bo.X), x.Resolve(n, bo.Y)
+			if (x.Same(l, ev) && isNonNilErrorExpr(rr.V)) || (x.Same(rr, ev) && isNonNilErrorExpr(l.V)) {
+				return true, (bo.Op == token.NEQ) == val
 			}
 		}
-		// and every ReturnJSON must be preceded by the test at all
-		for _, rc := range rets {
-			if !DependsOnErrTest(fn, ev) {
-				okErr, why = false, "the error of StatBlobs is never tested"
-			}
-			_ = rc
+		return false, false
+	}
+}
+
+// ---------------------------------------------------------------------------
+// routed handlers (by role)
+
+type c18Handler struct {
+	Action string
+	Ctor   *ssa.Function
+	X      *c18X
+	Req    *c18Ctx // the outermost context with a *http.Request parameter: the handler body
+	Key    string  // stable name: the outermost declared function with a *http.Request parameter
+}
+
+// entry returns the entry node of the handler body.
+func (h *c18Handler) entry() *c18XB {
+	for _, n := range h.X.Nodes {
+		if n.Ctx == h.Req && n.B == h.Req.Fn.Blocks[0] && n.Lo == 0 {
+			return n
 		}
 	}
-	r.Check(okErr, "N-stat", key+"#error-exit", p.Pos(q.Pos()), "ReturnJSON is unreachable from the err != nil edge of StatBlobs", why)
-	// (3) the callback appends its own argument
-	lits := FuncArgClosures(q)
-	okCb := false
-	if len(lits) == 1 && len(lits[0].Params) == 1 {
-		cb := lits[0]
-		for _, c := range CallsIn(cb, false) {
-			if b, ok := c.Common().Value.(*ssa.Builtin); ok && b.Name() == "append" {
-				for _, el := range c18VarargElems(c.Common().Args[1]) {
-					if DependsOn(el, func(x ssa.Value) bool { return x == ssa.Value(cb.Params[0]) }) {
-						okCb = true
+	return nil
+}
+
+var c18HandlerCache = map[*Program]map[string][]*c18Handler{}
+
+// c18Handlers reads the action -> handler table by role: a constructor of
+// pkg/blobserver/handlers (exported, returns http.Handler) called from
+// pkg/serverinit where a dominating fact says `<string> == "<action>"` (the
+// string not being the request's Method).
+func c18Handlers(p *Program) map[string][]*c18Handler {
+	if m, ok := c18HandlerCache[p]; ok {
+		return m
+	}
+	c18HandlerCache = map[*Program]map[string][]*c18Handler{}
+	routes := map[string][]*c18Handler{}
+	var ctors []*ssa.Function
+	for _, f := range p.FuncsIn("pkg/blobserver/handlers") {
+		if f.Parent() != nil || f.Object() == nil || !f.Object().Exported() || f.Signature.Recv() != nil {
+			continue
+		}
+		res := f.Signature.Results()
+		for i := 0; i < res.Len(); i++ {
+			if IsNamed(res.At(i).Type(), "net/http", "Handler") {
+				ctors = append(ctors, f)
+				break
+			}
+		}
+	}
+	mk := func(action string, ctor *ssa.Function) {
+		for _, o := range routes[action] {
+			if o.Ctor == ctor {
+				return
+			}
+		}
+		x := c18Graph(p, ctor)
+		h := &c18Handler{Action: action, Ctor: ctor, X: x}
+		for _, c := range x.Ctxs {
+			if c18HasReqParam(c.Fn) && (h.Req == nil || c.Depth < h.Req.Depth) {
+				h.Req = c
+			}
+		}
+		keyFallback := FuncKey(ctor)
+		if h.Req == nil {
+			// the handler is a value of a type of this package (closure turned into a
+			// method): its ServeHTTP is the body
+			for _, rt := range c18Returns(ctor) {
+				for _, rv := range rt.Results {
+					v := x.Canon(c18XV{x.Ctxs[0], rv}).V
+					t := v.Type()
+					if pt, ok := t.(*types.Pointer); ok {
+						t = pt.Elem()
+					}
+					n := NamedOf(t)
+					if n == nil || n.Obj().Pkg() != ctor.Pkg.Pkg {
+						continue
+					}
+					if m, declared := p.MethodOf(n, "ServeHTTP"); m != nil && declared && m.Blocks != nil && c18HasReqParam(m) && h.Req == nil {
+						h.X = c18Graph(p, m)
+						x = h.X
+						h.Req = x.Ctxs[0]
+						keyFallback = FuncKey(m)
 					}
 				}
 			}
 		}
+		if h.Req == nil {
+			return // the constructor delegates to another package (gethandler)
+		}
+		h.Key = keyFallback
+		best := -1
+		for _, c := range x.Ctxs {
+			if c18HasReqParam(c.Fn) && c.Fn.Parent() == nil && c.Fn.Name() != "ServeHTTP" && (best < 0 || c.Depth < best) {
+				best, h.Key = c.Depth, FuncKey(c.Fn)
+			}
+		}
+		routes[action] = append(routes[action], h)
 	}
-	r.Check(okCb, "N-stat", key+"#callback-appends-arg", p.Pos(q.Pos()),
-		"the StatBlobs callback appends its own SizedRef argument to the response",
-		"the StatBlobs callback does not append its own argument to the response")
-	r.Floor("N-stat", 4)
+	actionsAt := func(x *c18X, xi c18XI) []string {
+		var out []string
+		for _, f := range x.FactsOf(xi) {
+			bo, ok := f.Cond.(*ssa.BinOp)
+			if !ok || bo.Op != token.EQL || !f.Val {
+				continue
+			}
+			l, rr := x.Resolve(f.At, bo.X), x.Resolve(f.At, bo.Y)
+			s, ok := x.ConstString(l)
+			other := rr
+			if !ok {
+				s, ok = x.ConstString(rr)
+				other = l
+			}
+			if !ok {
+				continue
+			}
+			isMethod := x.Depends(other, func(y c18XV) bool {
+				fa, ok := y.V.(*ssa.FieldAddr)
+				if !ok {
+					return false
+				}
+				pt, ok := fa.X.Type().Underlying().(*types.Pointer)
+				return ok && IsNamed(pt.Elem(), "net/http", "Request") && fieldName(pt.Elem(), fa.Field) == "Method"
+			})
+			if !isMethod {
+				out = append(out, s)
+			}
+		}
+		return out
+	}
+	for _, ctor := range ctors {
+		for _, c := range p.StaticCallers(ctor) {
+			if c.Fn.Pkg == nil || RelPkg(c.Fn.Pkg.Pkg) != "pkg/serverinit" {
+				continue
+			}
+			roots := []*ssa.Function{TopFunc(c.Fn)}
+			for level := 0; level < 3 && len(roots) > 0; level++ {
+				found := false
+				var next []*ssa.Function
+				for _, root := range roots {
+					x := c18Graph(p, root)
+					for _, xi := range x.Instrs(func(xi c18XI) bool { return xi.In == c.Instr.(ssa.Instruction) }) {
+						for _, a := range actionsAt(x, xi) {
+							found = true
+							mk(a, ctor)
+						}
+					}
+					next = append(next, c18Liftable(p, root)...)
+				}
+				if found {
+					break
+				}
+				roots = next
+			}
+		}
+	}
+	if len(routes) == 0 {
+		brokenf("anchor unresolved: no pkg/blobserver/handlers constructor is called from pkg/serverinit under an `action == \"...\"` comparison")
+	}
+	c18HandlerCache[p] = routes
+	return routes
 }
 
-// DependsOnErrTest reports whether some If in fn tests ev against nil.
-func DependsOnErrTest(fn *ssa.Function, ev ssa.Value) bool {
-	for _, b := range fn.Blocks {
-		if ifi, ok := b.Instrs[len(b.Instrs)-1].(*ssa.If); ok {
-			if k, _ := condSaysNil(ifi.Cond, true, ev); k {
+func c18Handler1(p *Program, action string) *c18Handler {
+	hs := c18Handlers(p)[action]
+	if len(hs) == 0 {
+		brokenf("anchor unresolved: no handler body routed for action %q", action)
+	}
+	return hs[0]
+}
+
+// c18Pos renders the position of an instruction (go/defer instructions carry
+// theirs in the call).
+func c18Pos(p *Program, in ssa.Instruction) string {
+	if in.Pos().IsValid() {
+		return p.Pos(in.Pos())
+	}
+	if ci, ok := in.(ssa.CallInstruction); ok {
+		return p.Pos(ci.Common().Pos())
+	}
+	return p.Pos(in.Parent().Pos())
+}
+
+var c18Debug = os.Getenv("C18DEBUG") != ""
+
+// ===========================================================================
+// Effective bodies: the inlined view of a root function ("X-graph")
+//
+// Every C18 rule looks at its anchor function's EFFECTIVE BODY: the function
+// plus, transitively, the unexported same-package functions/methods and the
+// function literals it calls statically, each call site getting its own copy
+// of the callee (a context), with parameters standing for the caller's
+// arguments and call results for the callee's returned values. Literals that
+// are go'd, deferred or passed on as values are attached as forks at the
+// instruction that spawns them. Blocks are cut into segments at the inlined
+// call sites; the continuation of a call whose result is tested (at the end of
+// the call's block or up to three blocks later) is cloned per returning path
+// of the callee as far as that test, and a block that branches on (or returns)
+// one of its own phis - or only forwards such phis - is cloned per incoming
+// edge; If edges that the bindings of a clone decide are pruned. Dominance and
+// the dominating facts therefore carry across the call ("helper returned ok"
+// => what dominated that return inside the helper); facts of an If that exists
+// in several clones are established by a cut argument (cloneFacts). Dominators,
+// facts, reach and dependence are then computed on this graph exactly as on a
+// single function, which makes the rules indifferent to helper extraction,
+// function splitting, closure<->method conversion and inlining.
+// Known limits: a helper result that is first stored in a struct field or
+// tested more than three blocks after the call is not correlated with the
+// helper's returns; state moved from locals into struct fields is not
+// followed by the phi-based rules (they report, they do not pass silently).
+
+const (
+	c18KRoot  = iota
+	c18KCall  // inlined call: control returns to the site
+	c18KFork  // go / defer / literal passed on as a value: runs some time after the site
+	c18KOuter // an enclosing function that is not part of the graph
+)
+
+const (
+	c18ENormal = iota
+	c18ECall
+	c18ERet
+	c18EFork
+)
+
+const c18MaxDepth = 7
+const c18MaxNodes = 12000
+
+type c18Ctx struct {
+	ID    int
+	Fn    *ssa.Function
+	Site  ssa.Instruction // instruction of Up.Fn that enters Fn
+	Up    *c18Ctx
+	Kind  int
+	Depth int
+	Calls []*c18XB // the nodes that end with Site
+}
+
+func (c *c18Ctx) args() []ssa.Value {
+	if c == nil {
+		return nil
+	}
+	if ci, ok := c.Site.(ssa.CallInstruction); ok {
+		return ci.Common().Args
+	}
+	return nil
+}
+
+// within reports whether c is anc or a context entered (transitively) from anc.
+func (c *c18Ctx) within(anc *c18Ctx) bool {
+	for ; c != nil; c = c.Up {
+		if c == anc {
+			return true
+		}
+	}
+	return false
+}
+
+type c18XV struct {
+	Ctx *c18Ctx
+	V   ssa.Value
+}
+
+type c18XI struct {
+	Ctx *c18Ctx
+	In  ssa.Instruction
+}
+
+type c18XB struct {
+	ID     int
+	Ctx    *c18Ctx
+	B      *ssa.BasicBlock
+	Lo, Hi int
+	Var    string
+	Bind   map[ssa.Value]c18XV  // values of B with a known definition in this clone
+	BindAt map[ssa.Value]*c18XB // per binding: the node that supplied it (predecessor / return node)
+	Succs  []*c18XB
+	Kinds  []int
+	IfSucc [2]*c18XB
+	Preds  []*c18XB
+	Child  *c18Ctx // context entered at the end of this segment
+
+	idom      *c18XB
+	rpo       int
+	pre, post int
+	facts     []c18Fact
+	factsDone bool
+}
+
+func (n *c18XB) last() ssa.Instruction { return n.B.Instrs[n.Hi-1] }
+
+func (n *c18XB) ifInstr() *ssa.If {
+	if n.Hi != len(n.B.Instrs) {
+		return nil
+	}
+	ifi, _ := n.last().(*ssa.If)
+	return ifi
+}
+
+type c18NodeKey struct {
+	ctx *c18Ctx
+	b   *ssa.BasicBlock
+	lo  int
+	v   string
+}
+
+type c18X struct {
+	P         *Program
+	Root      *ssa.Function
+	Ctxs      []*c18Ctx
+	Nodes     []*c18XB
+	Entry     *c18XB
+	Truncated bool
+
+	keyed   map[c18NodeKey]*c18XB
+	child   map[c18XI]*c18Ctx
+	outer   map[*ssa.Function]*c18Ctx
+	ctxsOf  map[*ssa.Function][]*c18Ctx
+	nodesOf map[c18XI][]*c18XB
+	work    []*c18XB
+	groups  map[c18XI][]*c18XB
+}
+
+var c18XCache = map[*Program]map[*ssa.Function]*c18X{}
+
+// c18Graph returns the (cached) X-graph rooted at fn.
+func c18Graph(p *Program, fn *ssa.Function) *c18X {
+	m := c18XCache[p]
+	if m == nil {
+		c18XCache = map[*Program]map[*ssa.Function]*c18X{} // drop graphs of previously loaded programs
+		m = map[*ssa.Function]*c18X{}
+		c18XCache[p] = m
+	}
+	if x := m[fn]; x != nil {
+		return x
+	}
+	x := &c18X{P: p, Root: fn, keyed: map[c18NodeKey]*c18XB{}, child: map[c18XI]*c18Ctx{}, outer: map[*ssa.Function]*c18Ctx{},
+		ctxsOf: map[*ssa.Function][]*c18Ctx{}, nodesOf: map[c18XI][]*c18XB{}}
+	root := &c18Ctx{Fn: fn, Kind: c18KRoot}
+	x.addCtx(root)
+	if len(fn.Blocks) == 0 {
+		brokenf("anchor unresolved: %s has no body", FuncKey(fn))
+	}
+	x.Entry = x.node(root, fn.Blocks[0], 0, "", nil, nil)
+	for len(x.work) > 0 {
+		n := x.work[len(x.work)-1]
+		x.work = x.work[:len(x.work)-1]
+		x.process(n)
+	}
+	x.finish()
+	x.prune()
+	m[fn] = x
+	if x.Truncated {
+		c18TruncatedGraphs = append(c18TruncatedGraphs, x)
+	}
+	return x
+}
+
+var c18TruncatedGraphs []*c18X
+
+func (x *c18X) addCtx(c *c18Ctx) {
+	c.ID = len(x.Ctxs)
+	x.Ctxs = append(x.Ctxs, c)
+	x.ctxsOf[c.Fn] = append(x.ctxsOf[c.Fn], c)
+}
+
+func (x *c18X) node(ctx *c18Ctx, b *ssa.BasicBlock, lo int, variant string, bind map[ssa.Value]c18XV, at map[ssa.Value]*c18XB) *c18XB {
+	k := c18NodeKey{ctx, b, lo, variant}
+	if n := x.keyed[k]; n != nil {
+		return n
+	}
+	n := &c18XB{ID: len(x.Nodes), Ctx: ctx, B: b, Lo: lo, Hi: len(b.Instrs), Var: variant, Bind: bind, BindAt: at}
+	x.Nodes = append(x.Nodes, n)
+	x.keyed[k] = n
+	x.work = append(x.work, n)
+	return n
+}
+
+func (x *c18X) edge(a, b *c18XB, kind int) {
+	for i, s := range a.Succs {
+		if s == b && a.Kinds[i] == kind {
+			return
+		}
+	}
+	a.Succs = append(a.Succs, b)
+	a.Kinds = append(a.Kinds, kind)
+	b.Preds = append(b.Preds, a)
+}
+
+// c18Inlinable: callee belongs to the effective body of a function of pkg.
+func c18Inlinable(pkg *ssa.Package, callee *ssa.Function) bool {
+	if callee == nil || callee.Blocks == nil || callee.Pkg == nil || callee.Pkg != pkg {
+		return false
+	}
+	if callee.Parent() == nil {
+		if callee.Synthetic != "" || callee.Object() == nil || callee.Object().Exported() {
+			return false
+		}
+	}
+	return true
+}
+
+func (x *c18X) inlinable(ctx *c18Ctx, callee *ssa.Function) bool {
+	if !c18Inlinable(x.Root.Pkg, callee) || ctx.Depth >= c18MaxDepth {
+		return false
+	}
+	for c := ctx; c != nil; c = c.Up {
+		if c.Fn == callee {
+			return false
+		}
+	}
+	if len(x.Nodes) > c18MaxNodes {
+		x.Truncated = true
+		return false
+	}
+	return true
+}
+
+// c18CellLoads lists the loads of the variable cell al in its function and the
+// literals nested in it.
+func c18CellLoads(al *ssa.Alloc) []*ssa.UnOp {
+	var out []*ssa.UnOp
+	var walk func(f *ssa.Function)
+	walk = func(f *ssa.Function) {
+		for _, b := range f.Blocks {
+			for _, in := range b.Instrs {
+				if u, ok := in.(*ssa.UnOp); ok && u.Op == token.MUL {
+					if c, ok := varOf(u.X); ok && c == ssa.Value(al) {
+						out = append(out, u)
+					}
+				}
+			}
+		}
+		for _, a := range f.AnonFuncs {
+			walk(a)
+		}
+	}
+	walk(al.Parent())
+	return out
+}
+
+// c18ClosureEscapes: the closure is used other than by being called (directly
+// or through the local variable it is bound to).
+func c18ClosureEscapes(mc *ssa.MakeClosure) bool {
+	var onlyCalled func(v ssa.Value, depth int) bool
+	onlyCalled = func(v ssa.Value, depth int) bool {
+		refs := v.Referrers()
+		if refs == nil {
+			return true
+		}
+		for _, r := range *refs {
+			switch u := r.(type) {
+			case *ssa.DebugRef:
+			case ssa.CallInstruction:
+				if u.Common().Value != v {
+					return false
+				}
+				// call, go or defer of the closure itself: that instruction enters it
+			case *ssa.Store:
+				al, ok := u.Addr.(*ssa.Alloc)
+				if u.Val != v || !ok || depth > 1 || !plainVariable(al) {
+					return false
+				}
+				for _, ld := range c18CellLoads(al) {
+					if !onlyCalled(ld, depth+1) {
+						return false
+					}
+				}
+			default:
+				return false
+			}
+		}
+		return true
+	}
+	return !onlyCalled(mc, 0)
+}
+
+func (x *c18X) entersAt(ctx *c18Ctx, in ssa.Instruction) (*ssa.Function, int) {
+	switch t := in.(type) {
+	case *ssa.Call:
+		if callee := (CallSite{ctx.Fn, t}).Callee(); x.inlinable(ctx, callee) {
+			return callee, c18KCall
+		}
+	case *ssa.Go:
+		if callee := (CallSite{ctx.Fn, t}).Callee(); x.inlinable(ctx, callee) {
+			return callee, c18KFork
+		}
+	case *ssa.Defer:
+		if callee := (CallSite{ctx.Fn, t}).Callee(); x.inlinable(ctx, callee) {
+			return callee, c18KFork
+		}
+	case *ssa.MakeClosure:
+		if lit, ok := t.Fn.(*ssa.Function); ok && c18ClosureEscapes(t) && x.inlinable(ctx, lit) {
+			return lit, c18KFork
+		}
+	}
+	return nil, 0
+}
+
+var c18RetPartRE = regexp.MustCompile(`\|r[0-9]+`)
+
+// c18TestsValue: terminator t branches on / returns a value satisfying is
+// (directly, negated, or compared with a constant).
+func c18TestsValue(t ssa.Instruction, is func(ssa.Value) bool) bool {
+	shape := func(v ssa.Value) bool {
+		for i := 0; i < 3; i++ {
+			if u, ok := v.(*ssa.UnOp); ok && u.Op == token.NOT {
+				v = u.X
+				continue
+			}
+			break
+		}
+		if bo, ok := v.(*ssa.BinOp); ok {
+			if _, isC := bo.Y.(*ssa.Const); isC {
+				v = bo.X
+			} else if _, isC := bo.X.(*ssa.Const); isC {
+				v = bo.Y
+			}
+		}
+		return is(v)
+	}
+	switch t := t.(type) {
+	case *ssa.If:
+		return shape(t.Cond)
+	case *ssa.Return:
+		for _, r := range t.Results {
+			if shape(r) {
 				return true
 			}
 		}
@@ -1120,79 +883,2339 @@ func DependsOnErrTest(fn *ssa.Function, ev ssa.Value) bool {
 	return false
 }
 
-// ---------------------------------------------------------------------------
-// N-get
+// c18ResultTestedFrom: value k is tested by the terminator of block s or of a
+// block at most three steps after it.
+func c18ResultTestedFrom(k ssa.Value, s *ssa.BasicBlock, depth int, seen map[*ssa.BasicBlock]bool) bool {
+	if seen[s] || depth > 3 || len(s.Instrs) == 0 {
+		return false
+	}
+	seen[s] = true
+	if c18TestsValue(s.Instrs[len(s.Instrs)-1], func(v ssa.Value) bool { return v == k }) {
+		return true
+	}
+	for _, n := range s.Succs {
+		if c18ResultTestedFrom(k, n, depth+1, seen) {
+			return true
+		}
+	}
+	return false
+}
 
-func c18Get(p *Program, r *Reporter) {
-	fn := p.Func("pkg/blobserver/gethandler", "", "ServeBlobRef")
-	key := FuncKey(fn)
-	fetchIface := p.Iface("pkg/blob", "Fetcher")
-	fs := FindCalls(fn, false, func(c CallSite) bool { return c.IsMethod("Fetch", fetchIface) })
-	if len(fs) != 1 || fs[0].Value() == nil {
-		brokenf("anchor unresolved: Fetch call in %s", key)
+// c18TestedRight: a result of call c is tested by an If / Return at the end of
+// its block or a few blocks later (so cloning the continuation per returning
+// path pays off).
+func c18TestedRight(c *ssa.Call) bool {
+	if c18ResultTestedFrom(c, c.Block(), 0, map[*ssa.BasicBlock]bool{}) {
+		return true
 	}
-	f := fs[0].Value()
-	serves := FindCalls(fn, false, func(c CallSite) bool { return c.IsStatic("net/http", "", "ServeContent") })
-	if len(serves) == 0 {
-		brokenf("anchor unresolved: http.ServeContent call in %s", key)
+	if refs := c.Referrers(); refs != nil {
+		for _, r := range *refs {
+			if ex, ok := r.(*ssa.Extract); ok && c18ResultTestedFrom(ex, c.Block(), 0, map[*ssa.BasicBlock]bool{}) {
+				return true
+			}
+		}
 	}
-	rc, size := ResultValue(f, 0), ResultValue(f, 1)
-	for _, s := range serves {
-		ok, why := SuccessDominates(f, s.Instr)
-		r.Check(ok, "N-get", key+"#serve-after-fetch-ok", p.Pos(s.Pos()),
-			"http.ServeContent is reached only on the err==nil edge of Fetch", "http.ServeContent is reachable without a successful Fetch: "+why)
-		content := s.Common().Args[4]
-		depRC := rc != nil && DependsOn(content, func(x ssa.Value) bool { return x == rc })
-		depSize := size != nil && DependsOn(content, func(x ssa.Value) bool { return x == size })
-		r.Check(depRC && depSize, "N-get", key+"#content-from-fetch", p.Pos(s.Pos()),
-			"the served content derives from the reader and the size returned by that Fetch",
-			fmt.Sprintf("the served content does not derive from both results of the Fetch (reader: %v, size: %v): length or bytes may differ from the stored blob", depRC, depSize))
+	return false
+}
+
+// c18OwnPhiTested: block s branches on (or returns) one of its own phis.
+func c18OwnPhiTested(s *ssa.BasicBlock, inlined bool) bool {
+	return c18OwnPhiTestedN(s, inlined, 0)
+}
+
+func c18OwnPhiTestedN(s *ssa.BasicBlock, inlined bool, depth int) bool {
+	if len(s.Instrs) == 0 {
+		return false
 	}
-	// the reader is closed on every path after a successful fetch
-	closed := false
-	for _, d := range DeferredCalls(fn) {
-		if d.Common().IsInvoke() && d.Common().Method.Name() == "Close" && rc != nil && sameOrigin(d.Common().Value, rc) {
-			if ok, _ := SuccessDominates(f, d.Instr); ok {
-				closed = true
-				// no return between the success edge and the defer
-				for _, ri := range Returns(fn) {
-					if k, isNil := NilFact(ri.Ret.Block(), mustErr(f)); k && isNil && !Precedes(d.Instr, ri.Ret) {
-						closed = false
-					}
+	if _, ok := s.Instrs[0].(*ssa.Phi); !ok {
+		return false
+	}
+	// a block of phis that only forwards to such a block (`a && (b || c)`: the
+	// || phi feeds the && phi)
+	if _, isJump := s.Instrs[len(s.Instrs)-1].(*ssa.Jump); isJump && depth < 3 {
+		only := true
+		for _, in := range s.Instrs[:len(s.Instrs)-1] {
+			switch in.(type) {
+			case *ssa.Phi, *ssa.DebugRef:
+			default:
+				only = false
+			}
+		}
+		return only && len(s.Succs) == 1 && c18OwnPhiTestedN(s.Succs[0], inlined, depth+1)
+	}
+	own := func(v ssa.Value) bool {
+		for i := 0; i < 3; i++ {
+			if u, ok := v.(*ssa.UnOp); ok && u.Op == token.NOT {
+				v = u.X
+				continue
+			}
+			break
+		}
+		if bo, ok := v.(*ssa.BinOp); ok && (bo.Op == token.EQL || bo.Op == token.NEQ) {
+			if IsNilConst(bo.Y) {
+				v = bo.X
+			} else if IsNilConst(bo.X) {
+				v = bo.Y
+			}
+		}
+		ph, ok := v.(*ssa.Phi)
+		return ok && ph.Block() == s
+	}
+	switch t := s.Instrs[len(s.Instrs)-1].(type) {
+	case *ssa.If:
+		return own(t.Cond)
+	case *ssa.Return:
+		if inlined {
+			for _, r := range t.Results {
+				if own(r) {
+					return true
 				}
 			}
 		}
 	}
-	r.Check(closed, "N-get", key+"#reader-closed", p.Pos(f.Pos()),
-		"the fetched reader's Close is deferred on the success edge before any return",
-		"the fetched reader is not closed on every path after a successful Fetch (leaks a file descriptor / gate slot per request)")
-	r.Floor("N-get", 3)
+	return false
 }
 
-func mustErr(c *ssa.Call) ssa.Value {
-	ev, _, _ := ErrValue(c)
-	return ev
+func (x *c18X) process(n *c18XB) {
+	b := n.B
+	for k := n.Lo; k < len(b.Instrs); k++ {
+		callee, kind := x.entersAt(n.Ctx, b.Instrs[k])
+		if callee == nil {
+			continue
+		}
+		n.Hi = k + 1
+		key := c18XI{n.Ctx, b.Instrs[k]}
+		child := x.child[key]
+		if child == nil {
+			child = &c18Ctx{Fn: callee, Site: b.Instrs[k], Up: n.Ctx, Kind: kind, Depth: n.Ctx.Depth + 1}
+			x.addCtx(child)
+			x.child[key] = child
+		}
+		child.Calls = append(child.Calls, n)
+		n.Child = child
+		entry := x.node(child, callee.Blocks[0], 0, "", nil, nil)
+		if kind == c18KCall {
+			x.edge(n, entry, c18ECall)
+			// returns that were processed before this calling clone appeared
+			for _, m := range x.Nodes {
+				if m.Ctx == child && m.Hi == len(m.B.Instrs) {
+					if rt, ok := m.last().(*ssa.Return); ok && m.Hi > m.Lo && x.processed(m) {
+						x.returnTo(m, rt, n)
+					}
+				}
+			}
+			return
+		}
+		x.edge(n, entry, c18EFork)
+		if n.Hi < len(b.Instrs) {
+			x.edge(n, x.node(n.Ctx, b, n.Hi, n.Var, n.Bind, n.BindAt), c18ENormal)
+		}
+		return
+	}
+	n.Hi = len(b.Instrs)
+	switch t := n.last().(type) {
+	case *ssa.Return:
+		if n.Ctx.Kind == c18KCall {
+			for _, call := range n.Ctx.Calls {
+				x.returnTo(n, t, call)
+			}
+		}
+	default:
+		for i, s := range b.Succs {
+			variant := ""
+			var bind map[ssa.Value]c18XV
+			var at map[ssa.Value]*c18XB
+			// results of inlined calls that are tested a few blocks further on stay
+			// bound (the blocks in between are cloned per returning path as well)
+			for k, v := range n.Bind {
+				in, ok := k.(ssa.Instruction)
+				if !ok || in.Block() == s || !in.Block().Dominates(s) {
+					continue
+				}
+				if _, isPhi := k.(*ssa.Phi); isPhi {
+					continue
+				}
+				if c18ResultTestedFrom(k, s, 0, map[*ssa.BasicBlock]bool{}) {
+					if bind == nil {
+						bind, at = map[ssa.Value]c18XV{}, map[ssa.Value]*c18XB{}
+					}
+					bind[k], at[k] = v, n.BindAt[k]
+				}
+			}
+			if bind != nil {
+				variant = strings.Join(c18RetPartRE.FindAllString(n.Var, -1), "")
+			}
+			if c18OwnPhiTested(s, n.Ctx.Kind == c18KCall) {
+				// which incoming edge of s is this? (the i-th occurrence of b when
+				// both edges of an If lead to s)
+				j, occ := -1, 0
+				for pi, pb := range s.Preds {
+					if pb != b {
+						continue
+					}
+					if j < 0 || (len(b.Succs) == 2 && b.Succs[0] == b.Succs[1] && occ == i) {
+						j = pi
+					}
+					occ++
+				}
+				if j >= 0 {
+					variant = "p" + strconv.Itoa(j) + "." + strconv.Itoa(n.ID) + variant
+					if bind == nil {
+						bind, at = map[ssa.Value]c18XV{}, map[ssa.Value]*c18XB{}
+					}
+					for _, in := range s.Instrs {
+						ph, ok := in.(*ssa.Phi)
+						if !ok {
+							break
+						}
+						bind[ph], at[ph] = x.resolveRaw(n, ph.Edges[j]), n
+					}
+				}
+			}
+			m := x.node(n.Ctx, s, 0, variant, bind, at)
+			x.edge(n, m, c18ENormal)
+			if _, isIf := t.(*ssa.If); isIf && i < 2 {
+				n.IfSucc[i] = m
+			}
+		}
+	}
+}
+
+// processed: the node's successors have been computed (it is not waiting in
+// the work list).
+func (x *c18X) processed(n *c18XB) bool {
+	for _, w := range x.work {
+		if w == n {
+			return false
+		}
+	}
+	return true
+}
+
+// resolveRaw returns the value v has in node n without canonicalising it.
+func (x *c18X) resolveRaw(n *c18XB, v ssa.Value) c18XV {
+	if n != nil && n.Bind != nil {
+		if b, ok := n.Bind[v]; ok {
+			return b
+		}
+	}
+	return c18XV{n.Ctx, v}
+}
+
+// returnTo links return node n (Return t) of an inlined callee to the
+// continuation of calling node call.
+func (x *c18X) returnTo(n *c18XB, t *ssa.Return, call *c18XB) {
+	site, ok := n.Ctx.Site.(*ssa.Call)
+	if !ok {
+		return
+	}
+	k := call.Hi // the continuation starts right after the call
+	variant, bind, at := call.Var, call.Bind, call.BindAt
+	if c18TestedRight(site) {
+		variant = call.Var + "|r" + strconv.Itoa(n.ID)
+		bind, at = map[ssa.Value]c18XV{}, map[ssa.Value]*c18XB{}
+		for kk, vv := range call.Bind {
+			bind[kk], at[kk] = vv, call.BindAt[kk]
+		}
+		res := func(i int) c18XV {
+			if i >= len(t.Results) {
+				return c18XV{}
+			}
+			return x.resolveRaw(n, c18RetVal(t.Results[i], t))
+		}
+		if len(t.Results) == 1 {
+			bind[site], at[site] = res(0), n
+		} else if refs := site.Referrers(); refs != nil {
+			for _, r := range *refs {
+				if ex, ok := r.(*ssa.Extract); ok {
+					bind[ex], at[ex] = res(ex.Index), n
+				}
+			}
+		}
+	}
+	next := x.node(call.Ctx, call.B, k, variant, bind, at)
+	x.edge(n, next, c18ERet)
+}
+
+// finish computes reachability, predecessor lists, dominators and the
+// instruction index.
+func (x *c18X) finish() {
+	// reverse post-order from the entry over all edges
+	seen := map[*c18XB]bool{}
+	var order []*c18XB
+	var dfs func(n *c18XB)
+	dfs = func(n *c18XB) {
+		seen[n] = true
+		for _, s := range n.Succs {
+			if !seen[s] {
+				dfs(s)
+			}
+		}
+		order = append(order, n)
+	}
+	dfs(x.Entry)
+	for i, j := 0, len(order)-1; i < j; i, j = i+1, j-1 {
+		order[i], order[j] = order[j], order[i]
+	}
+	for i, n := range order {
+		n.rpo = i
+		n.idom = nil
+		n.factsDone = false
+		n.facts = nil
+	}
+	// drop unreachable nodes and their edges
+	for _, n := range order {
+		var ps []*c18XB
+		for _, p := range n.Preds {
+			if seen[p] {
+				ps = append(ps, p)
+			}
+		}
+		n.Preds = ps
+	}
+	x.Nodes = order
+	for i, n := range x.Nodes {
+		n.ID = i
+	}
+	// Cooper-Harvey-Kennedy
+	intersect := func(a, b *c18XB) *c18XB {
+		for a != b {
+			for a.rpo > b.rpo {
+				a = a.idom
+			}
+			for b.rpo > a.rpo {
+				b = b.idom
+			}
+		}
+		return a
+	}
+	x.Entry.idom = x.Entry
+	for changed := true; changed; {
+		changed = false
+		for _, n := range order[1:] {
+			var nd *c18XB
+			for _, p := range n.Preds {
+				if p.idom == nil {
+					continue
+				}
+				if nd == nil {
+					nd = p
+				} else {
+					nd = intersect(p, nd)
+				}
+			}
+			if nd != nil && n.idom != nd {
+				n.idom = nd
+				changed = true
+			}
+		}
+	}
+	x.Entry.idom = nil
+	// pre/post numbering of the dominator tree
+	kids := map[*c18XB][]*c18XB{}
+	for _, n := range order[1:] {
+		if n.idom != nil {
+			kids[n.idom] = append(kids[n.idom], n)
+		}
+	}
+	t := 0
+	var num func(n *c18XB)
+	num = func(n *c18XB) {
+		t++
+		n.pre = t
+		for _, k := range kids[n] {
+			num(k)
+		}
+		t++
+		n.post = t
+	}
+	num(x.Entry)
+	x.groups = nil
+	x.nodesOf = map[c18XI][]*c18XB{}
+	for _, n := range x.Nodes {
+		for k := n.Lo; k < n.Hi; k++ {
+			xi := c18XI{n.Ctx, n.B.Instrs[k]}
+			x.nodesOf[xi] = append(x.nodesOf[xi], n)
+		}
+	}
+}
+
+// Dominates: a == b or a strictly dominates b.
+func (x *c18X) Dominates(a, b *c18XB) bool {
+	return a.pre <= b.pre && b.post <= a.post
+}
+
+// prune removes the If edges that the bindings of a clone decide (a caller's
+// `if !ok` after the helper's `return ..., false`), then recomputes dominators.
+func (x *c18X) prune() {
+	for round := 0; round < 3; round++ {
+		changed := false
+		for _, n := range x.Nodes {
+			ifi := n.ifInstr()
+			if ifi == nil || n.IfSucc[0] == nil || n.IfSucc[1] == nil || n.IfSucc[0] == n.IfSucc[1] {
+				continue
+			}
+			k, v := false, false
+			if len(n.Bind) > 0 {
+				k, v = x.evalBound(n, ifi.Cond)
+			}
+			if !k && n.Ctx.Kind == c18KCall {
+				k, v = x.evalLen(n, ifi.Cond)
+			}
+			if !k {
+				continue
+			}
+			dead := 1
+			if !v {
+				dead = 0
+			}
+			d := n.IfSucc[dead]
+			n.IfSucc[dead] = nil
+			for i, s := range n.Succs {
+				if s == d {
+					n.Succs = append(n.Succs[:i:i], n.Succs[i+1:]...)
+					n.Kinds = append(n.Kinds[:i:i], n.Kinds[i+1:]...)
+					break
+				}
+			}
+			for i, p := range d.Preds {
+				if p == n {
+					d.Preds = append(d.Preds[:i:i], d.Preds[i+1:]...)
+					break
+				}
+			}
+			changed = true
+		}
+		if !changed {
+			return
+		}
+		x.finish()
+	}
 }
 
 // ---------------------------------------------------------------------------
-// N-compat: the client never builds a request the handler is bound to reject
-//
-// Server side: for every handler function routed by
-// serverinit.camliHandlerUsingStorage, every error response whose dominating
-// branch conditions contain atoms over request keys yields a candidate
-// conjunction of key atoms; it is kept when, with exactly these atoms assumed
-// (everything else unknown), no path from entry reaches a return without
-// passing an error response (the conjunction alone is sufficient to be
-// rejected).
-// Client side: for every request built in pkg/client for the same action, the
-// request text (URL + body) is modelled as fragments (format calls, literals,
-// buffer writes, url.Values) with the facts under which each fragment is part
-// of the request; for every atom the values that may satisfy it are traced to
-// their leaves together with the facts guarding each leaf.
-// Obligation: some atom can never hold, or two atoms exclude each other on
-// every pair of leaves by a fact about the very SSA value emitted for the other
-// key — with no phi at or above that value's defining block crossed between the
-// fact and the request (the fact holds for the iteration that is formatted).
+// values
+
+func c18ValueFn(v ssa.Value) *ssa.Function {
+	switch t := v.(type) {
+	case *ssa.Parameter:
+		return t.Parent()
+	case *ssa.FreeVar:
+		return t.Parent()
+	case ssa.Instruction:
+		return t.Parent()
+	}
+	return nil
+}
+
+func (x *c18X) outerCtx(f *ssa.Function) *c18Ctx {
+	if c := x.outer[f]; c != nil {
+		return c
+	}
+	c := &c18Ctx{ID: -1 - len(x.outer), Fn: f, Kind: c18KOuter}
+	x.outer[f] = c
+	return c
+}
+
+// at places value v (of function f) relative to context ctx: the nearest
+// enclosing context executing f.
+func (x *c18X) at(ctx *c18Ctx, v ssa.Value) c18XV {
+	f := c18ValueFn(v)
+	if f == nil {
+		return c18XV{nil, v}
+	}
+	for c := ctx; c != nil; c = c.Up {
+		if c.Fn == f {
+			return c18XV{c, v}
+		}
+	}
+	if cs := x.ctxsOf[f]; len(cs) == 1 {
+		return c18XV{cs[0], v}
+	}
+	return c18XV{x.outerCtx(f), v}
+}
+
+// ctxsFor lists the contexts executing f that a value seen from ctx may
+// belong to.
+func (x *c18X) ctxsFor(ctx *c18Ctx, f *ssa.Function) []*c18Ctx {
+	for c := ctx; c != nil; c = c.Up {
+		if c.Fn == f {
+			return []*c18Ctx{c}
+		}
+	}
+	if cs := x.ctxsOf[f]; len(cs) > 0 {
+		return cs
+	}
+	return []*c18Ctx{x.outerCtx(f)}
+}
+
+func (x *c18X) argOf(v c18XV) (c18XV, bool) {
+	pa, ok := v.V.(*ssa.Parameter)
+	if !ok || v.Ctx == nil || v.Ctx.Site == nil || v.Ctx.Fn != pa.Parent() {
+		return v, false
+	}
+	args := v.Ctx.args()
+	if len(args) != len(v.Ctx.Fn.Params) {
+		return v, false
+	}
+	for i, q := range v.Ctx.Fn.Params {
+		if q == pa {
+			return c18XV{v.Ctx.Up, args[i]}, true
+		}
+	}
+	return v, false
+}
+
+// returned lists the values result idx of the inlined call may have.
+func (x *c18X) returned(ctx *c18Ctx, call *ssa.Call, idx int) ([]c18XV, bool) {
+	child := x.child[c18XI{ctx, call}]
+	if child == nil || child.Kind != c18KCall {
+		return nil, false
+	}
+	var out []c18XV
+	for _, rt := range c18Returns(child.Fn) {
+		if idx < len(rt.Results) {
+			out = append(out, c18XV{child, c18RetVal(rt.Results[idx], rt)})
+		}
+	}
+	return out, true
+}
+
+// c18Returns lists the explicit returns of fn (the synthetic recover block is skipped).
+func c18Returns(fn *ssa.Function) []*ssa.Return {
+	var out []*ssa.Return
+	for _, b := range fn.Blocks {
+		if b == fn.Recover || len(b.Instrs) == 0 {
+			continue
+		}
+		if rt, ok := b.Instrs[len(b.Instrs)-1].(*ssa.Return); ok {
+			out = append(out, rt)
+		}
+	}
+	return out
+}
+
+// c18RetVal undoes the "store to result local; rundefers; load; return"
+// sequence of functions with defer - only for plain result variables (a
+// local whose address is passed on may have been filled by the callee).
+func c18RetVal(v ssa.Value, ret *ssa.Return) ssa.Value {
+	if ld, ok := v.(*ssa.UnOp); ok && ld.Op == token.MUL {
+		if al, ok := ld.X.(*ssa.Alloc); ok && plainVariable(al) {
+			return resolveReturnValue(v, ret)
+		}
+	}
+	return v
+}
+
+// Canon strips value-preserving wrappers, resolves loads of single-assignment
+// variables, parameters of inlined callees (-> the argument), captured
+// variables (-> the binding) and results of inlined calls that return one
+// value on every path (-> that value).
+func (x *c18X) Canon(v c18XV) c18XV {
+	for i := 0; i < 64 && v.V != nil; i++ {
+		switch t := v.V.(type) {
+		case *ssa.ChangeType:
+			v.V = t.X
+		case *ssa.MakeInterface:
+			v.V = t.X
+		case *ssa.ChangeInterface:
+			v.V = t.X
+		case *ssa.UnOp:
+			if t.Op != token.MUL {
+				return x.fix(v)
+			}
+			r := resolveLoad(t)
+			if r == nil {
+				// a field of a local struct that is assigned once (struct literal
+				// hoisted into a variable, parameters bundled in a struct)
+				if fa, ok := t.X.(*ssa.FieldAddr); ok {
+					if fv, ok := x.fieldOf(x.fix(c18XV{v.Ctx, fa.X}), fa.Field, t, 0); ok {
+						v = fv
+						continue
+					}
+				}
+				return x.fix(v)
+			}
+			v = x.at(x.fix(v).Ctx, r)
+		case *ssa.Field:
+			fv, ok := x.fieldOf(x.fix(c18XV{v.Ctx, t.X}), t.Field, nil, 0)
+			if !ok {
+				return x.fix(v)
+			}
+			v = fv
+		case *ssa.Phi:
+			var first ssa.Value
+			same := true
+			for _, e := range t.Edges {
+				if e == ssa.Value(t) {
+					continue
+				}
+				if first == nil {
+					first = e
+				} else if e != first {
+					same = false
+				}
+			}
+			if !same || first == nil {
+				return x.fix(v)
+			}
+			v.V = first
+		case *ssa.Parameter:
+			v = x.fix(v)
+			a, ok := x.argOf(v)
+			if !ok {
+				return v
+			}
+			v = a
+		case *ssa.FreeVar:
+			b := bindingOf(t)
+			if b == nil {
+				return x.fix(v)
+			}
+			v = x.at(x.fix(v).Ctx, b)
+		case *ssa.Call:
+			v = x.fix(v)
+			if t.Call.Signature().Results().Len() != 1 {
+				return v
+			}
+			r, ok := x.singleReturn(v.Ctx, t, 0)
+			if !ok {
+				return v
+			}
+			v = r
+		case *ssa.Extract:
+			v = x.fix(v)
+			c, ok := t.Tuple.(*ssa.Call)
+			if !ok {
+				return v
+			}
+			r, ok := x.singleReturn(v.Ctx, c, t.Index)
+			if !ok {
+				return v
+			}
+			v = r
+		default:
+			return x.fix(v)
+		}
+	}
+	return x.fix(v)
+}
+
+// c18StructUses collects the uses of local struct al (and of the free variables
+// literals capture it by): field stores, whole-value stores; ok is false when
+// the address is used in any other way than field accesses and whole-value
+// loads/stores.
+func c18StructUses(al *ssa.Alloc) (fieldStores map[int][]*ssa.Store, wholeStores []*ssa.Store, ok bool) {
+	if _, isStruct := al.Type().(*types.Pointer).Elem().Underlying().(*types.Struct); !isStruct {
+		return nil, nil, false
+	}
+	fieldStores = map[int][]*ssa.Store{}
+	ok = true
+	var visit func(addr ssa.Value, depth int)
+	visit = func(addr ssa.Value, depth int) {
+		refs := addr.Referrers()
+		if refs == nil || depth > 4 {
+			return
+		}
+		for _, r := range *refs {
+			switch u := r.(type) {
+			case *ssa.DebugRef:
+			case *ssa.FieldAddr:
+				if fr := u.Referrers(); fr != nil {
+					for _, w := range *fr {
+						switch y := w.(type) {
+						case *ssa.DebugRef:
+						case *ssa.UnOp:
+							if y.Op != token.MUL {
+								ok = false
+							}
+						case *ssa.Store:
+							if y.Addr != ssa.Value(u) {
+								ok = false
+							} else {
+								fieldStores[u.Field] = append(fieldStores[u.Field], y)
+							}
+						default:
+							ok = false
+						}
+					}
+				}
+			case *ssa.UnOp:
+				if u.Op != token.MUL {
+					ok = false
+				}
+			case *ssa.Store:
+				if u.Addr != addr {
+					ok = false
+				} else {
+					wholeStores = append(wholeStores, u)
+				}
+			case *ssa.MakeClosure:
+				fn := u.Fn.(*ssa.Function)
+				for i, bnd := range u.Bindings {
+					if bnd == addr {
+						visit(fn.FreeVars[i], depth+1)
+					}
+				}
+			default:
+				ok = false
+			}
+		}
+	}
+	visit(al, 0)
+	return
+}
+
+// fieldOf returns the value of field f of the struct that base denotes (the
+// address of a local struct, or a struct value), when that field is assigned
+// exactly once on the way: by a field store, or as part of the whole value
+// stored into the local (a parameter of an inlined callee -> the caller's
+// struct). use, when given, is the load being resolved: a store of the same
+// function must come before it.
+func (x *c18X) fieldOf(base c18XV, f int, use ssa.Instruction, depth int) (c18XV, bool) {
+	if depth > 6 || base.V == nil {
+		return c18XV{}, false
+	}
+	switch t := base.V.(type) {
+	case *ssa.Alloc:
+		fs, whole, ok := c18StructUses(t)
+		if !ok {
+			return c18XV{}, false
+		}
+		before := func(st *ssa.Store) bool {
+			return use == nil || use.Parent() != st.Parent() || Precedes(st, use)
+		}
+		switch {
+		case len(fs[f]) == 1 && len(whole) == 0 && fs[f][0].Parent() == t.Parent() && before(fs[f][0]):
+			return x.Canon(c18XV{base.Ctx, fs[f][0].Val}), true
+		case len(fs[f]) == 0 && len(whole) == 1 && whole[0].Parent() == t.Parent() && before(whole[0]):
+			return x.fieldOf(x.fix(c18XV{base.Ctx, whole[0].Val}), f, nil, depth+1)
+		}
+		return c18XV{}, false
+	case *ssa.UnOp:
+		if t.Op == token.MUL {
+			// a whole-struct load of a local
+			if al, ok := t.X.(*ssa.Alloc); ok {
+				return x.fieldOf(c18XV{base.Ctx, al}, f, t, depth+1)
+			}
+		}
+	case *ssa.Parameter:
+		if a, ok := x.argOf(base); ok {
+			return x.fieldOf(x.fix(a), f, nil, depth+1)
+		}
+	case *ssa.FreeVar:
+		if b := bindingOf(t); b != nil {
+			return x.fieldOf(x.at(base.Ctx, b), f, nil, depth+1)
+		}
+	}
+	return c18XV{}, false
+}
+
+// fix normalises the context of a value: nil for values that belong to no
+// function, the nearest context executing the value's function otherwise.
+func (x *c18X) fix(v c18XV) c18XV {
+	if v.V == nil {
+		return v
+	}
+	f := c18ValueFn(v.V)
+	if f == nil {
+		v.Ctx = nil
+		return v
+	}
+	if v.Ctx != nil && v.Ctx.Fn == f {
+		return v
+	}
+	return x.at(v.Ctx, v.V)
+}
+
+func (x *c18X) singleReturn(ctx *c18Ctx, call *ssa.Call, idx int) (c18XV, bool) {
+	rs, ok := x.returned(ctx, call, idx)
+	if !ok || len(rs) == 0 {
+		return c18XV{}, false
+	}
+	first := x.Canon(rs[0])
+	for _, r := range rs[1:] {
+		if !c18SameXV(x.Canon(r), first) {
+			return c18XV{}, false
+		}
+	}
+	return first, true
+}
+
+func c18SameXV(a, b c18XV) bool {
+	if a.V == nil || b.V == nil {
+		return false
+	}
+	if a == b {
+		return true
+	}
+	ca, ok1 := a.V.(*ssa.Const)
+	cb, ok2 := b.V.(*ssa.Const)
+	if ok1 && ok2 {
+		if ca.Value == nil || cb.Value == nil {
+			return ca.Value == nil && cb.Value == nil && types.Identical(ca.Type(), cb.Type())
+		}
+		return ca.Value.Kind() == cb.Value.Kind() && constant.Compare(ca.Value, token.EQL, cb.Value)
+	}
+	return false
+}
+
+// Same: the two values denote the same run-time value as far as the analysis
+// can tell (the X counterpart of sameOrigin).
+func (x *c18X) Same(a, b c18XV) bool {
+	ca, cb := x.Canon(a), x.Canon(b)
+	if c18SameXV(ca, cb) {
+		return true
+	}
+	// loads of one variable cell
+	if la, ok := ca.V.(*ssa.UnOp); ok && la.Op == token.MUL {
+		if lb, ok := cb.V.(*ssa.UnOp); ok && lb.Op == token.MUL {
+			c1, ok1 := varOf(la.X)
+			c2, ok2 := varOf(lb.X)
+			if ok1 && ok2 && c1 == c2 {
+				f := c18ValueFn(c1)
+				if f == nil {
+					return true
+				}
+				return x.at(ca.Ctx, c1) == x.at(cb.Ctx, c1)
+			}
+		}
+	}
+	// a phi one of whose incoming values is the other
+	if ph, ok := ca.V.(*ssa.Phi); ok {
+		for _, e := range ph.Edges {
+			if c18SameXV(x.Canon(c18XV{ca.Ctx, e}), cb) {
+				return true
+			}
+		}
+	}
+	if ph, ok := cb.V.(*ssa.Phi); ok {
+		for _, e := range ph.Edges {
+			if c18SameXV(x.Canon(c18XV{cb.Ctx, e}), ca) {
+				return true
+			}
+		}
+	}
+	return false
+}
+
+// MayBe: v may be the very value target: equal after canonicalisation, or a phi
+// / the result of an inlined call one of whose incoming / returned values may be.
+func (x *c18X) MayBe(v, target c18XV) bool {
+	target = x.Canon(target)
+	seen := map[c18XV]bool{}
+	var walk func(v c18XV, d int) bool
+	walk = func(v c18XV, d int) bool {
+		v = x.Canon(v)
+		if d > 16 || seen[v] {
+			return false
+		}
+		seen[v] = true
+		if c18SameXV(v, target) {
+			return true
+		}
+		switch t := v.V.(type) {
+		case *ssa.Phi:
+			for _, e := range t.Edges {
+				if walk(c18XV{v.Ctx, e}, d+1) {
+					return true
+				}
+			}
+		case *ssa.Call:
+			if rs, ok := x.returned(v.Ctx, t, 0); ok && t.Call.Signature().Results().Len() == 1 {
+				for _, r := range rs {
+					if walk(r, d+1) {
+						return true
+					}
+				}
+			}
+		case *ssa.Extract:
+			if c, ok := t.Tuple.(*ssa.Call); ok {
+				if rs, ok := x.returned(v.Ctx, c, t.Index); ok {
+					for _, r := range rs {
+						if walk(r, d+1) {
+							return true
+						}
+					}
+				}
+			}
+		}
+		return false
+	}
+	return walk(v, 0)
+}
+
+// Resolve returns the canonical value of v as seen in node n (clone bindings
+// applied).
+func (x *c18X) Resolve(n *c18XB, v ssa.Value) c18XV {
+	return x.Canon(x.resolveRaw(n, v))
+}
+
+// ResolveIn resolves operand v of a value that lives in context ctx, using
+// n's bindings when the value belongs to n's own context.
+func (x *c18X) ResolveIn(n *c18XB, ctx *c18Ctx, v ssa.Value) c18XV {
+	if n != nil && n.Ctx == ctx {
+		return x.Resolve(n, v)
+	}
+	return x.Canon(c18XV{ctx, v})
+}
+
+func (x *c18X) ConstString(v c18XV) (string, bool) {
+	c, ok := x.Canon(v).V.(*ssa.Const)
+	if ok && c.Value != nil && c.Value.Kind() == constant.String {
+		return constant.StringVal(c.Value), true
+	}
+	return "", false
+}
+
+func (x *c18X) ConstInt(v c18XV) (int64, bool) {
+	c, ok := x.Canon(v).V.(*ssa.Const)
+	if ok && c.Value != nil && c.Value.Kind() == constant.Int {
+		return c.Int64(), true
+	}
+	return 0, false
+}
+
+// c18RootAlloc follows field/element addresses down to a local Alloc.
+func c18RootAlloc(a ssa.Value) *ssa.Alloc {
+	for i := 0; i < 8; i++ {
+		switch t := a.(type) {
+		case *ssa.Alloc:
+			return t
+		case *ssa.FieldAddr:
+			a = t.X
+		case *ssa.IndexAddr:
+			a = t.X
+		case *ssa.FreeVar:
+			b := bindingOf(t)
+			if b == nil {
+				return nil
+			}
+			a = b
+		default:
+			return nil
+		}
+	}
+	return nil
+}
+
+// Depends: v transitively depends on a value satisfying target - through
+// operands, variable cells (every store, and every call that receives the
+// cell's address), local structs/arrays, parameters of inlined callees (the
+// caller's argument) and results of inlined calls (the returned values).
+func (x *c18X) Depends(v c18XV, target func(c18XV) bool) bool {
+	seen := map[c18XV]bool{}
+	var walk func(v c18XV, d int) bool
+	cellDeps := func(ctx *c18Ctx, al *ssa.Alloc, d int) bool {
+		fn := al.Parent()
+		var fns []*ssa.Function
+		var coll func(f *ssa.Function)
+		coll = func(f *ssa.Function) {
+			fns = append(fns, f)
+			for _, a := range f.AnonFuncs {
+				coll(a)
+			}
+		}
+		coll(fn)
+		for _, f := range fns {
+			for _, b := range f.Blocks {
+				for _, in := range b.Instrs {
+					switch t := in.(type) {
+					case *ssa.Store:
+						root := c18RootAlloc(t.Addr)
+						if root == nil {
+							if c, ok := varOf(t.Addr); ok {
+								root, _ = c.(*ssa.Alloc)
+							}
+						}
+						if root == al {
+							for _, c := range x.ctxsFor(ctx, f) {
+								if walk(c18XV{c, t.Val}, d+1) {
+									return true
+								}
+							}
+						}
+					case ssa.CallInstruction:
+						for _, a := range t.Common().Args {
+							ra := a
+							for i := 0; i < 4; i++ {
+								switch w := ra.(type) {
+								case *ssa.MakeInterface:
+									ra = w.X
+								case *ssa.ChangeType:
+									ra = w.X
+								case *ssa.ChangeInterface:
+									ra = w.X
+								}
+							}
+							root := c18RootAlloc(ra)
+							if root == nil {
+								if c, ok := varOf(ra); ok {
+									root, _ = c.(*ssa.Alloc)
+								}
+							}
+							if root == al {
+								// the callee may fill the cell from its other arguments
+								for _, o := range t.Common().Args {
+									if o != a {
+										for _, c := range x.ctxsFor(ctx, f) {
+											if walk(c18XV{c, o}, d+1) {
+												return true
+											}
+										}
+									}
+								}
+							}
+						}
+					}
+				}
+			}
+		}
+		return false
+	}
+	walk = func(v c18XV, d int) bool {
+		if v.V == nil || d > 90 {
+			return false
+		}
+		v = x.fix(v)
+		if seen[v] {
+			return false
+		}
+		seen[v] = true
+		if target(v) {
+			return true
+		}
+		switch t := v.V.(type) {
+		case *ssa.Parameter:
+			if a, ok := x.argOf(v); ok {
+				return walk(a, d+1)
+			}
+			return false
+		case *ssa.FreeVar:
+			if b := bindingOf(t); b != nil {
+				return walk(x.at(v.Ctx, b), d+1)
+			}
+			return false
+		case *ssa.Alloc:
+			return cellDeps(v.Ctx, t, d)
+		case *ssa.UnOp:
+			if t.Op == token.MUL {
+				if c := x.Canon(v); c != v {
+					// a load the analysis resolves exactly (single assignment, field of a local struct)
+					return walk(c, d+1)
+				}
+				if cell, ok := varOf(t.X); ok {
+					if cell != t.X && target(x.at(v.Ctx, cell)) {
+						return true
+					}
+					if al, ok := cell.(*ssa.Alloc); ok {
+						if cellDeps(v.Ctx, al, d) {
+							return true
+						}
+					}
+				} else if al := c18RootAlloc(t.X); al != nil {
+					if cellDeps(v.Ctx, al, d) {
+						return true
+					}
+				}
+			}
+		case *ssa.Call:
+			if child := x.child[c18XI{v.Ctx, t}]; child != nil && child.Kind == c18KCall {
+				for _, rt := range c18Returns(child.Fn) {
+					for _, r := range rt.Results {
+						if walk(c18XV{child, c18RetVal(r, rt)}, d+1) {
+							return true
+						}
+					}
+				}
+				return false
+			}
+		case *ssa.Extract:
+			if c, ok := t.Tuple.(*ssa.Call); ok {
+				if rs, ok := x.returned(v.Ctx, c, t.Index); ok {
+					for _, r := range rs {
+						if walk(r, d+1) {
+							return true
+						}
+					}
+					return false
+				}
+			}
+		}
+		if in, ok := v.V.(ssa.Instruction); ok {
+			for _, op := range in.Operands(nil) {
+				if *op != nil && walk(c18XV{v.Ctx, *op}, d+1) {
+					return true
+				}
+			}
+		}
+		return false
+	}
+	return walk(v, 0)
+}
+
+// ---------------------------------------------------------------------------
+// facts
+
+type c18Fact struct {
+	At   *c18XB // the node whose If established it
+	Cond ssa.Value
+	Val  bool
+}
+
+// FactsAt returns the branch conditions known on every path to node n.
+func (x *c18X) FactsAt(n *c18XB) []c18Fact {
+	if n.factsDone {
+		return n.facts
+	}
+	var out []c18Fact
+	for d := n.idom; d != nil; d = d.idom {
+		ifi := d.ifInstr()
+		if ifi == nil || d.IfSucc[0] == d.IfSucc[1] {
+			continue
+		}
+		if len(x.ifGroups()[c18XI{d.Ctx, ifi}]) > 1 {
+			continue // an If that exists in several clones: see cloneFacts
+		}
+		for i := 0; i < 2; i++ {
+			s := d.IfSucc[i]
+			if s == nil || !x.Dominates(s, n) {
+				continue
+			}
+			okEdge := true
+			for _, p := range s.Preds {
+				if p != d && !x.Dominates(s, p) {
+					okEdge = false
+				}
+			}
+			if okEdge {
+				out = append(out, c18Fact{d, ifi.Cond, i == 0})
+			}
+		}
+	}
+	out = append(out, x.cloneFacts(n, out)...)
+	n.facts, n.factsDone = out, true
+	return out
+}
+
+// ifGroups: the If instructions that occur in several clones.
+func (x *c18X) ifGroups() map[c18XI][]*c18XB {
+	if x.groups == nil {
+		x.groups = map[c18XI][]*c18XB{}
+		all := map[c18XI][]*c18XB{}
+		for _, n := range x.Nodes {
+			if ifi := n.ifInstr(); ifi != nil {
+				k := c18XI{n.Ctx, ifi}
+				all[k] = append(all[k], n)
+			}
+		}
+		for k, ns := range all {
+			if len(ns) > 1 {
+				x.groups[k] = ns
+			}
+		}
+	}
+	return x.groups
+}
+
+// reachAvoiding: target is reachable from one of starts without taking a cut edge.
+func (x *c18X) reachAvoiding(starts []*c18XB, cut map[[2]*c18XB]bool, target *c18XB) bool {
+	seen := map[*c18XB]bool{}
+	var stack []*c18XB
+	for _, s := range starts {
+		if s != nil && !seen[s] {
+			seen[s] = true
+			stack = append(stack, s)
+		}
+	}
+	for len(stack) > 0 {
+		n := stack[len(stack)-1]
+		stack = stack[:len(stack)-1]
+		if n == target {
+			return true
+		}
+		for _, s := range n.Succs {
+			if !seen[s] && !cut[[2]*c18XB{n, s}] {
+				seen[s] = true
+				stack = append(stack, s)
+			}
+		}
+	}
+	return false
+}
+
+// cloneFacts: facts established by an If that exists in several clones (the
+// continuation of a call cloned per returning path, a block cloned per phi
+// edge): the condition had value val the last time it was evaluated on every
+// path to n iff, with the val-edges of all clones removed, n is reachable
+// neither from the entry nor from the other edges' targets.
+func (x *c18X) cloneFacts(n *c18XB, have []c18Fact) []c18Fact {
+	var out []c18Fact
+	var keys []c18XI
+	for k := range x.ifGroups() {
+		keys = append(keys, k)
+	}
+	sort.Slice(keys, func(i, j int) bool {
+		if keys[i].Ctx.ID != keys[j].Ctx.ID {
+			return keys[i].Ctx.ID < keys[j].Ctx.ID
+		}
+		return keys[i].In.Pos() < keys[j].In.Pos()
+	})
+	for _, k := range keys {
+		ns := x.groups[k]
+		ifi := k.In.(*ssa.If)
+		dup := false
+		for _, f := range have {
+			if f.Cond == ifi.Cond && f.At.Ctx == k.Ctx {
+				dup = true
+			}
+		}
+		if dup {
+			continue
+		}
+		for vi := 0; vi < 2; vi++ {
+			cut := map[[2]*c18XB]bool{}
+			starts := []*c18XB{x.Entry}
+			bad := false
+			for _, d := range ns {
+				if d.IfSucc[0] != nil && d.IfSucc[0] == d.IfSucc[1] {
+					bad = true
+				}
+				if d.IfSucc[vi] != nil {
+					cut[[2]*c18XB{d, d.IfSucc[vi]}] = true
+				}
+				if d.IfSucc[1-vi] != nil {
+					starts = append(starts, d.IfSucc[1-vi])
+				}
+			}
+			if bad || len(cut) == 0 {
+				continue
+			}
+			if n == x.Entry || x.reachAvoiding(starts, cut, n) {
+				continue
+			}
+			at := ns[0]
+			if len(ns) > 1 {
+				at = &c18XB{ID: -1, Ctx: k.Ctx, B: ns[0].B, Lo: ns[0].Lo, Hi: ns[0].Hi} // unbound view of the block
+			}
+			out = append(out, c18Fact{at, ifi.Cond, vi == 0})
+		}
+	}
+	return out
+}
+
+// EdgeFacts: what is known when control passes from pred to node n.
+func (x *c18X) EdgeFacts(pred, n *c18XB) []c18Fact {
+	out := append([]c18Fact(nil), x.FactsAt(pred)...)
+	if ifi := pred.ifInstr(); ifi != nil && pred.IfSucc[0] != pred.IfSucc[1] {
+		for i := 0; i < 2; i++ {
+			if pred.IfSucc[i] == n {
+				out = append(out, c18Fact{pred, ifi.Cond, i == 0})
+			}
+		}
+	}
+	return out
+}
+
+// FactsOf: facts at (every clone of) the instruction instance: those common
+// to all clones.
+func (x *c18X) FactsOf(xi c18XI) []c18Fact {
+	ns := x.nodesOf[xi]
+	if len(ns) == 0 {
+		return nil
+	}
+	out := x.FactsAt(ns[0])
+	for _, n := range ns[1:] {
+		var keep []c18Fact
+		for _, f := range out {
+			for _, g := range x.FactsAt(n) {
+				if f.Cond == g.Cond && f.Val == g.Val && f.At.Ctx == g.At.Ctx {
+					keep = append(keep, f)
+					break
+				}
+			}
+		}
+		out = keep
+	}
+	return out
+}
+
+// condNil interprets fact f as a statement about v's nil-ness.
+func (x *c18X) condNil(at *c18XB, cond ssa.Value, val bool, v c18XV) (known, isNil bool) {
+	switch c := cond.(type) {
+	case *ssa.BinOp:
+		if c.Op != token.EQL && c.Op != token.NEQ {
+			return false, false
+		}
+		var other ssa.Value
+		if IsNilConst(c.Y) {
+			other = c.X
+		} else if IsNilConst(c.X) {
+			other = c.Y
+		} else {
+			return false, false
+		}
+		if !x.Same(x.resolveRaw(at, other), v) {
+			return false, false
+		}
+		return true, (c.Op == token.EQL) == val
+	case *ssa.UnOp:
+		if c.Op == token.NOT {
+			return x.condNil(at, c.X, !val, v)
+		}
+	}
+	return false, false
+}
+
+func (x *c18X) NilFact(facts []c18Fact, v c18XV) (known, isNil bool) {
+	for _, f := range facts {
+		if k, n := x.condNil(f.At, f.Cond, f.Val, v); k {
+			return true, n
+		}
+	}
+	return false, false
+}
+
+// evalLen decides `len(s) <op> <const>` in an inlined callee when s is a
+// parameter bound to a variadic argument list of known length (or to nil).
+func (x *c18X) evalLen(n *c18XB, cond ssa.Value) (known, val bool) {
+	if u, ok := cond.(*ssa.UnOp); ok && u.Op == token.NOT {
+		k, v := x.evalLen(n, u.X)
+		return k, !v
+	}
+	bo, ok := cond.(*ssa.BinOp)
+	if !ok {
+		return false, false
+	}
+	lenOf := func(v ssa.Value) (int64, bool) {
+		cl, ok := v.(*ssa.Call)
+		if !ok {
+			return 0, false
+		}
+		b, ok := cl.Call.Value.(*ssa.Builtin)
+		if !ok || b.Name() != "len" || len(cl.Call.Args) != 1 {
+			return 0, false
+		}
+		if _, isParam := cl.Call.Args[0].(*ssa.Parameter); !isParam {
+			return 0, false
+		}
+		a := x.Canon(c18XV{n.Ctx, cl.Call.Args[0]})
+		switch t := a.V.(type) {
+		case *ssa.Const:
+			if t.Value == nil {
+				return 0, true
+			}
+		case *ssa.Slice:
+			if t.Low == nil && t.High == nil {
+				if al, ok := t.X.(*ssa.Alloc); ok {
+					if at, ok := al.Type().(*types.Pointer).Elem().Underlying().(*types.Array); ok {
+						return at.Len(), true
+					}
+				}
+			}
+		}
+		return 0, false
+	}
+	l, okl := lenOf(bo.X)
+	c, okc := x.ConstInt(c18XV{n.Ctx, bo.Y})
+	if !okl || !okc {
+		return false, false
+	}
+	switch bo.Op {
+	case token.GTR:
+		return true, l > c
+	case token.GEQ:
+		return true, l >= c
+	case token.LSS:
+		return true, l < c
+	case token.LEQ:
+		return true, l <= c
+	case token.EQL:
+		return true, l == c
+	case token.NEQ:
+		return true, l != c
+	}
+	return false, false
+}
+
+// evalBound decides an If condition of a clone from its bindings.
+func (x *c18X) evalBound(n *c18XB, cond ssa.Value) (known, val bool) {
+	switch c := cond.(type) {
+	case *ssa.UnOp:
+		if c.Op == token.NOT {
+			k, v := x.evalBound(n, c.X)
+			return k, !v
+		}
+	case *ssa.BinOp:
+		if c.Op != token.EQL && c.Op != token.NEQ {
+			return false, false
+		}
+		_, bx := n.Bind[c.X]
+		_, by := n.Bind[c.Y]
+		if !bx && !by {
+			return false, false
+		}
+		lx, ly := x.Resolve(n, c.X), x.Resolve(n, c.Y)
+		nx, ny := IsNilConst(lx.V), IsNilConst(ly.V)
+		if nx || ny {
+			other := lx
+			if nx {
+				other = ly
+			}
+			switch {
+			case nx && ny:
+				return true, c.Op == token.EQL
+			case isNonNilErrorExpr(other.V):
+				return true, c.Op == token.NEQ
+			}
+			for _, key := range []ssa.Value{c.X, c.Y} {
+				if o := n.BindAt[key]; o != nil {
+					if k, isNil := x.NilFact(x.FactsAt(o), other); k {
+						return true, isNil == (c.Op == token.EQL)
+					}
+				}
+			}
+			return false, false
+		}
+		cx, ok1 := lx.V.(*ssa.Const)
+		cy, ok2 := ly.V.(*ssa.Const)
+		if ok1 && ok2 && cx.Value != nil && cy.Value != nil && cx.Value.Kind() == cy.Value.Kind() {
+			return true, constant.Compare(cx.Value, token.EQL, cy.Value) == (c.Op == token.EQL)
+		}
+		return false, false
+	}
+	if _, ok := n.Bind[cond]; !ok {
+		return false, false
+	}
+	r := x.Resolve(n, cond)
+	if c, ok := r.V.(*ssa.Const); ok && c.Value != nil && c.Value.Kind() == constant.Bool {
+		return true, constant.BoolVal(c.Value)
+	}
+	if o := n.BindAt[cond]; o != nil {
+		for _, f := range x.FactsAt(o) {
+			fc, fv := f.Cond, f.Val
+			for {
+				if u, ok := fc.(*ssa.UnOp); ok && u.Op == token.NOT {
+					fc, fv = u.X, !fv
+					continue
+				}
+				break
+			}
+			if c18SameXV(x.Resolve(f.At, fc), r) {
+				return true, fv
+			}
+		}
+	}
+	return false, false
+}
+
+// ---------------------------------------------------------------------------
+// search, order, reach
+
+// Instrs lists the instruction instances of the graph satisfying pred, in
+// graph order, each once.
+func (x *c18X) Instrs(pred func(c18XI) bool) []c18XI {
+	var out []c18XI
+	seen := map[c18XI]bool{}
+	for _, n := range x.Nodes {
+		for k := n.Lo; k < n.Hi; k++ {
+			xi := c18XI{n.Ctx, n.B.Instrs[k]}
+			if seen[xi] {
+				continue
+			}
+			seen[xi] = true
+			if pred(xi) {
+				out = append(out, xi)
+			}
+		}
+	}
+	return out
+}
+
+// Calls lists the call/go/defer instances satisfying pred.
+func (x *c18X) Calls(pred func(c18XI, CallSite) bool) []c18XI {
+	return x.Instrs(func(xi c18XI) bool {
+		ci, ok := xi.In.(ssa.CallInstruction)
+		return ok && pred(xi, CallSite{xi.Ctx.Fn, ci})
+	})
+}
+
+// c18UniqInstr drops instances of an instruction already seen in another
+// context.
+func c18UniqInstr(xs []c18XI) []c18XI {
+	seen := map[ssa.Instruction]bool{}
+	var out []c18XI
+	for _, xi := range xs {
+		if !seen[xi.In] {
+			seen[xi.In] = true
+			out = append(out, xi)
+		}
+	}
+	return out
+}
+
+// Anchor lifts an instance out of the forked contexts that do not contain
+// keep, to the instruction that spawned them (forked code runs concurrently
+// with what follows the fork).
+func (x *c18X) Anchor(xi c18XI, keep *c18Ctx) c18XI {
+	var outer *c18Ctx
+	for c := xi.Ctx; c != nil; c = c.Up {
+		if c.Kind == c18KFork && !keep.within(c) {
+			outer = c
+		}
+	}
+	if outer != nil {
+		return c18XI{outer.Up, outer.Site}
+	}
+	return xi
+}
+
+// TopSite returns the instruction of the root context through which the
+// instance is reached (itself when it is in the root context).
+func (x *c18X) TopSite(xi c18XI) ssa.Instruction {
+	in := xi.In
+	for c := xi.Ctx; c != nil && c.Up != nil; c = c.Up {
+		in = c.Site
+	}
+	return in
+}
+
+func (x *c18X) idx(n *c18XB, in ssa.Instruction) int {
+	for k := n.Lo; k < n.Hi; k++ {
+		if n.B.Instrs[k] == in {
+			return k
+		}
+	}
+	return -1
+}
+
+// Precedes: a executes before b on every path to (every clone of) b: with
+// the nodes of a removed, no node of b is reachable from the entry (a node that
+// holds both counts when a comes first in it).
+func (x *c18X) Precedes(a, b c18XI) bool {
+	nb := x.nodesOf[b]
+	na := map[*c18XB]bool{}
+	for _, m := range x.nodesOf[a] {
+		na[m] = true
+	}
+	if len(nb) == 0 || len(na) == 0 {
+		return false
+	}
+	targets := map[*c18XB]bool{}
+	for _, n := range nb {
+		if na[n] {
+			if x.idx(n, a.In) < x.idx(n, b.In) {
+				continue
+			}
+			return false
+		}
+		targets[n] = true
+	}
+	if len(targets) == 0 {
+		return true
+	}
+	if na[x.Entry] {
+		return true
+	}
+	seen := map[*c18XB]bool{x.Entry: true}
+	stack := []*c18XB{x.Entry}
+	for len(stack) > 0 {
+		n := stack[len(stack)-1]
+		stack = stack[:len(stack)-1]
+		if targets[n] {
+			return false
+		}
+		for _, s := range n.Succs {
+			if !seen[s] && !na[s] {
+				seen[s] = true
+				stack = append(stack, s)
+			}
+		}
+	}
+	return true
+}
+
+type c18Assume func(n *c18XB, cond ssa.Value) (known, val bool)
+
+// Reach returns the instruction instances that may execute after xi when the
+// branch conditions decided by assume are followed along the decided edge only.
+func (x *c18X) Reach(xi c18XI, assume c18Assume) map[c18XI]bool {
+	out := map[c18XI]bool{}
+	seen := map[*c18XB]bool{}
+	var walk func(n *c18XB, from int)
+	walk = func(n *c18XB, from int) {
+		for k := from; k < n.Hi; k++ {
+			out[c18XI{n.Ctx, n.B.Instrs[k]}] = true
+		}
+		if ifi := n.ifInstr(); ifi != nil && assume != nil {
+			if k, v := assume(n, ifi.Cond); k {
+				s := n.IfSucc[1]
+				if v {
+					s = n.IfSucc[0]
+				}
+				if s != nil && !seen[s] {
+					seen[s] = true
+					walk(s, s.Lo)
+				}
+				return
+			}
+		}
+		for _, s := range n.Succs {
+			if !seen[s] {
+				seen[s] = true
+				walk(s, s.Lo)
+			}
+		}
+	}
+	for _, n := range x.nodesOf[xi] {
+		walk(n, x.idx(n, xi.In)+1)
+	}
+	return out
+}
+
+// ReachFromNode is Reach starting at the first instruction of node n.
+func (x *c18X) ReachFromNode(n *c18XB, assume c18Assume) map[c18XI]bool {
+	out := map[c18XI]bool{}
+	seen := map[*c18XB]bool{n: true}
+	var walk func(n *c18XB)
+	walk = func(n *c18XB) {
+		for k := n.Lo; k < n.Hi; k++ {
+			out[c18XI{n.Ctx, n.B.Instrs[k]}] = true
+		}
+		if ifi := n.ifInstr(); ifi != nil && assume != nil {
+			if k, v := assume(n, ifi.Cond); k {
+				s := n.IfSucc[1]
+				if v {
+					s = n.IfSucc[0]
+				}
+				if s != nil && !seen[s] {
+					seen[s] = true
+					walk(s)
+				}
+				return
+			}
+		}
+		for _, s := range n.Succs {
+			if !seen[s] {
+				seen[s] = true
+				walk(s)
+			}
+		}
+	}
+	walk(n)
+	return out
+}
+
+// Leaks explores every path from the start nodes (starting at index from of
+// each) that does not enter forked code: a path ends well at an instruction
+// satisfying stop or where control cannot continue (panic, a callee that does
+// not return); it leaks when it reaches a Return of context exit (or of the
+// root) without having passed a stop. Returns the leaking return instances.
+func (x *c18X) Leaks(starts []*c18XB, from func(*c18XB) int, stop func(n *c18XB, in ssa.Instruction) bool, assume c18Assume, exit *c18Ctx) []c18XI {
+	var leaks []c18XI
+	seen := map[*c18XB]bool{}
+	var walk func(n *c18XB, lo int)
+	walk = func(n *c18XB, lo int) {
+		for k := lo; k < n.Hi; k++ {
+			if stop(n, n.B.Instrs[k]) {
+				return
+			}
+		}
+		if rt, ok := n.last().(*ssa.Return); ok && n.Hi == len(n.B.Instrs) {
+			if n.Ctx == exit || n.Ctx.Kind == c18KRoot {
+				leaks = append(leaks, c18XI{n.Ctx, rt})
+				return
+			}
+		}
+		next := func(s *c18XB) {
+			if s != nil && !seen[s] {
+				seen[s] = true
+				walk(s, s.Lo)
+			}
+		}
+		if ifi := n.ifInstr(); ifi != nil && assume != nil {
+			if k, v := assume(n, ifi.Cond); k {
+				if v {
+					next(n.IfSucc[0])
+				} else {
+					next(n.IfSucc[1])
+				}
+				return
+			}
+		}
+		for i, s := range n.Succs {
+			if n.Kinds[i] != c18EFork {
+				next(s)
+			}
+		}
+	}
+	for _, n := range starts {
+		lo := n.Lo
+		if from != nil {
+			lo = from(n)
+		}
+		walk(n, lo)
+	}
+	return leaks
+}
+
+// ---------------------------------------------------------------------------
+// roots
+
+// c18Liftable: every execution of fn starts at one of its static call sites in
+// its own package (unexported, never used as a value), so a question that
+// cannot be settled inside fn can be settled in its callers' effective bodies.
+func c18Liftable(p *Program, fn *ssa.Function) []*ssa.Function {
+	if fn.Parent() != nil {
+		return []*ssa.Function{TopFunc(fn)}
+	}
+	if !c18Inlinable(fn.Pkg, fn) || len(p.FuncValueUses(fn)) > 0 {
+		return nil
+	}
+	if fn.Signature.Recv() != nil && len(p.InvokeSites(fn)) > 0 {
+		return nil // may be reached through an interface
+	}
+	var out []*ssa.Function
+	seen := map[*ssa.Function]bool{}
+	for _, c := range p.StaticCallers(fn) {
+		t := TopFunc(c.Fn)
+		if t.Pkg != fn.Pkg {
+			return nil
+		}
+		if !seen[t] && t != fn {
+			seen[t] = true
+			out = append(out, t)
+		}
+	}
+	sort.Slice(out, func(i, j int) bool { return FuncKey(out[i]) < FuncKey(out[j]) })
+	return out
+}
+
+func (x *c18X) String() string {
+	return fmt.Sprintf("X(%s: %d contexts, %d nodes)", FuncKey(x.Root), len(x.Ctxs), len(x.Nodes))
+}
+
+// ---------------------------------------------------------------------------
+// phis and returns
+
+type c18PhiEdge struct {
+	Val   c18XV
+	Pred  *c18XB
+	Node  *c18XB
+	Facts []c18Fact // what is known when control takes this edge
+}
+
+// PhiEdges lists the incoming values of phi v over every clone of its block,
+// with the facts of each edge.
+func (x *c18X) PhiEdges(v c18XV) []c18PhiEdge {
+	ph, ok := v.V.(*ssa.Phi)
+	if !ok {
+		return nil
+	}
+	var out []c18PhiEdge
+	blk := ph.Block()
+	for _, n := range x.nodesOf[c18XI{v.Ctx, ph}] {
+		if b, ok := n.Bind[ph]; ok && n.BindAt[ph] != nil {
+			out = append(out, c18PhiEdge{b, n.BindAt[ph], n, x.EdgeFacts(n.BindAt[ph], n)})
+			continue
+		}
+		for _, pn := range n.Preds {
+			if pn.Ctx != n.Ctx {
+				continue
+			}
+			// the SSA edges pn stands for (both, when both branches of its If lead here)
+			for j, pb := range blk.Preds {
+				if pb != pn.B {
+					continue
+				}
+				out = append(out, c18PhiEdge{x.resolveRaw(pn, ph.Edges[j]), pn, n, x.EdgeFacts(pn, n)})
+			}
+		}
+	}
+	return out
+}
+
+// returnNodes lists the nodes of context c that end in a Return.
+func (x *c18X) returnNodes(c *c18Ctx) []*c18XB {
+	var out []*c18XB
+	for _, n := range x.Nodes {
+		if n.Ctx == c && n.Hi == len(n.B.Instrs) {
+			if _, ok := n.last().(*ssa.Return); ok {
+				out = append(out, n)
+			}
+		}
+	}
+	return out
+}
+
+// ---------------------------------------------------------------------------
+// N-longpoll
+
+func c18Longpoll(p *Program, r *Reporter) {
+	wait := p.Func("pkg/blobserver", "", "WaitForBlob")
+	isWaitCall := func(xi c18XI, c CallSite) bool { return c.Callee() == wait }
+	// the handler bodies that contain a wait: the routed ones, plus the effective
+	// bodies of any other caller in pkg/blobserver/handlers
+	type body struct {
+		x   *c18X
+		key string
+	}
+	var bodies []body
+	covered := map[ssa.Instruction]bool{}
+	var actions []string
+	hs := c18Handlers(p)
+	for a := range hs {
+		actions = append(actions, a)
+	}
+	sort.Strings(actions)
+	seenX := map[*c18X]bool{}
+	for _, a := range actions {
+		for _, h := range hs[a] {
+			if seenX[h.X] {
+				continue
+			}
+			seenX[h.X] = true
+			ws := h.X.Calls(isWaitCall)
+			if len(ws) == 0 {
+				continue
+			}
+			for _, w := range ws {
+				covered[w.In] = true
+			}
+			bodies = append(bodies, body{h.X, h.Key})
+		}
+	}
+	for _, c := range p.StaticCallers(wait) {
+		if c.Fn.Pkg == nil || RelPkg(c.Fn.Pkg.Pkg) != "pkg/blobserver/handlers" || covered[c.Instr.(ssa.Instruction)] {
+			continue
+		}
+		root := TopFunc(c.Fn)
+		for i := 0; i < 3; i++ {
+			up := c18Liftable(p, root)
+			if len(up) != 1 {
+				break
+			}
+			root = up[0]
+		}
+		x := c18Graph(p, root)
+		if seenX[x] {
+			continue
+		}
+		seenX[x] = true
+		for _, w := range x.Calls(isWaitCall) {
+			covered[w.In] = true
+		}
+		bodies = append(bodies, body{x, FuncKey(TopFunc(c.Fn))})
+	}
+	n := 0
+	for _, b := range bodies {
+		x, key := b.x, b.key
+		n++
+		for _, w := range c18UniqInstr(x.Calls(isWaitCall)) {
+			c18LongpollOne(p, r, x, key, w)
+		}
+	}
+	r.Floor("N-longpoll", 6)
+	r.Analysed("longpoll_handlers", n)
+}
+
+func c18LongpollOne(p *Program, r *Reporter, x *c18X, key string, w c18XI) {
+	site := c18Pos(p, w.In)
+	wc := w.In.(ssa.CallInstruction).Common()
+	deadline := x.Canon(c18XV{w.Ctx, wc.Args[1]})
+	add, ok := deadline.V.(*ssa.Call)
+	if !ok || !(CallSite{add.Parent(), add}).IsStatic("time", "Time", "Add") {
+		r.Undecided("N-longpoll", key+"#deadline", site, "the deadline passed to WaitForBlob is not a time.Now().Add(d) value computed in the handler's effective body; cannot evaluate the long-poll guards")
+		return
+	}
+	dur := c18XV{deadline.Ctx, add.Call.Args[1]}
+	waitMemo := map[c18XV]bool{}
+	isWait := func(v c18XV) bool {
+		o := x.Canon(v)
+		if res, ok := waitMemo[o]; ok {
+			return res
+		}
+		res := false
+		if _, isConst := o.V.(*ssa.Const); !isConst {
+			if b, ok := o.V.Type().Underlying().(*types.Basic); ok && b.Info()&types.IsInteger != 0 {
+				res = x.Depends(dur, func(y c18XV) bool { return c18SameXV(x.Canon(y), o) || y == o })
+			}
+		}
+		waitMemo[o] = res
+		return res
+	}
+	nowCall := func(v c18XV) bool {
+		cl, ok := v.V.(*ssa.Call)
+		return ok && (CallSite{cl.Parent(), cl}).IsStatic("time", "", "Now")
+	}
+	mkAssume := func(before bool) c18Assume {
+		var ev func(n *c18XB, ctx *c18Ctx, cond ssa.Value, depth int) (bool, bool)
+		ev = func(n *c18XB, ctx *c18Ctx, cond ssa.Value, depth int) (bool, bool) {
+			if depth > 8 {
+				return false, false
+			}
+			rv := x.ResolveIn(n, ctx, cond)
+			switch t := rv.V.(type) {
+			case *ssa.Const:
+				if t.Value != nil && t.Value.Kind() == constant.Bool {
+					return true, constant.BoolVal(t.Value)
+				}
+			case *ssa.UnOp:
+				if t.Op == token.NOT {
+					k, v := ev(n, rv.Ctx, t.X, depth+1)
+					return k, !v
+				}
+			case *ssa.BinOp:
+				if t.Op == token.EQL || t.Op == token.NEQ {
+					l, rr := x.ResolveIn(n, rv.Ctx, t.X), x.ResolveIn(n, rv.Ctx, t.Y)
+					var other c18XV
+					if z, ok := x.ConstInt(rr); ok && z == 0 {
+						other = l
+					} else if z, ok := x.ConstInt(l); ok && z == 0 {
+						other = rr
+					}
+					if other.V != nil && isWait(other) {
+						return true, t.Op == token.NEQ // wait != 0 is assumed
+					}
+				}
+			case *ssa.Call:
+				cs := CallSite{t.Parent(), t}
+				isBefore := cs.IsStatic("time", "Time", "Before")
+				isAfter := cs.IsStatic("time", "Time", "After")
+				if (isBefore || isAfter) && len(t.Call.Args) == 2 {
+					recv, arg := x.ResolveIn(n, rv.Ctx, t.Call.Args[0]), x.ResolveIn(n, rv.Ctx, t.Call.Args[1])
+					switch {
+					case nowCall(recv) && c18SameXV(arg, deadline):
+						return true, isBefore == before
+					case c18SameXV(recv, deadline) && nowCall(arg):
+						return true, isAfter == before
+					}
+				}
+			}
+			return false, false
+		}
+		return func(n *c18XB, cond ssa.Value) (bool, bool) { return ev(n, n.Ctx, cond, 0) }
+	}
+	// the storage queries, lifted out of go'd literals to the instruction that spawns them
+	var queries []c18XI
+	seenQ := map[c18XI]bool{}
+	for _, q := range x.Calls(func(xi c18XI, c CallSite) bool {
+		cc := c.Common()
+		return cc.IsInvoke() && (cc.Method.Name() == "EnumerateBlobs" || cc.Method.Name() == "StatBlobs")
+	}) {
+		a := x.Anchor(q, w.Ctx)
+		if !seenQ[a] {
+			seenQ[a] = true
+			queries = append(queries, a)
+		}
+	}
+	if len(queries) == 0 {
+		r.Undecided("N-longpoll", key+"#query", site, "no EnumerateBlobs/StatBlobs query found in a handler that long-polls")
+		return
+	}
+	qpos := c18Pos(p, queries[0].In)
+	entry := c18XI{x.Entry.Ctx, x.Entry.B.Instrs[0]}
+	beforeReach := x.Reach(entry, mkAssume(true))
+	anyBefore, waitAfter, again := false, false, false
+	for _, q := range queries {
+		if beforeReach[q] || q == entry {
+			anyBefore = true
+		}
+		if x.Reach(q, mkAssume(true))[w] {
+			waitAfter = true
+		}
+		late := x.Reach(q, mkAssume(false))
+		for _, q2 := range queries {
+			if late[q2] {
+				again = true
+			}
+		}
+	}
+	if os.Getenv("C18DEBUG") == "graph" {
+		x.dump()
+	}
+	r.Check(anyBefore, "N-longpoll", key+"#query-before-deadline", qpos,
+		"with long-poll requested and the deadline not yet passed, the storage query is reachable from entry",
+		"with long-poll requested (wait seconds != 0) and the deadline not yet passed, no path from entry reaches the storage query: the handler answers without ever asking the storage (time comparison has the wrong polarity)")
+	r.Check(waitAfter, "N-longpoll", key+"#wait-after-query", site,
+		"with long-poll requested and the deadline not yet passed, WaitForBlob is reachable after the query",
+		"with long-poll requested and the deadline not yet passed, WaitForBlob is unreachable after the query: the handler cannot wait for new blobs")
+	r.Check(!again, "N-longpoll", key+"#stops-at-deadline", qpos,
+		"once the deadline has passed the query cannot be reached again (the loop ends)",
+		"with the deadline passed the storage query can still reach itself: the long-poll loop does not stop at the deadline")
+}
+
+// ---------------------------------------------------------------------------
+// N-continue
+
+// c18Def is one way a value may have been defined, with the facts known where
+// that definition was chosen.
+type c18Def struct {
+	V     c18XV
+	Facts []c18Fact
+	Clamp bool // the definition is min(.., max)
+}
+
+// defs expands v through phis (per incoming edge), multi-store variables (per
+// store), integer conversions and results of inlined calls (per return) down
+// to the values that were assigned.
+func (x *c18X) defs(v c18XV, isMax func(c18XV) bool) []c18Def {
+	var out []c18Def
+	seen := map[c18XV]bool{}
+	var walk func(v c18XV, facts []c18Fact, depth int)
+	walk = func(v c18XV, facts []c18Fact, depth int) {
+		v = x.Canon(v)
+		if depth > 24 || seen[v] {
+			return
+		}
+		seen[v] = true
+		switch t := v.V.(type) {
+		case *ssa.Phi:
+			for _, e := range x.PhiEdges(v) {
+				walk(e.Val, e.Facts, depth+1)
+			}
+			return
+		case *ssa.Convert:
+			walk(c18XV{v.Ctx, t.X}, facts, depth+1)
+			return
+		case *ssa.UnOp:
+			if t.Op == token.MUL {
+				if cell, ok := varOf(t.X); ok {
+					sts := storesTo(cell)
+					for _, st := range sts {
+						for _, c := range x.ctxsFor(v.Ctx, st.Parent()) {
+							walk(c18XV{c, st.Val}, x.FactsOf(c18XI{c, st}), depth+1)
+						}
+					}
+					if len(sts) > 0 {
+						return
+					}
+				}
+			}
+		case *ssa.Call:
+			if b, ok := t.Call.Value.(*ssa.Builtin); ok && b.Name() == "min" {
+				for _, a := range t.Call.Args {
+					if isMax != nil && isMax(c18XV{v.Ctx, a}) {
+						out = append(out, c18Def{v, facts, true})
+						return
+					}
+				}
+			}
+			if child := x.child[c18XI{v.Ctx, t}]; child != nil && child.Kind == c18KCall && t.Call.Signature().Results().Len() == 1 {
+				for _, rn := range x.returnNodes(child) {
+					rt := rn.last().(*ssa.Return)
+					walk(x.resolveRaw(rn, c18RetVal(rt.Results[0], rt)), x.FactsAt(rn), depth+1)
+				}
+				return
+			}
+		case *ssa.Extract:
+			if c, ok := t.Tuple.(*ssa.Call); ok {
+				if child := x.child[c18XI{v.Ctx, c}]; child != nil && child.Kind == c18KCall {
+					for _, rn := range x.returnNodes(child) {
+						rt := rn.last().(*ssa.Return)
+						if t.Index < len(rt.Results) {
+							walk(x.resolveRaw(rn, c18RetVal(rt.Results[t.Index], rt)), x.FactsAt(rn), depth+1)
+						}
+					}
+					return
+				}
+			}
+		}
+		out = append(out, c18Def{v, facts, false})
+	}
+	walk(v, nil, 0)
+	return out
+}
+
+func c18Continue(p *Program, r *Reporter) {
+	h := c18Handler1(p, "enumerate-blobs")
+	x, key := h.X, h.Key
+	enumIface := p.Iface("pkg/blobserver", "BlobEnumerator")
+	qs := c18UniqInstr(x.Calls(func(xi c18XI, c CallSite) bool { return c.IsMethod("EnumerateBlobs", enumIface) }))
+	if len(qs) != 1 {
+		brokenf("anchor unresolved: expected exactly one EnumerateBlobs call in the effective body of %s, found %d", key, len(qs))
+	}
+	q := qs[0]
+	qc := CallSite{q.Ctx.Fn, q.In.(ssa.CallInstruction)}
+	qpos := c18Pos(p, q.In)
+	args := qc.Args() // recv, ctx, dest, after, limit
+	formCall := func(name string) func(c18XV) bool {
+		return func(v c18XV) bool {
+			if _, ok := v.V.(*ssa.Call); !ok {
+				return false
+			}
+			s, ok := x.reqKeyOf(v)
+			return ok && s == name
+		}
+	}
+	afterArg, limitArg := c18XV{q.Ctx, args[3]}, c18XV{q.Ctx, args[4]}
+	r.Check(x.Depends(afterArg, formCall("after")), "N-continue", key+"#after-arg", qpos,
+		"the cursor passed to EnumerateBlobs derives from the request's 'after' parameter",
+		"the cursor passed to EnumerateBlobs does not derive from FormValue(\"after\"): a continuation request restarts or skips")
+	r.Check(x.Depends(limitArg, formCall("limit")), "N-continue", key+"#limit-arg", qpos,
+		"the limit passed to EnumerateBlobs derives from the request's 'limit' parameter",
+		"the limit passed to EnumerateBlobs does not derive from FormValue(\"limit\")")
+	// every definition of the limit value that derives from the parsed request
+	// value is on the not-greater edge of a comparison with the storage maximum
+	isParsed := func(v c18XV) bool {
+		cl, ok := v.V.(*ssa.Call)
+		if !ok {
+			return false
+		}
+		cs := CallSite{cl.Parent(), cl}
+		return cs.IsStatic("strconv", "", "ParseUint") || cs.IsStatic("strconv", "", "Atoi") || cs.IsStatic("strconv", "", "ParseInt")
+	}
+	depParsed := func(v c18XV) bool { return x.Depends(v, isParsed) }
+	isMax := func(v c18XV) bool {
+		return x.Depends(v, func(y c18XV) bool {
+			cl, ok := y.V.(*ssa.Call)
+			return ok && cl.Call.IsInvoke() && cl.Call.Method.Name() == "MaxEnumerate"
+		})
+	}
+	okClamp, parsedDefs, why := true, 0, ""
+	for _, d := range x.defs(limitArg, isMax) {
+		if !depParsed(d.V) {
+			continue
+		}
+		parsedDefs++
+		clamped := d.Clamp
+		for _, f := range d.Facts {
+			bo, ok := f.Cond.(*ssa.BinOp)
+			if !ok {
+				continue
+			}
+			l, rr := x.resolveRaw(f.At, bo.X), x.resolveRaw(f.At, bo.Y)
+			lp, rp := depParsed(l), depParsed(rr)
+			lm, rm := isMax(l), isMax(rr)
+			switch {
+			case lp && rm && (bo.Op == token.GTR && !f.Val || bo.Op == token.LEQ && f.Val || bo.Op == token.GEQ && !f.Val || bo.Op == token.LSS && f.Val):
+				clamped = true
+			case rp && lm && (bo.Op == token.LSS && !f.Val || bo.Op == token.GEQ && f.Val || bo.Op == token.LEQ && !f.Val || bo.Op == token.GTR && f.Val):
+				clamped = true
+			}
+		}
+		if !clamped {
+			okClamp = false
+			line := 0
+			if in, ok := d.V.V.(ssa.Instruction); ok {
+				line = p.Fset.Position(in.Pos()).Line
+			}
+			why = fmt.Sprintf("the parsed request value assigned to the limit at line %d is not guarded by a comparison with the storage's MaxEnumerate", line)
+		}
+	}
+	if parsedDefs == 0 {
+		okClamp, why = false, "no assignment of the parsed 'limit' value to the limit passed to EnumerateBlobs found"
+	}
+	r.Check(okClamp, "N-continue", key+"#limit-clamp", qpos,
+		"the client-supplied limit reaches EnumerateBlobs only when not greater than the storage's maximum", why)
+	// continueAfter emission
+	conts := x.formatCalls(func(f string) bool { return strings.Contains(f, "continueAfter") })
+	{
+		seen := map[ssa.Instruction]bool{}
+		var u []c18Fmt
+		for _, c := range conts {
+			if !seen[c.Call.In] {
+				seen[c.Call.In] = true
+				u = append(u, c)
+			}
+		}
+		conts = u
+	}
+	if len(conts) != 1 || len(conts[0].Args) != 1 {
+		r.Violation("N-continue", key+"#continueAfter", p.Pos(h.Req.Fn.Pos()), "the handler no longer writes exactly one continueAfter member from one value: full pages cannot be continued")
+		r.Floor("N-continue", 7)
+		return
+	}
+	cont := conts[0]
+	cpos := c18Pos(p, cont.Call.In)
+	cv := x.Canon(cont.Args[0])
+	// (1) emitted only when non-empty
+	nonEmpty := false
+	for _, f := range x.FactsOf(cont.Call) {
+		if bo, ok := f.Cond.(*ssa.BinOp); ok && (bo.Op == token.NEQ && f.Val || bo.Op == token.EQL && !f.Val) {
+			l, rr := x.resolveRaw(f.At, bo.X), x.resolveRaw(f.At, bo.Y)
+			if s, ok := x.ConstString(rr); ok && s == "" && x.Same(l, cv) {
+				nonEmpty = true
+			}
+			if s, ok := x.ConstString(l); ok && s == "" && x.Same(rr, cv) {
+				nonEmpty = true
+			}
+		}
+		if v, kind, pos, isStr, ok := x.cmpZero(f.At, f.Cond, f.Val); ok && isStr && kind == c18NonEmpty && pos && x.Same(v, cv) {
+			nonEmpty = true
+		}
+	}
+	r.Check(nonEmpty, "N-continue", key+"#continueAfter-nonempty", cpos,
+		"continueAfter is written only under value != \"\"", "continueAfter is written without testing that the value is non-empty: clients loop forever on the last page")
+	// (2) derives from Ref.String() of a value received from the channel fed by the query
+	fromRecv := x.Depends(cv, func(y c18XV) bool {
+		cl, ok := y.V.(*ssa.Call)
+		if !ok || !(CallSite{cl.Parent(), cl}).IsStatic("perkeep.org/pkg/blob", "Ref", "String") {
+			return false
+		}
+		return x.Depends(c18XV{y.Ctx, cl.Call.Args[0]}, func(z c18XV) bool {
+			u, ok := z.V.(*ssa.UnOp)
+			if ok && u.Op == token.ARROW {
+				return true
+			}
+			// `for sb := range ch` over a channel: Next of a Range is not used for channels; select receive
+			_, isSel := z.V.(*ssa.Select)
+			return isSel
+		})
+	})
+	r.Check(fromRecv, "N-continue", key+"#continueAfter-last-ref", cpos,
+		"the continueAfter value derives from the String() of a ref received from the enumeration channel",
+		"the continueAfter value does not derive from a ref received from the enumeration: the next page would not start after the last emitted blob")
+	// (3) cleared on the short-page edge
+	cleared, clearWhy := c18ShortPageReset(x, cv, limitArg)
+	r.Check(cleared, "N-continue", key+"#short-page-reset", cpos,
+		"the continuation value is reset to \"\" on the edge where fewer blobs than the limit were received", clearWhy)
+	// (4) an enumeration error exits before the terminator writes
+	errRecvs := x.Instrs(func(xi c18XI) bool {
+		u, ok := xi.In.(*ssa.UnOp)
+		return ok && u.Op == token.ARROW && isErrorType(u.Type())
+	})
+	if len(errRecvs) == 0 {
+		r.Violation("N-continue", key+"#error-exit", qpos, "the handler no longer receives the enumeration's error result: a failed enumeration would be reported as a complete list")
+	} else {
+		okErr := false
+		why := "the enumeration error is never tested"
+		for _, er := range errRecvs {
+			ev := c18XV{er.Ctx, er.In.(*ssa.UnOp)}
+			for _, n := range x.Nodes {
+				ifi := n.ifInstr()
+				if ifi == nil {
+					continue
+				}
+				k, isNil := x.condNil(n, ifi.Cond, true, ev)
+				if !k {
+					continue
+				}
+				errSucc := n.IfSucc[0]
+				if isNil {
+					errSucc = n.IfSucc[1]
+				}
+				if errSucc == nil {
+					continue
+				}
+				okErr = true
+				for xi := range x.ReachFromNode(errSucc, nil) {
+					ci, ok := xi.In.(ssa.CallInstruction)
+					if !ok {
+						continue
+					}
+					cs := CallSite{xi.Ctx.Fn, ci}
+					if cs.IsStatic("io", "", "WriteString") || cs.IsStatic("fmt", "", "Fprintf") || cs.IsStatic("fmt", "", "Fprint") {
+						for _, a := range cs.Common().Args {
+							if s, ok := x.ConstString(c18XV{xi.Ctx, a}); ok && (strings.Contains(s, "]") || strings.Contains(s, "continueAfter")) && !strings.Contains(s, "{{{") {
+								okErr = false
+								why = fmt.Sprintf("from the err != nil edge of the enumeration result the write %q at line %d is reachable: a failed enumeration is answered as a well-formed (truncated) list", s, p.Fset.Position(cs.Pos()).Line)
+							}
+						}
+					}
+				}
+			}
+		}
+		r.Check(okErr, "N-continue", key+"#error-exit", c18Pos(p, errRecvs[len(errRecvs)-1].In),
+			"on the err != nil edge of the enumeration result the list/continuation terminator writes are unreachable", why)
+	}
+	r.Floor("N-continue", 7)
+}
+
+// c18ShortPageReset: somewhere on the phi chain feeding cv there is a phi with
+// a "" edge coming from the true edge of `count < limit` (or an equivalent
+// form), where limit is the very value passed to EnumerateBlobs and count is a
+// loop counter (phi of 0 and itself+1).
+func c18ShortPageReset(x *c18X, cv, limit c18XV) (bool, string) {
+	seen := map[c18XV]bool{}
+	type edge struct {
+		facts []c18Fact
+	}
+	var empties []edge
+	var walk func(v c18XV, depth int)
+	walk = func(v c18XV, depth int) {
+		v = x.Canon(v)
+		if seen[v] || depth > 24 {
+			return
+		}
+		seen[v] = true
+		if _, ok := v.V.(*ssa.Phi); ok {
+			for _, e := range x.PhiEdges(v) {
+				if s, ok := x.ConstString(e.Val); ok && s == "" {
+					empties = append(empties, edge{e.Facts})
+					continue
+				}
+				walk(e.Val, depth+1)
+			}
+			return
+		}
+		// results of inlined helpers returning on several paths
+		for _, d := range x.defs(v, nil) {
+			if d.V != v {
+				if s, ok := x.ConstString(d.V); ok && s == "" {
+					empties = append(empties, edge{d.Facts})
+					continue
+				}
+				walk(d.V, depth+1)
+			}
+		}
+	}
+	walk(cv, 0)
+	isCounter := func(v c18XV) bool {
+		v = x.Canon(v)
+		ph, ok := v.V.(*ssa.Phi)
+		if !ok {
+			return false
+		}
+		zero, inc := false, false
+		for _, e := range ph.Edges {
+			if z, ok := x.ConstInt(c18XV{v.Ctx, e}); ok && z == 0 {
+				zero = true
+			}
+			if bo, ok := e.(*ssa.BinOp); ok && bo.Op == token.ADD && bo.X == ssa.Value(ph) {
+				if o, ok := x.ConstInt(c18XV{v.Ctx, bo.Y}); ok && o == 1 {
+					inc = true
+				}
+			}
+		}
+		return zero && inc
+	}
+	isLimit := func(v c18XV) bool {
+		a, b := x.Canon(v), x.Canon(limit)
+		if c18SameXV(a, b) {
+			return true
+		}
+		la, ok1 := a.V.(*ssa.UnOp)
+		lb, ok2 := b.V.(*ssa.UnOp)
+		if ok1 && ok2 && la.Op == token.MUL && lb.Op == token.MUL {
+			c1, k1 := varOf(la.X)
+			c2, k2 := varOf(lb.X)
+			return k1 && k2 && c1 == c2
+		}
+		return false
+	}
+	for _, e := range empties {
+		for _, f := range e.facts {
+			bo, ok := f.Cond.(*ssa.BinOp)
+			if !ok {
+				continue
+			}
+			l, rr := x.resolveRaw(f.At, bo.X), x.resolveRaw(f.At, bo.Y)
+			cl := isCounter(l) && isLimit(rr)
+			lc := isLimit(l) && isCounter(rr)
+			switch {
+			case cl && (bo.Op == token.LSS && f.Val || bo.Op == token.GEQ && !f.Val || bo.Op == token.NEQ && f.Val || bo.Op == token.EQL && !f.Val):
+				return true, ""
+			case lc && (bo.Op == token.GTR && f.Val || bo.Op == token.LEQ && !f.Val || bo.Op == token.NEQ && f.Val || bo.Op == token.EQL && !f.Val):
+				return true, ""
+			}
+		}
+	}
+	return false, "the continuation value is never reset to \"\" on a 'received count < limit' edge (limit being the value passed to EnumerateBlobs): a short (last) page would still announce a continuation, or a full page would not"
+}
+
+// ---------------------------------------------------------------------------
+// request-key atoms
 
 // atom kinds, ordered by implication: kind k holds => every lower kind holds.
 const (
@@ -1235,80 +3258,37 @@ func c18AtomsString(as []c18Atom) string {
 	return strings.Join(s, " && ")
 }
 
-// c18ReqKeyOf: v is the value of request key K (FormValue/PostFormValue, or
-// Get on req.URL.Query() / req.Form).
-func c18ReqKeyOf(v ssa.Value) (string, bool) {
-	cl, ok := originValue(v).(*ssa.Call)
-	if !ok {
-		return "", false
+// cmpZero normalises a comparison (evaluated in node n) of some value with the
+// constants "" / 0 / 1 into (value, kind, pos): "cond == val" means atom(kind)
+// on value has polarity pos. isStr tells which constant family matched. The
+// returned value is canonical.
+func (x *c18X) cmpZero(n *c18XB, cond ssa.Value, val bool) (v c18XV, kind int, pos, isStr, ok bool) {
+	rc := x.resolveRaw(n, cond)
+	ctx := rc.Ctx
+	res := func(o ssa.Value) c18XV {
+		if ctx == n.Ctx {
+			return x.Resolve(n, o)
+		}
+		return x.Canon(c18XV{ctx, o})
 	}
-	cs := CallSite{cl.Parent(), cl}
-	switch {
-	case cs.IsStatic("net/http", "Request", "FormValue"), cs.IsStatic("net/http", "Request", "PostFormValue"):
-		return ConstString(cl.Call.Args[1])
-	case cs.IsStatic("net/url", "Values", "Get"):
-		fromReq := DependsOn(cl.Call.Args[0], func(x ssa.Value) bool {
-			if c2, ok := x.(*ssa.Call); ok && (CallSite{c2.Parent(), c2}).IsStatic("net/url", "URL", "Query") {
-				return true
-			}
-			if fa, ok := x.(*ssa.FieldAddr); ok {
-				if pt, ok := fa.X.Type().Underlying().(*types.Pointer); ok && IsNamed(pt.Elem(), "net/http", "Request") {
-					n := fieldName(pt.Elem(), fa.Field)
-					return n == "Form" || n == "PostForm"
-				}
-			}
-			return false
-		})
-		if fromReq {
-			return ConstString(cl.Call.Args[1])
-		}
-	}
-	return "", false
-}
-
-// c18ReqIntKeyOf: v is the integer parsed from the value of request key K.
-func c18ReqIntKeyOf(v ssa.Value) (string, bool) {
-	for i := 0; i < 4; i++ {
-		o := originValue(v)
-		if cv, ok := o.(*ssa.Convert); ok {
-			v = cv.X
-			continue
-		}
-		ex, ok := o.(*ssa.Extract)
-		if !ok || ex.Index != 0 {
-			return "", false
-		}
-		cl, ok := ex.Tuple.(*ssa.Call)
-		if !ok {
-			return "", false
-		}
-		cs := CallSite{cl.Parent(), cl}
-		if cs.IsStatic("strconv", "", "Atoi") || cs.IsStatic("strconv", "", "ParseInt") || cs.IsStatic("strconv", "", "ParseUint") {
-			return c18ReqKeyOf(cl.Call.Args[0])
-		}
-		return "", false
-	}
-	return "", false
-}
-
-// c18CmpZero normalises a comparison of some value with the constants "" / 0 /
-// 1 into (value, kind, pos): "cond == val" means atom(kind) on value has
-// polarity pos. isStr tells which constant family matched.
-func c18CmpZero(cond ssa.Value, val bool) (x ssa.Value, kind int, pos, isStr, ok bool) {
+	cur := rc.V
 	for {
-		u, isNot := cond.(*ssa.UnOp)
+		u, isNot := cur.(*ssa.UnOp)
 		if !isNot || u.Op != token.NOT {
 			break
 		}
-		cond, val = u.X, !val
+		cur, val = u.X, !val
 	}
-	bo, isBin := cond.(*ssa.BinOp)
+	bo, isBin := cur.(*ssa.BinOp)
 	if !isBin {
-		return nil, 0, false, false, false
+		return c18XV{}, 0, false, false, false
 	}
-	op, lhs, rhs := bo.Op, bo.X, bo.Y
-	if _, lc := lhs.(*ssa.Const); lc {
+	op := bo.Op
+	lhs, rhs := res(bo.X), res(bo.Y)
+	rawL := bo.X
+	if _, lc := lhs.V.(*ssa.Const); lc {
 		lhs, rhs = rhs, lhs
+		rawL = bo.Y
 		switch op {
 		case token.LSS:
 			op = token.GTR
@@ -1320,9 +3300,9 @@ func c18CmpZero(cond ssa.Value, val bool) (x ssa.Value, kind int, pos, isStr, ok
 			op = token.LEQ
 		}
 	}
-	if s, isS := ConstString(rhs); isS {
+	if s, isS := x.ConstString(rhs); isS {
 		if s != "" {
-			return nil, 0, false, false, false
+			return c18XV{}, 0, false, false, false
 		}
 		switch op {
 		case token.EQL:
@@ -1330,25 +3310,37 @@ func c18CmpZero(cond ssa.Value, val bool) (x ssa.Value, kind int, pos, isStr, ok
 		case token.NEQ:
 			return lhs, c18NonEmpty, val, true, true
 		}
-		return nil, 0, false, false, false
+		return c18XV{}, 0, false, false, false
 	}
-	c, isI := ConstInt(rhs)
+	c, isI := x.ConstInt(rhs)
 	if !isI {
-		return nil, 0, false, false, false
+		return c18XV{}, 0, false, false, false
 	}
 	// len(s) compared with 0/1 is a statement about s's emptiness
-	if cl, isCall := lhs.(*ssa.Call); isCall {
+	lenOf := func(v ssa.Value, vctx *c18Ctx) (c18XV, bool) {
+		cl, isCall := v.(*ssa.Call)
+		if !isCall {
+			return c18XV{}, false
+		}
 		if b, isB := cl.Call.Value.(*ssa.Builtin); isB && b.Name() == "len" && len(cl.Call.Args) == 1 {
 			if bt, isBasic := cl.Call.Args[0].Type().Underlying().(*types.Basic); isBasic && bt.Info()&types.IsString != 0 {
-				switch {
-				case c == 0 && op == token.EQL, c == 0 && op == token.LEQ, c == 1 && op == token.LSS:
-					return cl.Call.Args[0], c18NonEmpty, !val, true, true
-				case c == 0 && op == token.NEQ, c == 0 && op == token.GTR, c == 1 && op == token.GEQ:
-					return cl.Call.Args[0], c18NonEmpty, val, true, true
-				}
-				return nil, 0, false, false, false
+				return x.Canon(c18XV{vctx, cl.Call.Args[0]}), true
 			}
 		}
+		return c18XV{}, false
+	}
+	sv, isLen := lenOf(lhs.V, lhs.Ctx)
+	if !isLen {
+		sv, isLen = lenOf(rawL, ctx)
+	}
+	if isLen {
+		switch {
+		case c == 0 && op == token.EQL, c == 0 && op == token.LEQ, c == 1 && op == token.LSS:
+			return sv, c18NonEmpty, !val, true, true
+		case c == 0 && op == token.NEQ, c == 0 && op == token.GTR, c == 1 && op == token.GEQ:
+			return sv, c18NonEmpty, val, true, true
+		}
+		return c18XV{}, 0, false, false, false
 	}
 	switch {
 	case c == 0 && op == token.EQL:
@@ -1360,26 +3352,1341 @@ func c18CmpZero(cond ssa.Value, val bool) (x ssa.Value, kind int, pos, isStr, ok
 	case c == 0 && op == token.LEQ, c == 1 && op == token.LSS:
 		return lhs, c18IntPos, !val, false, true
 	}
-	return nil, 0, false, false, false
+	return c18XV{}, 0, false, false, false
 }
 
-// c18ServerAtom interprets a handler branch condition as an atom over a request key.
-func c18ServerAtom(cond ssa.Value, val bool) (c18Atom, bool) {
-	x, kind, pos, isStr, ok := c18CmpZero(cond, val)
+// reqIntKeyOf: v is the integer parsed from the value of request key K.
+func (x *c18X) reqIntKeyOf(v c18XV) (string, bool) {
+	for i := 0; i < 4; i++ {
+		o := x.Canon(v)
+		if cv, ok := o.V.(*ssa.Convert); ok {
+			v = c18XV{o.Ctx, cv.X}
+			continue
+		}
+		ex, ok := o.V.(*ssa.Extract)
+		if !ok || ex.Index != 0 {
+			return "", false
+		}
+		cl, ok := ex.Tuple.(*ssa.Call)
+		if !ok {
+			return "", false
+		}
+		cs := CallSite{cl.Parent(), cl}
+		if cs.IsStatic("strconv", "", "Atoi") || cs.IsStatic("strconv", "", "ParseInt") || cs.IsStatic("strconv", "", "ParseUint") {
+			return x.reqKeyOf(c18XV{o.Ctx, cl.Call.Args[0]})
+		}
+		return "", false
+	}
+	return "", false
+}
+
+// serverAtom interprets a handler branch condition as an atom over a request key.
+func (x *c18X) serverAtom(n *c18XB, cond ssa.Value, val bool) (c18Atom, bool) {
+	v, kind, pos, isStr, ok := x.cmpZero(n, cond, val)
 	if !ok {
 		return c18Atom{}, false
 	}
 	if isStr {
-		if k, ok := c18ReqKeyOf(x); ok {
+		if k, ok := x.reqKeyOf(v); ok {
 			return c18Atom{k, kind, pos}, true
 		}
 		return c18Atom{}, false
 	}
-	if k, ok := c18ReqIntKeyOf(x); ok {
+	if k, ok := x.reqIntKeyOf(v); ok {
 		return c18Atom{k, kind, pos}, true
 	}
 	return c18Atom{}, false
 }
+
+// ---------------------------------------------------------------------------
+// N-stat
+
+// c18IsReject: the instruction instance writes an error response (status >= 400).
+func (x *c18X) isReject(ctx *c18Ctx, in ssa.Instruction) bool {
+	cl, ok := in.(*ssa.Call)
+	if !ok {
+		return false
+	}
+	cs := CallSite{cl.Parent(), cl}
+	if f := cs.Callee(); f != nil && f.Pkg != nil {
+		switch f.Pkg.Pkg.Path() {
+		case "perkeep.org/internal/httputil":
+			if f.Name() == "ReturnJSONCode" {
+				c, ok := x.ConstInt(c18XV{ctx, cl.Call.Args[1]})
+				return ok && c >= 400
+			}
+			n := f.Name()
+			return len(n) >= 5 && n[len(n)-5:] == "Error" || n == "ErrorRouting"
+		case "net/http":
+			if f.Name() == "Error" || f.Name() == "NotFound" {
+				return true
+			}
+		}
+	}
+	if cs.MethodName() == "WriteHeader" {
+		args := cs.Args()
+		if len(args) == 2 {
+			c, ok := x.ConstInt(c18XV{ctx, args[1]})
+			return ok && c >= 400
+		}
+	}
+	return false
+}
+
+func c18Stat(p *Program, r *Reporter) {
+	h := c18Handler1(p, "stat")
+	x, key := h.X, h.Key
+	isFormCall := func(v c18XV) bool {
+		if _, ok := v.V.(*ssa.Call); !ok {
+			return false
+		}
+		_, ok := x.reqKeyArg(v)
+		return ok
+	}
+	// (1) the map update recording a requested ref is dominated by blob.Parse ok==true on the form value
+	// and by the within-limit edge of the count check
+	upds := c18UniqInstr(x.Instrs(func(xi c18XI) bool {
+		mu, ok := xi.In.(*ssa.MapUpdate)
+		if !ok {
+			return false
+		}
+		n := NamedOf(mu.Key.Type())
+		return n != nil && n.Obj().Name() == "Ref" && x.Depends(c18XV{xi.Ctx, mu.Key}, isFormCall)
+	}))
+	if len(upds) == 0 {
+		// a recording that does not derive from the form value at all
+		upds = c18UniqInstr(x.Instrs(func(xi c18XI) bool {
+			mu, ok := xi.In.(*ssa.MapUpdate)
+			if !ok {
+				return false
+			}
+			n := NamedOf(mu.Key.Type())
+			return n != nil && n.Obj().Name() == "Ref"
+		}))
+	}
+	if len(upds) == 0 {
+		brokenf("anchor unresolved: map update recording a requested ref in the effective body of %s", key)
+	}
+	for _, upd := range upds {
+		mu := upd.In.(*ssa.MapUpdate)
+		facts := x.FactsOf(upd)
+		parseOK, fromForm := false, false
+		kv := x.Canon(c18XV{upd.Ctx, mu.Key})
+		if ex, ok := kv.V.(*ssa.Extract); ok {
+			if cl, ok := ex.Tuple.(*ssa.Call); ok && (CallSite{cl.Parent(), cl}).IsStatic("perkeep.org/pkg/blob", "", "Parse") {
+				fromForm = x.Depends(c18XV{kv.Ctx, cl.Call.Args[0]}, isFormCall)
+				if okv := ResultValue(cl, 1); okv != nil {
+					okx := c18XV{kv.Ctx, okv}
+					for _, f := range facts {
+						if f.Val && x.Same(x.resolveRaw(f.At, f.Cond), okx) {
+							parseOK = true
+						}
+						if u, isNot := f.Cond.(*ssa.UnOp); isNot && u.Op == token.NOT && !f.Val && x.Same(x.resolveRaw(f.At, u.X), okx) {
+							parseOK = true
+						}
+					}
+				}
+			}
+		}
+		r.Check(parseOK && fromForm, "N-stat", key+"#record-parsed", c18Pos(p, upd.In),
+			"a requested ref is recorded only when blob.Parse of the form value succeeded",
+			"the ref recorded for stat is not the successfully parsed form value: malformed requests are silently answered")
+		bound := false
+		for _, f := range facts {
+			if bo, ok := f.Cond.(*ssa.BinOp); ok {
+				l, rr := x.resolveRaw(f.At, bo.X), x.resolveRaw(f.At, bo.Y)
+				if c, ok := x.ConstInt(rr); ok && c >= 1 && (bo.Op == token.GTR && !f.Val || bo.Op == token.LEQ && f.Val || bo.Op == token.GEQ && !f.Val || bo.Op == token.LSS && f.Val) {
+					if _, ok := x.firstValue(l, 0); ok {
+						bound = true
+					}
+				}
+				if c, ok := x.ConstInt(l); ok && c >= 1 && (bo.Op == token.LSS && !f.Val || bo.Op == token.GEQ && f.Val || bo.Op == token.LEQ && !f.Val || bo.Op == token.GTR && f.Val) {
+					if _, ok := x.firstValue(rr, 0); ok {
+						bound = true
+					}
+				}
+			}
+		}
+		r.Check(bound, "N-stat", key+"#count-bound", c18Pos(p, upd.In),
+			"recording a requested ref is on the within-limit edge of the per-request count check",
+			"the per-request count check no longer guards the recording of requested refs")
+	}
+	// (1b) the 'too many' rejection is decided only after a non-empty value was
+	// read for that index: a batch of exactly the limit is answered
+	overLimit := func(f c18Fact) bool {
+		bo, ok := f.Cond.(*ssa.BinOp)
+		if !ok {
+			return false
+		}
+		l, rr := x.resolveRaw(f.At, bo.X), x.resolveRaw(f.At, bo.Y)
+		if c, ok := x.ConstInt(rr); ok && c >= 1 && (bo.Op == token.GTR && f.Val || bo.Op == token.LEQ && !f.Val || bo.Op == token.GEQ && f.Val || bo.Op == token.LSS && !f.Val) {
+			_, ok := x.firstValue(l, 0)
+			return ok
+		}
+		if c, ok := x.ConstInt(l); ok && c >= 1 && (bo.Op == token.LSS && f.Val || bo.Op == token.GEQ && !f.Val || bo.Op == token.LEQ && f.Val || bo.Op == token.GTR && !f.Val) {
+			_, ok := x.firstValue(rr, 0)
+			return ok
+		}
+		return false
+	}
+	nOver := 0
+	for _, rj := range c18UniqInstr(x.Instrs(func(xi c18XI) bool { return xi.Ctx.within(h.Req) && x.isReject(xi.Ctx, xi.In) })) {
+		facts := x.FactsOf(rj)
+		isOver := false
+		for _, f := range facts {
+			isOver = isOver || overLimit(f)
+		}
+		if !isOver {
+			continue
+		}
+		nOver++
+		present := false
+		for _, f := range facts {
+			v, kind, pos, isStr, ok := x.cmpZero(f.At, f.Cond, f.Val)
+			if !ok || !isStr || kind != c18NonEmpty || !pos {
+				continue
+			}
+			if a, ok := x.reqKeyArg(v); ok {
+				if _, _, ok := x.numberedKey(a); ok {
+					present = true
+				}
+			}
+		}
+		r.Check(present, "N-stat", key+"#limit-reject-after-presence", c18Pos(p, rj.In),
+			"the 'too many blobs' rejection is reached only after a non-empty value was read for the numbered key of that index",
+			"the per-request count is rejected before the numbered key of that index was found non-empty: a stat batch of exactly the limit (the documented always-supported size) is refused with an error")
+	}
+	if nOver == 0 {
+		r.OKTable("N-stat", key+"#limit-reject-after-presence", p.Pos(h.Req.Fn.Pos()), "the handler has no count-based rejection")
+	}
+	// (2) error exit: from err != nil of StatBlobs, ReturnJSON unreachable
+	statIface := p.Iface("pkg/blobserver", "BlobStatter")
+	qs := c18UniqInstr(x.Calls(func(xi c18XI, c CallSite) bool { return c.IsMethod("StatBlobs", statIface) && c.Value() != nil }))
+	if len(qs) != 1 {
+		brokenf("anchor unresolved: StatBlobs call in the effective body of %s (found %d)", key, len(qs))
+	}
+	q := qs[0]
+	qcall := q.In.(*ssa.Call)
+	rets := x.Calls(func(xi c18XI, c CallSite) bool { return c.IsStatic("perkeep.org/internal/httputil", "", "ReturnJSON") })
+	okErr := len(rets) > 0
+	why := "no ReturnJSON call found"
+	ev, _, discarded := ErrValue(qcall)
+	if discarded || ev == nil {
+		okErr, why = false, "the error result of StatBlobs is discarded"
+	} else {
+		evx := c18XV{q.Ctx, ev}
+		tested := false
+		for _, n := range x.Nodes {
+			ifi := n.ifInstr()
+			if ifi == nil {
+				continue
+			}
+			k, isNil := x.condNil(n, ifi.Cond, true, evx)
+			if !k {
+				continue
+			}
+			tested = true
+			errSucc := n.IfSucc[0]
+			if isNil {
+				errSucc = n.IfSucc[1]
+			}
+			if errSucc == nil {
+				continue
+			}
+			reach := x.ReachFromNode(errSucc, nil)
+			for _, rc := range rets {
+				if reach[rc] {
+					okErr = false
+					why = "ReturnJSON (200 + JSON) is reachable from the err != nil edge of StatBlobs: a failed stat is answered as 'these blobs are absent'"
+				}
+			}
+		}
+		if !tested {
+			okErr, why = false, "the error of StatBlobs is never tested"
+		}
+	}
+	r.Check(okErr, "N-stat", key+"#error-exit", c18Pos(p, q.In), "ReturnJSON is unreachable from the err != nil edge of StatBlobs", why)
+	// (3) the callback appends its own argument
+	okCb := false
+	for _, lit := range FuncArgClosures(CallSite{q.Ctx.Fn, qcall}) {
+		if len(lit.Params) != 1 {
+			continue
+		}
+		for _, cb := range x.ctxsOf[lit] {
+			param := c18XV{cb, lit.Params[0]}
+			for _, ap := range x.Calls(func(xi c18XI, c CallSite) bool {
+				b, ok := c.Common().Value.(*ssa.Builtin)
+				return ok && b.Name() == "append" && xi.Ctx.within(cb)
+			}) {
+				for _, el := range x.varargs(ap.Ctx, ap.In.(ssa.CallInstruction).Common().Args[1]) {
+					if x.Depends(el, func(y c18XV) bool { return y == param }) {
+						okCb = true
+					}
+				}
+			}
+		}
+	}
+	r.Check(okCb, "N-stat", key+"#callback-appends-arg", c18Pos(p, q.In),
+		"the StatBlobs callback appends its own SizedRef argument to the response",
+		"the StatBlobs callback does not append its own argument to the response")
+	r.Floor("N-stat", 5)
+}
+
+// ---------------------------------------------------------------------------
+// N-get
+
+func c18Get(p *Program, r *Reporter) {
+	fn := p.Func("pkg/blobserver/gethandler", "", "ServeBlobRef")
+	x := c18Graph(p, fn)
+	key := FuncKey(fn)
+	fetchIface := p.Iface("pkg/blob", "Fetcher")
+	fs := c18UniqInstr(x.Calls(func(xi c18XI, c CallSite) bool { return c.IsMethod("Fetch", fetchIface) && c.Value() != nil }))
+	if len(fs) != 1 {
+		brokenf("anchor unresolved: Fetch call in the effective body of %s (found %d)", key, len(fs))
+	}
+	f := fs[0]
+	fcall := f.In.(*ssa.Call)
+	serves := x.Calls(func(xi c18XI, c CallSite) bool { return c.IsStatic("net/http", "", "ServeContent") })
+	if len(serves) == 0 {
+		brokenf("anchor unresolved: http.ServeContent call in the effective body of %s", key)
+	}
+	rc, size := ResultValue(fcall, 0), ResultValue(fcall, 1)
+	ev, hasErr, discarded := ErrValue(fcall)
+	evx := c18XV{f.Ctx, ev}
+	for _, s := range serves {
+		ok, why := x.Precedes(f, s), "call does not dominate the site"
+		if ok && hasErr {
+			switch {
+			case discarded || ev == nil:
+				ok, why = false, "error result of the call is discarded"
+			default:
+				k, isNil := x.NilFact(x.FactsOf(s), evx)
+				if !(k && isNil) {
+					ok, why = false, "site is not on the err==nil edge of the call"
+				}
+			}
+		}
+		r.Check(ok, "N-get", key+"#serve-after-fetch-ok", c18Pos(p, s.In),
+			"http.ServeContent is reached only on the err==nil edge of Fetch", "http.ServeContent is reachable without a successful Fetch: "+why)
+		content := c18XV{s.Ctx, s.In.(ssa.CallInstruction).Common().Args[4]}
+		depRC := rc != nil && x.Depends(content, func(y c18XV) bool { return y == c18XV{f.Ctx, rc} })
+		depSize := size != nil && x.Depends(content, func(y c18XV) bool { return y == c18XV{f.Ctx, size} })
+		r.Check(depRC && depSize, "N-get", key+"#content-from-fetch", c18Pos(p, s.In),
+			"the served content derives from the reader and the size returned by that Fetch",
+			fmt.Sprintf("the served content does not derive from both results of the Fetch (reader: %v, size: %v): length or bytes may differ from the stored blob", depRC, depSize))
+	}
+	// the reader is closed on every path after a successful fetch: every path
+	// from the fetch (followed along err == nil) to an exit passes a Close of
+	// the reader, called or deferred
+	closed, cwhy := false, "the fetched reader is not used"
+	if rc != nil && ev != nil {
+		rcx := c18XV{f.Ctx, rc}
+		stop := func(n *c18XB, in ssa.Instruction) bool {
+			ci, ok := in.(ssa.CallInstruction)
+			if !ok {
+				return false
+			}
+			cc := ci.Common()
+			if cc.IsInvoke() && cc.Method.Name() == "Close" {
+				return x.MayBe(x.resolveRaw(n, cc.Value), rcx)
+			}
+			return false
+		}
+		leaks := x.Leaks(x.nodesOf[f], func(n *c18XB) int { return x.idx(n, f.In) + 1 }, stop, x.assumeNil(evx), x.Ctxs[0])
+		closed = len(leaks) == 0
+		if !closed {
+			cwhy = fmt.Sprintf("the fetched reader is not closed on every path after a successful Fetch (leaks a file descriptor / gate slot per request): the return at %s is reached without a Close, called or deferred", c18Pos(p, leaks[0].In))
+		}
+	}
+	r.Check(closed, "N-get", key+"#reader-closed", c18Pos(p, f.In),
+		"on every path from a successful Fetch to an exit the reader's Close is called or deferred", cwhy)
+	r.Floor("N-get", 3)
+}
+
+// ---------------------------------------------------------------------------
+// client side: request text model (on the effective body of the function
+// that creates the request)
+
+type c18GFact struct {
+	c18Fact
+	N int // number of value-phis crossed (from the emission outward) when the fact was collected
+}
+
+type c18Frag struct {
+	At      c18XI // formatting point
+	Text    string
+	Literal bool // Text is literal text, not a format string
+	Args    []c18XV
+	Guards  []c18Fact // facts under which the fragment is part of the request (phi edges, helper returns)
+	Phis    []c18XI   // phis (and multi-return helper calls) crossed between the fragment and the request
+	Uncond  bool      // part of every request created at the call
+	Buf     c18XV     // buffer written to (zero for expression fragments)
+}
+
+type c18Request struct {
+	X      *c18X
+	Call   c18XI // the net/http.NewRequest* call instance
+	Action string
+	Frags  []*c18Frag
+	Opaque []string
+}
+
+var c18ActionRE = regexp.MustCompile(`(?:^|/)camli/([a-z][a-z-]*)(?:$|\?)`)
+
+// requests models every HTTP request created in the graph for a /camli/<action> URL.
+func (x *c18X) requests() []*c18Request {
+	var out []*c18Request
+	for _, xi := range x.Calls(func(xi c18XI, c CallSite) bool {
+		return c.Value() != nil && (c.IsStatic("net/http", "", "NewRequest") || c.IsStatic("net/http", "", "NewRequestWithContext"))
+	}) {
+		args := xi.In.(*ssa.Call).Call.Args
+		var urlArg ssa.Value
+		var bodyArgs []ssa.Value
+		switch len(args) {
+		case 3:
+			urlArg, bodyArgs = args[1], args[2:]
+		case 4:
+			urlArg, bodyArgs = args[2], args[3:]
+		default:
+			continue
+		}
+		action := ""
+		x.Depends(c18XV{xi.Ctx, urlArg}, func(y c18XV) bool {
+			if c, ok := y.V.(*ssa.Const); ok && c.Value != nil && c.Value.Kind() == constant.String {
+				if m := c18ActionRE.FindStringSubmatch(constant.StringVal(c.Value)); m != nil {
+					action = m[1]
+					return true
+				}
+			}
+			return false
+		})
+		if action == "" {
+			continue
+		}
+		rq := &c18Request{X: x, Call: xi, Action: action}
+		rq.walkText(c18XV{xi.Ctx, urlArg}, nil, nil, true, map[c18XV]bool{}, 0)
+		for _, b := range bodyArgs {
+			rq.walkText(c18XV{xi.Ctx, b}, nil, nil, true, map[c18XV]bool{}, 0)
+		}
+		out = append(out, rq)
+	}
+	return out
+}
+
+func (rq *c18Request) opaque(v c18XV) {
+	if v.V == nil {
+		return
+	}
+	rq.Opaque = append(rq.Opaque, v.V.Name()+" ("+v.V.Type().String()+")")
+}
+
+func c18IsBufType(t types.Type) bool {
+	pt, ok := t.(*types.Pointer)
+	return ok && (IsNamed(pt.Elem(), "bytes", "Buffer") || IsNamed(pt.Elem(), "strings", "Builder"))
+}
+
+func (rq *c18Request) walkText(v c18XV, guards []c18Fact, phis []c18XI, uncond bool, seen map[c18XV]bool, depth int) {
+	x := rq.X
+	if v.V == nil || depth > 32 {
+		return
+	}
+	v = x.Canon(v)
+	add := func(f *c18Frag) {
+		f.Guards = append([]c18Fact(nil), guards...)
+		f.Phis = append([]c18XI(nil), phis...)
+		rq.Frags = append(rq.Frags, f)
+	}
+	switch t := v.V.(type) {
+	case *ssa.Const:
+		if t.Value != nil && t.Value.Kind() == constant.String {
+			add(&c18Frag{At: rq.Call, Text: constant.StringVal(t.Value), Literal: true, Uncond: uncond})
+		}
+	case *ssa.Convert:
+		rq.walkText(c18XV{v.Ctx, t.X}, guards, phis, uncond, seen, depth+1)
+	case *ssa.BinOp:
+		if t.Op != token.ADD {
+			rq.opaque(v)
+			return
+		}
+		n := len(rq.Frags)
+		rq.walkText(c18XV{v.Ctx, t.X}, guards, phis, uncond, seen, depth+1)
+		y := c18XV{v.Ctx, t.Y}
+		if x.texty(y, 0) {
+			rq.walkText(y, guards, phis, uncond, seen, depth+1)
+		} else if len(rq.Frags) > n && strings.HasSuffix(rq.Frags[len(rq.Frags)-1].Text, "=") {
+			// "...key=" + value: the value of the last key of the preceding text
+			last := rq.Frags[len(rq.Frags)-1]
+			if last.Literal {
+				last.Literal = false
+				last.Text = strings.ReplaceAll(last.Text, "%", "%%")
+			}
+			last.Text += "%s"
+			last.Args = append(last.Args, y)
+		} else {
+			rq.opaque(y)
+		}
+	case *ssa.Phi:
+		if seen[v] {
+			return
+		}
+		seen[v] = true
+		if es := x.PhiEdges(v); len(es) == 1 {
+			// the other edges are infeasible in this context: a copy
+			rq.walkText(es[0].Val, guards, phis, uncond, seen, depth+1)
+		} else {
+			for _, e := range es {
+				g := append(append([]c18Fact(nil), guards...), e.Facts...)
+				rq.walkText(e.Val, g, append(append([]c18XI(nil), phis...), c18XI{v.Ctx, t}), false, seen, depth+1)
+			}
+		}
+		delete(seen, v)
+	case *ssa.Slice:
+		for _, e := range c18VarargElems(t) {
+			rq.walkText(c18XV{v.Ctx, e}, guards, phis, uncond, seen, depth+1)
+		}
+	case *ssa.UnOp:
+		if t.Op == token.MUL {
+			// element k of a variadic slice (newRequest(ctx, method, url, body...): body[0])
+			if ia, ok := t.X.(*ssa.IndexAddr); ok {
+				sl := x.Canon(c18XV{v.Ctx, ia.X})
+				if c, isConst := sl.V.(*ssa.Const); isConst && c.Value == nil {
+					return // indexing a nil slice: this path carries no text
+				}
+				if k, ok := x.ConstInt(c18XV{v.Ctx, ia.Index}); ok {
+					if s, ok := sl.V.(*ssa.Slice); ok {
+						if al, ok := s.X.(*ssa.Alloc); ok {
+							found := false
+							if refs := al.Referrers(); refs != nil {
+								for _, u := range *refs {
+									ia2, ok := u.(*ssa.IndexAddr)
+									if !ok {
+										continue
+									}
+									if k2, ok := ConstInt(ia2.Index); !ok || k2 != k {
+										continue
+									}
+									if ir := ia2.Referrers(); ir != nil {
+										for _, w := range *ir {
+											if st, ok := w.(*ssa.Store); ok && st.Addr == ssa.Value(ia2) {
+												found = true
+												rq.walkText(c18XV{sl.Ctx, st.Val}, guards, phis, uncond, seen, depth+1)
+											}
+										}
+									}
+								}
+							}
+							if found {
+								return
+							}
+						}
+					}
+				}
+			}
+		}
+		rq.opaque(v)
+	case *ssa.Alloc:
+		if c18IsBufType(t.Type()) {
+			rq.bufferWrites(v, guards, phis, uncond)
+			return
+		}
+		rq.opaque(v)
+	case *ssa.Call:
+		cs := CallSite{t.Parent(), t}
+		switch {
+		case cs.IsStatic("fmt", "", "Sprintf"):
+			if f, ok := x.ConstString(c18XV{v.Ctx, t.Call.Args[0]}); ok {
+				add(&c18Frag{At: c18XI{v.Ctx, t}, Text: f, Args: x.varargs(v.Ctx, t.Call.Args[1]), Uncond: uncond})
+				return
+			}
+			rq.opaque(v)
+		case cs.IsStatic("strings", "", "NewReader"), cs.IsStatic("bytes", "", "NewReader"), cs.IsStatic("bytes", "", "NewBufferString"), cs.IsStatic("bytes", "", "NewBuffer"),
+			cs.IsStatic("bytes", "Buffer", "String"), cs.IsStatic("strings", "Builder", "String"), cs.IsStatic("bytes", "Buffer", "Bytes"):
+			rq.walkText(c18XV{v.Ctx, t.Call.Args[0]}, guards, phis, uncond, seen, depth+1)
+		case cs.IsStatic("net/url", "Values", "Encode"):
+			rq.valuesWrites(c18XV{v.Ctx, t.Call.Args[0]}, guards, phis, uncond)
+		default:
+			if rq.walkReturns(v, t, 0, guards, phis, seen, depth) {
+				return
+			}
+			rq.opaque(v)
+		}
+	case *ssa.Extract:
+		if c, ok := t.Tuple.(*ssa.Call); ok && rq.walkReturns(v, c, t.Index, guards, phis, seen, depth) {
+			return
+		}
+		rq.opaque(v)
+	case *ssa.Parameter, *ssa.FreeVar:
+		rq.opaque(v)
+	default:
+		rq.opaque(v)
+	}
+}
+
+// walkReturns: the text is the result of an inlined helper that returns on
+// several paths: each returned value, under the facts of its return.
+func (rq *c18Request) walkReturns(v c18XV, call *ssa.Call, idx int, guards []c18Fact, phis []c18XI, seen map[c18XV]bool, depth int) bool {
+	x := rq.X
+	child := x.child[c18XI{v.Ctx, call}]
+	if child == nil || child.Kind != c18KCall {
+		return false
+	}
+	rns := x.returnNodes(child)
+	if len(rns) == 0 {
+		return false
+	}
+	if seen[v] {
+		return true
+	}
+	seen[v] = true
+	for _, rn := range rns {
+		rt := rn.last().(*ssa.Return)
+		if idx >= len(rt.Results) {
+			continue
+		}
+		g := append(append([]c18Fact(nil), guards...), x.FactsAt(rn)...)
+		rq.walkText(x.resolveRaw(rn, c18RetVal(rt.Results[idx], rt)), g, append(append([]c18XI(nil), phis...), c18XI{v.Ctx, call}), false, seen, depth+1)
+	}
+	delete(seen, v)
+	return true
+}
+
+// texty: v is a shape walkText models as request text (rather than as the
+// value following a trailing "key=").
+func (x *c18X) texty(v c18XV, depth int) bool {
+	if depth > 6 {
+		return false
+	}
+	v = x.Canon(v)
+	switch t := v.V.(type) {
+	case *ssa.Const:
+		return true
+	case *ssa.BinOp:
+		return t.Op == token.ADD
+	case *ssa.Phi:
+		for _, e := range t.Edges {
+			if x.texty(c18XV{v.Ctx, e}, depth+1) {
+				return true
+			}
+		}
+	case *ssa.Call:
+		cs := CallSite{t.Parent(), t}
+		return cs.IsStatic("fmt", "", "Sprintf") || cs.IsStatic("net/url", "Values", "Encode")
+	}
+	return false
+}
+
+func (rq *c18Request) bufferWrites(buf c18XV, guards []c18Fact, phis []c18XI, uncond bool) {
+	x := rq.X
+	isBuf := func(ctx *c18Ctx, v ssa.Value) bool { return x.Canon(c18XV{ctx, v}) == buf }
+	n := 0
+	for _, xi := range x.Calls(func(xi c18XI, c CallSite) bool { return c.Value() != nil }) {
+		cl := xi.In.(*ssa.Call)
+		c := CallSite{xi.Ctx.Fn, cl}
+		args := c.Args()
+		var f *c18Frag
+		switch {
+		case c.IsStatic("fmt", "", "Fprintf") && len(args) == 3 && isBuf(xi.Ctx, args[0]):
+			if s, ok := x.ConstString(c18XV{xi.Ctx, args[1]}); ok {
+				f = &c18Frag{At: xi, Text: s, Args: x.varargs(xi.Ctx, args[2])}
+			}
+		case (c.IsStatic("bytes", "Buffer", "WriteString") || c.IsStatic("strings", "Builder", "WriteString") || c.IsStatic("io", "", "WriteString")) && len(args) == 2 && isBuf(xi.Ctx, args[0]):
+			if s, ok := x.ConstString(c18XV{xi.Ctx, args[1]}); ok {
+				f = &c18Frag{At: xi, Text: s, Literal: true}
+			} else if sp, ok := x.Canon(c18XV{xi.Ctx, args[1]}).V.(*ssa.Call); ok && (CallSite{sp.Parent(), sp}).IsStatic("fmt", "", "Sprintf") {
+				sctx := x.Canon(c18XV{xi.Ctx, args[1]}).Ctx
+				if s, ok := x.ConstString(c18XV{sctx, sp.Call.Args[0]}); ok {
+					f = &c18Frag{At: xi, Text: s, Args: x.varargs(sctx, sp.Call.Args[1])}
+				}
+			}
+		default:
+			continue
+		}
+		if f == nil {
+			rq.Opaque = append(rq.Opaque, "write to "+buf.V.Name()+" with non-constant text")
+			continue
+		}
+		f.Buf = buf
+		f.Uncond = uncond && x.Precedes(xi, rq.Call)
+		f.Guards = append([]c18Fact(nil), guards...)
+		f.Phis = append([]c18XI(nil), phis...)
+		rq.Frags = append(rq.Frags, f)
+		n++
+	}
+	if n == 0 {
+		rq.Opaque = append(rq.Opaque, "buffer "+buf.V.Name()+" without modelled writes")
+	}
+}
+
+func (rq *c18Request) valuesWrites(m c18XV, guards []c18Fact, phis []c18XI, uncond bool) {
+	x := rq.X
+	mo := x.Canon(m)
+	if _, ok := mo.V.(*ssa.MakeMap); !ok {
+		rq.opaque(m)
+		return
+	}
+	for _, xi := range x.Calls(func(xi c18XI, c CallSite) bool {
+		return c.Value() != nil && (c.IsStatic("net/url", "Values", "Add") || c.IsStatic("net/url", "Values", "Set"))
+	}) {
+		args := xi.In.(*ssa.Call).Call.Args
+		if len(args) != 3 || x.Canon(c18XV{xi.Ctx, args[0]}) != mo {
+			continue
+		}
+		f := &c18Frag{At: xi, Uncond: uncond && x.Precedes(xi, rq.Call)}
+		ka := x.Canon(c18XV{xi.Ctx, args[1]})
+		if s, ok := x.ConstString(ka); ok {
+			f.Text, f.Args = strings.ReplaceAll(s, "%", "%%")+"=%s", []c18XV{{xi.Ctx, args[2]}}
+		} else if sp, ok := ka.V.(*ssa.Call); ok && (CallSite{sp.Parent(), sp}).IsStatic("fmt", "", "Sprintf") {
+			s, ok := x.ConstString(c18XV{ka.Ctx, sp.Call.Args[0]})
+			if !ok {
+				rq.opaque(ka)
+				continue
+			}
+			f.Text, f.Args = s+"=%s", append(x.varargs(ka.Ctx, sp.Call.Args[1]), c18XV{xi.Ctx, args[2]})
+		} else {
+			rq.opaque(ka)
+			continue
+		}
+		f.Guards = append([]c18Fact(nil), guards...)
+		f.Phis = append([]c18XI(nil), phis...)
+		rq.Frags = append(rq.Frags, f)
+	}
+}
+
+type c18Emit struct {
+	Key      string
+	Numbered bool
+	Index    int64 // for literal numbered keys ("blob1="): the index, else -1
+	Frag     *c18Frag
+	IsConst  bool
+	ConstVal string
+	Val      c18XV // zero: unknown value
+	NumArg   c18XV // for numbered keys: the value formatted into the key
+}
+
+var c18EmitRE = regexp.MustCompile(`(?:^|[?&])([A-Za-z]+)([0-9]+)?(%[dv])?=([^&]*)`)
+var c18VerbRE = regexp.MustCompile(`%[a-zA-Z]`)
+
+// Emits lists the key=value emissions of the request.
+func (rq *c18Request) Emits() []*c18Emit {
+	var out []*c18Emit
+	for _, f := range rq.Frags {
+		text := f.Text
+		if !f.Literal {
+			text = strings.ReplaceAll(text, "%%", "\x00\x00")
+		}
+		q := text
+		off := 0
+		if i := strings.Index(q, "?"); i >= 0 {
+			q, off = q[i:], i
+		}
+		argAt := func(pos int) c18XV {
+			idx := 0
+			for _, vb := range c18VerbRE.FindAllStringIndex(text, -1) {
+				if vb[0] < off+pos {
+					idx++
+				}
+			}
+			if !f.Literal && idx < len(f.Args) {
+				return f.Args[idx]
+			}
+			return c18XV{}
+		}
+		for _, m := range c18EmitRE.FindAllStringSubmatchIndex(q, -1) {
+			e := &c18Emit{Key: q[m[2]:m[3]], Numbered: m[6] >= 0 && !f.Literal, Index: -1, Frag: f}
+			if m[4] >= 0 {
+				if m[6] >= 0 {
+					continue // "key12%d=": not a shape we know
+				}
+				fmt.Sscanf(q[m[4]:m[5]], "%d", &e.Index)
+				e.Numbered = true
+			} else if e.Numbered {
+				e.NumArg = argAt(m[6])
+			}
+			vt := q[m[8]:m[9]]
+			switch {
+			case f.Literal:
+				if m[9] == len(q) && vt == "" {
+					// the literal ends with "key=": the value is whatever follows, not modelled
+				} else {
+					e.IsConst, e.ConstVal = true, vt
+				}
+			case !strings.Contains(vt, "%"):
+				e.IsConst, e.ConstVal = true, strings.ReplaceAll(vt, "\x00\x00", "%")
+			case c18VerbRE.MatchString(vt) && len(vt) == 2:
+				e.Val = argAt(m[8])
+			}
+			out = append(out, e)
+		}
+		// a key built on its own: Sprintf("blob%v", n+1) used as a url.Values key is
+		// modelled by valuesWrites as "blob%v=%s" and handled above
+	}
+	return out
+}
+
+// ---------------------------------------------------------------------------
+// which function answers for a request
+
+var c18ReqCache = map[*Program]map[*ssa.Function][]*c18Request{}
+
+// c18ClientRequests models the requests of every top-level function of
+// pkg/client whose effective body creates one.
+func c18ClientRequests(p *Program) map[*ssa.Function][]*c18Request {
+	if m, ok := c18ReqCache[p]; ok {
+		return m
+	}
+	c18ReqCache = map[*Program]map[*ssa.Function][]*c18Request{}
+	fns := p.FuncsIn("pkg/client")
+	// does the effective body of f contain a request creation?
+	memo := map[*ssa.Function]int{} // 1 yes, 2 no, 3 in progress
+	var has func(f *ssa.Function, depth int) bool
+	has = func(f *ssa.Function, depth int) bool {
+		if st := memo[f]; st == 1 {
+			return true
+		} else if st == 2 || st == 3 {
+			return false
+		}
+		if depth > c18MaxDepth {
+			return false
+		}
+		memo[f] = 3
+		res := false
+		for _, c := range CallsIn(f, false) {
+			if c.IsStatic("net/http", "", "NewRequest") || c.IsStatic("net/http", "", "NewRequestWithContext") {
+				res = true
+				break
+			}
+			if g := c.Callee(); g != nil && c18Inlinable(f.Pkg, g) && has(g, depth+1) {
+				res = true
+				break
+			}
+		}
+		if !res {
+			for _, a := range f.AnonFuncs {
+				if has(a, depth+1) {
+					res = true
+					break
+				}
+			}
+		}
+		if res {
+			memo[f] = 1
+		} else {
+			memo[f] = 2
+		}
+		return res
+	}
+	out := map[*ssa.Function][]*c18Request{}
+	for _, f := range fns {
+		if f.Parent() != nil || !has(f, 0) {
+			continue
+		}
+		if rs := c18Graph(p, f).requests(); len(rs) > 0 {
+			out[f] = rs
+		}
+	}
+	c18ReqCache[p] = out
+	return out
+}
+
+// chain names a request instance by the call sites that lead to it from the
+// root, innermost last.
+func (rq *c18Request) chain() []ssa.Instruction {
+	var rev []ssa.Instruction
+	rev = append(rev, rq.Call.In)
+	for c := rq.Call.Ctx; c != nil && c.Up != nil; c = c.Up {
+		rev = append(rev, c.Site)
+	}
+	for i, j := 0, len(rev)-1; i < j; i, j = i+1, j-1 {
+		rev[i], rev[j] = rev[j], rev[i]
+	}
+	return rev
+}
+
+func c18ChainKey(ch []ssa.Instruction) string {
+	var b strings.Builder
+	for _, in := range ch {
+		fmt.Fprintf(&b, "%p/", in)
+	}
+	return b.String()
+}
+
+// c18Reported selects, for a rule with verdict ok(rq), the request instances
+// the rule reports: an instance inlined from a function that already answers
+// for it with a good verdict is left to that function; an instance with a bad
+// verdict in an unexported helper whose callers (all in the package, never
+// through a function value) each inline it is left to the callers, where the
+// helper's parameters are the callers' arguments.
+func c18Reported(p *Program, ok func(*c18Request) bool) []*c18Request {
+	all := c18ClientRequests(p)
+	var roots []*ssa.Function
+	for f := range all {
+		roots = append(roots, f)
+	}
+	sort.Slice(roots, func(i, j int) bool { return FuncKey(roots[i]) < FuncKey(roots[j]) })
+	verdict := map[*c18Request]bool{}
+	type inst struct {
+		f   *ssa.Function
+		key string
+	}
+	own := map[inst]*c18Request{}      // the instance as judged in its own function
+	lifted := map[inst][]*c18Request{} // the same instance inlined into other functions
+	inner := func(rq *c18Request) []inst {
+		ch := rq.chain()
+		var ctxs []*c18Ctx
+		for c := rq.Call.Ctx; c != nil && c.Up != nil; c = c.Up {
+			ctxs = append([]*c18Ctx{c}, ctxs...)
+		}
+		var out []inst
+		for j, c := range ctxs {
+			if c.Fn.Parent() == nil {
+				out = append(out, inst{c.Fn, c18ChainKey(ch[j+1:])})
+			}
+		}
+		return out
+	}
+	for _, f := range roots {
+		for _, rq := range all[f] {
+			verdict[rq] = ok(rq)
+			own[inst{f, c18ChainKey(rq.chain())}] = rq
+			for _, in := range inner(rq) {
+				lifted[in] = append(lifted[in], rq)
+			}
+		}
+	}
+	// answers(in): the function of in reports the instance itself
+	answers := func(in inst) bool {
+		rq := own[in]
+		if rq == nil {
+			return false
+		}
+		if verdict[rq] {
+			return true
+		}
+		ups := c18Liftable(p, in.f)
+		if len(ups) == 0 {
+			return true
+		}
+		// a bad verdict in an unexported helper: left to the callers when each of
+		// them inlines the helper and settles the question
+		seenUp := map[*ssa.Function]bool{}
+		for _, l := range lifted[in] {
+			if !verdict[l] {
+				return true
+			}
+			seenUp[l.X.Root] = true
+		}
+		for _, u := range ups {
+			if !seenUp[u] {
+				return true
+			}
+		}
+		return false
+	}
+	var out []*c18Request
+	for _, f := range roots {
+		for _, rq := range all[f] {
+			covered := false
+			for _, in := range inner(rq) {
+				if answers(in) {
+					covered = true
+				}
+			}
+			if covered || !answers(inst{f, c18ChainKey(rq.chain())}) {
+				continue
+			}
+			out = append(out, rq)
+		}
+	}
+	return out
+}
+
+// ---------------------------------------------------------------------------
+// N-client-page
+
+// memberReads lists the reads of response member `name`: map lookups with that
+// constant key on a map[string]any (the key may be the parameter of an inlined
+// accessor).
+func (x *c18X) memberReads(name string) []c18XI {
+	return x.Instrs(func(xi c18XI) bool {
+		lk, ok := xi.In.(*ssa.Lookup)
+		if !ok {
+			return false
+		}
+		if _, isMap := lk.X.Type().Underlying().(*types.Map); !isMap {
+			return false
+		}
+		s, ok := x.ConstString(c18XV{xi.Ctx, lk.Index})
+		return ok && s == name
+	})
+}
+
+// producedBy: v is the lookup itself or a result of an inlined call whose
+// effective body contains it (the accessor's results stand for the member).
+func (x *c18X) producedBy(v c18XV, reads []c18XI) bool {
+	for _, rd := range reads {
+		if v.V == ssa.Value(rd.In.(*ssa.Lookup)) && v.Ctx == rd.Ctx {
+			return true
+		}
+		var call *ssa.Call
+		switch t := v.V.(type) {
+		case *ssa.Call:
+			call = t
+		case *ssa.Extract:
+			call, _ = t.Tuple.(*ssa.Call)
+		}
+		if call != nil {
+			if child := x.child[c18XI{v.Ctx, call}]; child != nil && rd.Ctx.within(child) {
+				return true
+			}
+		}
+	}
+	return false
+}
+
+func c18ClientPage(p *Program, r *Reporter) {
+	fn := p.Func("pkg/client", "Client", "EnumerateBlobsOpts")
+	x := c18Graph(p, fn)
+	key := FuncKey(fn)
+	conts := x.memberReads("continueAfter")
+	if len(c18UniqInstr(conts)) != 1 {
+		r.Violation("N-client-page", key+"#continueAfter-read", p.Pos(fn.Pos()), "the client no longer reads the continueAfter member exactly once per page")
+		r.Floor("N-client-page", 4)
+		return
+	}
+	fromCont := func(y c18XV) bool { return x.producedBy(y, conts) }
+	var rqs []*c18Request
+	for _, rq := range x.requests() {
+		if rq.Action == "enumerate-blobs" {
+			rqs = append(rqs, rq)
+		}
+	}
+	if len(rqs) != 1 {
+		brokenf("anchor unresolved: enumerate-blobs request in the effective body of %s (found %d)", key, len(rqs))
+	}
+	rq := rqs[0]
+	site := c18Pos(p, x.TopSite(rq.Call))
+	dependsVal, afterPos := false, false
+	for _, f := range rq.Frags {
+		for _, a := range f.Args {
+			if x.Depends(a, fromCont) {
+				dependsVal = true
+			}
+		}
+	}
+	for _, e := range rq.Emits() {
+		if e.Key == "after" && e.Val.V != nil && x.Depends(e.Val, fromCont) {
+			afterPos = true
+		}
+	}
+	r.Check(dependsVal, "N-client-page", key+"#next-after", site,
+		"the next request's URL depends on the continueAfter value of the previous response",
+		"the request URL does not depend on the previous response's continueAfter value: every page would be the first page")
+	r.Check(afterPos, "N-client-page", key+"#after-key", site,
+		"the continuation value is sent as the after= parameter", "the continuation value is not placed after \"after=\" in the request URL")
+	// data dependence, or control dependence: a phi (chain) one of whose edges is
+	// taken under a fact about the member (`ok` of the lookup selects true/false)
+	var ctlDep func(v c18XV, depth int, seen map[c18XV]bool) bool
+	ctlDep = func(v c18XV, depth int, seen map[c18XV]bool) bool {
+		v = x.Canon(v)
+		if depth > 6 || seen[v] {
+			return false
+		}
+		seen[v] = true
+		if x.Depends(v, fromCont) {
+			return true
+		}
+		if u, ok := v.V.(*ssa.UnOp); ok && u.Op == token.NOT {
+			return ctlDep(c18XV{v.Ctx, u.X}, depth+1, seen)
+		}
+		if _, ok := v.V.(*ssa.Phi); ok {
+			for _, e := range x.PhiEdges(v) {
+				for _, f := range e.Facts {
+					if x.Depends(x.resolveRaw(f.At, f.Cond), fromCont) {
+						return true
+					}
+				}
+				if ctlDep(e.Val, depth+1, seen) {
+					return true
+				}
+			}
+		}
+		return false
+	}
+	guard := false
+	for _, f := range x.FactsOf(rq.Call) {
+		if f.Val && ctlDep(x.resolveRaw(f.At, f.Cond), 0, map[c18XV]bool{}) {
+			guard = true
+		}
+	}
+	r.Check(guard, "N-client-page", key+"#loop-guard", site,
+		"the request loop is guarded by the continueAfter member of the previous response",
+		"the request loop is not guarded by the presence of continueAfter in the previous response: paging stops early or never")
+	// sends on the caller's channel
+	var chParam c18XV
+	for _, pa := range fn.Params {
+		if ct, ok := pa.Type().Underlying().(*types.Chan); ok && ct.Dir() != types.RecvOnly {
+			chParam = c18XV{x.Ctxs[0], pa}
+		}
+	}
+	refReads, sizeReads := x.memberReads("blobRef"), x.memberReads("size")
+	nSend, okSend := 0, true
+	chk := func(ch, v c18XV) {
+		if chParam.V == nil || !x.Same(ch, chParam) {
+			return
+		}
+		nSend++
+		if !x.Depends(v, func(y c18XV) bool { return x.producedBy(y, refReads) }) || !x.Depends(v, func(y c18XV) bool { return x.producedBy(y, sizeReads) }) {
+			okSend = false
+		}
+	}
+	for _, xi := range c18UniqInstr(x.Instrs(func(xi c18XI) bool {
+		switch xi.In.(type) {
+		case *ssa.Send, *ssa.Select:
+			return true
+		}
+		return false
+	})) {
+		switch t := xi.In.(type) {
+		case *ssa.Send:
+			chk(c18XV{xi.Ctx, t.Chan}, c18XV{xi.Ctx, t.X})
+		case *ssa.Select:
+			for _, st := range t.States {
+				if st.Dir == types.SendOnly {
+					chk(c18XV{xi.Ctx, st.Chan}, c18XV{xi.Ctx, st.Send})
+				}
+			}
+		}
+	}
+	r.Check(okSend && nSend > 0, "N-client-page", key+"#sends", p.Pos(fn.Pos()),
+		fmt.Sprintf("%d send(s) on the caller's channel: every value sent derives from the blobRef and size members of a response item", nSend),
+		"a value sent to the caller does not derive from both the blobRef and the size member of a response item")
+	r.Floor("N-client-page", 4)
+}
+
+// ---------------------------------------------------------------------------
+// N-keys
+
+// clientKeys lists the plain keys and the numbered keys (with the first value
+// of their index) a request writes.
+func (rq *c18Request) clientKeys() (plain map[string]bool, numbered map[string]int64) {
+	plain, numbered = map[string]bool{}, map[string]int64{}
+	for _, e := range rq.Emits() {
+		switch {
+		case e.Numbered && e.Index >= 0:
+			if old, ok := numbered[e.Key]; !ok || e.Index < old {
+				numbered[e.Key] = e.Index
+			}
+		case e.Numbered:
+			fv := int64(-999)
+			if e.NumArg.V != nil {
+				if v, ok := rq.X.firstValue(e.NumArg, 0); ok {
+					fv = v
+				}
+			}
+			numbered[e.Key] = fv
+		default:
+			plain[e.Key] = true
+		}
+	}
+	return
+}
+
+func c18Keys(p *Program, r *Reporter) {
+	hs := c18Handlers(p)
+	type want struct {
+		action, what string
+		plain, num   int
+	}
+	reqs := c18Reported(p, func(rq *c18Request) bool {
+		hl := hs[rq.Action]
+		if len(hl) == 0 {
+			return true
+		}
+		sp, sn := hl[0].X.reqKeyReads()
+		cp, cn := rq.clientKeys()
+		for k := range cp {
+			if !sp[k] {
+				return false
+			}
+		}
+		for k, v := range cn {
+			if sv, ok := sn[k]; !ok || sv != v || v == -999 {
+				return false
+			}
+		}
+		return len(rq.Opaque) == 0
+	})
+	for _, w := range []want{{"enumerate-blobs", "enumerate", 3, 0}, {"stat", "stat", 2, 1}, {"remove", "remove", 0, 1}} {
+		h := c18Handler1(p, w.action)
+		sp, sn := h.X.reqKeyReads()
+		maxPlain, maxNum, n := 0, 0, 0
+		firstKey, firstSite := "pkg/client", "?"
+		for _, rq := range reqs {
+			if rq.Action != w.action {
+				continue
+			}
+			ckey := FuncKey(rq.X.Root)
+			site := c18Pos(p, rq.X.TopSite(rq.Call))
+			if n == 0 {
+				firstKey, firstSite = ckey, site
+			}
+			n++
+			cp, cn := rq.clientKeys()
+			if len(cp) > maxPlain {
+				maxPlain = len(cp)
+			}
+			if len(cn) > maxNum {
+				maxNum = len(cn)
+			}
+			var names []string
+			for k := range cp {
+				names = append(names, k)
+			}
+			sort.Strings(names)
+			for _, k := range names {
+				r.Check(sp[k], "N-keys", ckey+"#"+w.what+"-key-"+k, site,
+					"request key '"+k+"' written by the client is read by the handler",
+					"request key '"+k+"' written by the client is not read by the handler (request keys read: "+c18SetString(sp)+")")
+			}
+			names = names[:0]
+			for k := range cn {
+				names = append(names, k)
+			}
+			sort.Strings(names)
+			for _, k := range names {
+				sv, ok := sn[k]
+				r.Check(ok && sv == cn[k] && sv != -999, "N-keys", ckey+"#"+w.what+"-numbered-"+k, site,
+					fmt.Sprintf("numbered key '%sN' starts at %d on both sides", k, sv),
+					fmt.Sprintf("numbered key '%sN': client starts at %d, handler at %d (present=%v): the handler's scan stops at the first missing index, so every blob of the request is ignored or the first one is", k, cn[k], sv, ok))
+			}
+		}
+		if maxPlain < w.plain || maxNum < w.num {
+			r.Violation("N-keys", firstKey+"#"+w.what+"-extract", firstSite, fmt.Sprintf("extracted only %d plain / %d numbered request keys from the %d pkg/client request(s) for /camli/%s (expected at least %d / %d): the request builder changed shape; cannot compare", maxPlain, maxNum, n, w.action, w.plain, w.num))
+		}
+	}
+	// JSON members read by the client vs text written by the enumerate handler
+	hEnum := c18Handler1(p, "enumerate-blobs")
+	var written []string
+	for _, xi := range hEnum.X.Instrs(func(c18XI) bool { return true }) {
+		for _, op := range xi.In.Operands(nil) {
+			if *op == nil {
+				continue
+			}
+			if c, ok := (*op).(*ssa.Const); ok && c.Value != nil && c.Value.Kind() == constant.String {
+				written = append(written, constant.StringVal(c.Value))
+			}
+		}
+	}
+	wr := strings.Join(written, "\x00")
+	cEnum := p.Func("pkg/client", "Client", "EnumerateBlobsOpts")
+	cx := c18Graph(p, cEnum)
+	var enumReq c18XI
+	for _, rq := range cx.requests() {
+		if rq.Action == "enumerate-blobs" {
+			enumReq = rq.Call
+		}
+	}
+	members := map[string]bool{}
+	for _, xi := range cx.Instrs(func(xi c18XI) bool { _, ok := xi.In.(*ssa.Lookup); return ok }) {
+		lk := xi.In.(*ssa.Lookup)
+		mt, isMap := lk.X.Type().Underlying().(*types.Map)
+		if !isMap || !isEmptyInterface(mt.Elem()) {
+			continue
+		}
+		s, ok := cx.ConstString(c18XV{xi.Ctx, lk.Index})
+		if !ok {
+			continue
+		}
+		// only maps decoded from the response to the enumerate request
+		if enumReq.In != nil && !cx.Depends(c18XV{xi.Ctx, lk.X}, func(y c18XV) bool { return y.V == ssa.Value(enumReq.In.(*ssa.Call)) && y.Ctx == enumReq.Ctx }) {
+			continue
+		}
+		members[s] = true
+	}
+	var ms []string
+	for m := range members {
+		ms = append(ms, m)
+	}
+	sort.Strings(ms)
+	for _, m := range ms {
+		r.Check(strings.Contains(wr, `"`+m+`"`), "N-keys", FuncKey(cEnum)+"#enumerate-member-"+m, p.Pos(cEnum.Pos()),
+			"response member \""+m+"\" read by the client is written by the handler",
+			"response member \""+m+"\" read by the client is not written by the enumerate handler")
+	}
+	if len(ms) < 4 {
+		r.Violation("N-keys", FuncKey(cEnum)+"#enumerate-members", p.Pos(cEnum.Pos()), fmt.Sprintf("only %d response members found on the client side (blobs, blobRef, size, continueAfter expected)", len(ms)))
+	}
+	// --- response struct types shared: the handler body allocates (encodes) the
+	// type, and some pkg/client function that creates a request for the action
+	// allocates (decodes into) it
+	usesType := func(x *c18X, n *types.Named) bool {
+		return len(x.Instrs(func(xi c18XI) bool {
+			al, ok := xi.In.(*ssa.Alloc)
+			if !ok {
+				return false
+			}
+			nn := NamedOf(al.Type().(*types.Pointer).Elem())
+			return nn != nil && nn.Obj() == n.Obj()
+		})) > 0
+	}
+	clientUses := func(action string, n *types.Named) (bool, string) {
+		all := c18ClientRequests(p)
+		var roots []*ssa.Function
+		for f := range all {
+			roots = append(roots, f)
+		}
+		sort.Slice(roots, func(i, j int) bool { return FuncKey(roots[i]) < FuncKey(roots[j]) })
+		site := "?"
+		for _, f := range roots {
+			for _, rq := range all[f] {
+				if rq.Action == action {
+					if site == "?" {
+						site = p.Pos(f.Pos())
+					}
+					if usesType(rq.X, n) {
+						return true, p.Pos(f.Pos())
+					}
+				}
+			}
+		}
+		return false, site
+	}
+	statResp := p.NamedType("pkg/blobserver/protocol", "StatResponse")
+	cu, csite := clientUses("stat", statResp)
+	r.Check(usesType(c18Handler1(p, "stat").X, statResp) && cu, "N-keys", "pkg/blobserver/protocol.StatResponse#shared", csite,
+		"the stat handler encodes and the client decodes the same struct type protocol.StatResponse",
+		"the stat handler and the client no longer share protocol.StatResponse: member names can drift apart")
+	remResp := p.NamedType("pkg/blobserver/handlers", "RemoveResponse")
+	cu, csite = clientUses("remove", remResp)
+	r.Check(usesType(c18Handler1(p, "remove").X, remResp) && cu, "N-keys", "pkg/blobserver/handlers.RemoveResponse#shared", csite,
+		"the remove handler encodes and the client decodes the same struct type handlers.RemoveResponse",
+		"the remove handler and the client no longer share handlers.RemoveResponse")
+	r.Floor("N-keys", 13)
+}
+
+func isEmptyInterface(t types.Type) bool {
+	it, ok := t.Underlying().(*types.Interface)
+	return ok && it.NumMethods() == 0
+}
+
+// ---------------------------------------------------------------------------
+// N-compat: the client never builds a request the handler is bound to reject
+//
+// Server side: for every routed handler body (effective body of the
+// constructor's handler literal), the key atoms (both polarities) that occur
+// in its branch conditions are the literals; a consistent set of at most three
+// literals is a rejection conjunction when, with exactly these atoms assumed
+// (everything else unknown), no path from the body's entry reaches its return
+// without passing an error response, and no subset is.
+// Client side: for every request built in pkg/client for the same action, the
+// request text (URL + body) is modelled as fragments with the facts under
+// which each fragment is part of the request; for every atom the values that
+// may satisfy it are traced to their leaves together with the facts guarding
+// each leaf.
+// Obligation: some atom can never hold, or two atoms exclude each other on
+// every pair of leaves by a fact about the very value emitted for the other
+// key - with no phi at or above that value's definition crossed between the
+// fact and the request (the fact holds for the iteration that is formatted).
 
 // c18EvalAtom: truth of the positive atom (key, kind) when conj is assumed.
 func c18EvalAtom(conj []c18Atom, key string, kind int) (known, val bool) {
@@ -1397,61 +4704,24 @@ func c18EvalAtom(conj []c18Atom, key string, kind int) (known, val bool) {
 	return false, false
 }
 
-// c18IsReject: the instruction writes an error response (status >= 400).
-func c18IsReject(in ssa.Instruction) bool {
-	cl, ok := in.(*ssa.Call)
-	if !ok {
-		return false
-	}
-	cs := CallSite{cl.Parent(), cl}
-	if f := cs.Callee(); f != nil && f.Pkg != nil {
-		switch f.Pkg.Pkg.Path() {
-		case "perkeep.org/internal/httputil":
-			if f.Name() == "ReturnJSONCode" {
-				c, ok := ConstInt(cl.Call.Args[1])
-				return ok && c >= 400
-			}
-			return strings.HasSuffix(f.Name(), "Error") || f.Name() == "ErrorRouting"
-		case "net/http":
-			if f.Name() == "Error" || f.Name() == "NotFound" {
-				return true
-			}
-		}
-	}
-	if cs.MethodName() == "WriteHeader" {
-		args := cs.Args()
-		if len(args) == 2 {
-			c, ok := ConstInt(args[1])
-			return ok && c >= 400
-		}
-	}
-	return false
-}
-
 type c18Rejection struct {
-	Fn    *ssa.Function
-	Sites []ssa.Instruction // the error responses a request satisfying Atoms ends in
+	H     *c18Handler
+	Sites []c18XI // the error responses a request satisfying Atoms ends in
 	Atoms []c18Atom
 }
 
-// c18Rejections extracts the minimal key-only rejection conjunctions of
-// handler fn: the literals are the key atoms (both polarities) that occur in
-// fn's branch conditions; a consistent set of at most three literals is a
-// rejection conjunction when it is bound to be rejected (c18BoundToReject) and
-// no subset is. The definition does not depend on how the handler spells the
-// condition (nested ifs, &&, ||, switch).
-func c18Rejections(fn *ssa.Function) (out []c18Rejection, sites, literals int) {
+func c18Rejections(h *c18Handler) (out []c18Rejection, sites, literals int) {
+	x := h.X
 	litSet := map[c18Atom]bool{}
-	for _, b := range fn.Blocks {
-		for _, in := range b.Instrs {
-			if c18IsReject(in) {
-				sites++
-			}
-			if ifi, ok := in.(*ssa.If); ok {
-				if a, ok := c18ServerAtom(ifi.Cond, true); ok {
-					litSet[a] = true
-					litSet[c18Atom{a.Key, a.Kind, !a.Pos}] = true
-				}
+	sites = len(c18UniqInstr(x.Instrs(func(xi c18XI) bool { return xi.Ctx.within(h.Req) && x.isReject(xi.Ctx, xi.In) })))
+	for _, n := range x.Nodes {
+		if !n.Ctx.within(h.Req) {
+			continue
+		}
+		if ifi := n.ifInstr(); ifi != nil {
+			if a, ok := x.serverAtom(n, ifi.Cond, true); ok {
+				litSet[a] = true
+				litSet[c18Atom{a.Key, a.Kind, !a.Pos}] = true
 			}
 		}
 	}
@@ -1504,10 +4774,10 @@ func c18Rejections(fn *ssa.Function) (out []c18Rejection, sites, literals int) {
 		if !consistent(set) || hasSubset(set) {
 			return
 		}
-		if ok, at := c18BoundToReject(fn, set); ok && len(at) > 0 {
+		if ok, at := c18BoundToReject(h, set); ok && len(at) > 0 {
 			cp := append([]c18Atom(nil), set...)
 			found = append(found, cp)
-			out = append(out, c18Rejection{fn, at, cp})
+			out = append(out, c18Rejection{h, at, cp})
 		}
 	}
 	for i := range lits {
@@ -1529,518 +4799,68 @@ func c18Rejections(fn *ssa.Function) (out []c18Rejection, sites, literals int) {
 }
 
 // c18BoundToReject: with conj assumed and every other condition unknown, no
-// path from entry reaches a return before an error response. Returns the error
-// responses such paths end in.
-func c18BoundToReject(fn *ssa.Function, conj []c18Atom) (bool, []ssa.Instruction) {
-	seen := map[*ssa.BasicBlock]bool{}
-	var at []ssa.Instruction
-	var walk func(b *ssa.BasicBlock) bool
-	walk = func(b *ssa.BasicBlock) bool {
-		if seen[b] {
+// path from the handler body's entry reaches its return before an error
+// response (calls into the effective body are followed, forks are not).
+// Returns the error responses such paths end in.
+func c18BoundToReject(h *c18Handler, conj []c18Atom) (bool, []c18XI) {
+	x := h.X
+	entry := h.entry()
+	if entry == nil {
+		return false, nil
+	}
+	var at []c18XI
+	seenAt := map[c18XI]bool{}
+	stop := func(n *c18XB, in ssa.Instruction) bool {
+		if x.isReject(n.Ctx, in) {
+			xi := c18XI{n.Ctx, in}
+			if !seenAt[xi] {
+				seenAt[xi] = true
+				at = append(at, xi)
+			}
 			return true
 		}
-		seen[b] = true
-		for _, in := range b.Instrs {
-			if c18IsReject(in) {
-				at = append(at, in)
-				return true
-			}
-			switch x := in.(type) {
-			case *ssa.Return:
-				return false
-			case *ssa.If:
-				if a, ok := c18ServerAtom(x.Cond, true); ok {
-					if k, v := c18EvalAtom(conj, a.Key, a.Kind); k {
-						if v == a.Pos {
-							return walk(b.Succs[0])
-						}
-						return walk(b.Succs[1])
-					}
-				}
-			}
-		}
-		for _, s := range b.Succs {
-			if !walk(s) {
-				return false
-			}
-		}
-		return true
+		return false
 	}
-	if len(fn.Blocks) == 0 || !walk(fn.Blocks[0]) {
+	assume := func(n *c18XB, cond ssa.Value) (bool, bool) {
+		if a, ok := x.serverAtom(n, cond, true); ok {
+			if k, v := c18EvalAtom(conj, a.Key, a.Kind); k {
+				return true, v == a.Pos
+			}
+		}
+		return false, false
+	}
+	if leaks := x.Leaks([]*c18XB{entry}, nil, stop, assume, h.Req); len(leaks) > 0 {
 		return false, nil
 	}
 	// name the responses that are guarded by one of conj's keys (the others are
 	// rejections for unrelated reasons met on the way)
-	var own []ssa.Instruction
-	for _, in := range at {
-		for _, f := range FactsAt(in.Block()) {
-			if a, ok := c18ServerAtom(f.Cond, f.Val); ok {
+	var own []c18XI
+	for _, xi := range at {
+		mine := false
+		for _, f := range x.FactsOf(xi) {
+			if a, ok := x.serverAtom(f.At, f.Cond, f.Val); ok {
 				for _, c := range conj {
 					if c.Key == a.Key {
-						own = append(own, in)
+						mine = true
 					}
 				}
 			}
+		}
+		if mine {
+			own = append(own, xi)
 		}
 	}
 	if len(own) > 0 {
-		at = own[:1]
-		for _, in := range own[1:] {
-			if in != at[len(at)-1] {
-				at = append(at, in)
-			}
-		}
+		at = own
 	}
-	sort.Slice(at, func(i, j int) bool { return at[i].Pos() < at[j].Pos() })
+	sort.Slice(at, func(i, j int) bool { return at[i].In.Pos() < at[j].In.Pos() })
 	return true, at
 }
 
-// c18Routes reads the action -> handler implementation table out of
-// serverinit.camliHandlerUsingStorage: on the true edge of `action == "<const>"`
-// a pkg/blobserver/handlers constructor is called; the implementations are the
-// functions with a *http.Request parameter in that constructor's literals and
-// their static callees in pkg/blobserver/{handlers,gethandler}.
-func c18Routes(p *Program) map[string][]*ssa.Function {
-	router := p.Func("pkg/serverinit", "", "camliHandlerUsingStorage")
-	var action *ssa.Parameter
-	for _, pa := range router.Params {
-		if bt, ok := pa.Type().Underlying().(*types.Basic); ok && bt.Info()&types.IsString != 0 {
-			action = pa
-		}
-	}
-	if action == nil {
-		brokenf("anchor unresolved: string parameter (action) of %s", FuncKey(router))
-	}
-	hasReq := func(f *ssa.Function) bool {
-		for _, pa := range f.Params {
-			if pt, ok := pa.Type().(*types.Pointer); ok && IsNamed(pt.Elem(), "net/http", "Request") {
-				return true
-			}
-		}
-		return false
-	}
-	inHandlers := func(f *ssa.Function) bool {
-		if f == nil || !InModule(f) {
-			return false
-		}
-		rel := RelPkg(f.Pkg.Pkg)
-		return rel == "pkg/blobserver/handlers" || rel == "pkg/blobserver/gethandler"
-	}
-	impls := func(ctor *ssa.Function) []*ssa.Function {
-		var out []*ssa.Function
-		seen := map[*ssa.Function]bool{}
-		var visit func(f *ssa.Function, depth int)
-		visit = func(f *ssa.Function, depth int) {
-			if f == nil || seen[f] || depth > 3 {
-				return
-			}
-			seen[f] = true
-			if hasReq(f) {
-				out = append(out, f)
-			}
-			for _, a := range f.AnonFuncs {
-				visit(a, depth)
-			}
-			for _, c := range CallsIn(f, false) {
-				if g := c.Callee(); inHandlers(g) && g.Parent() == nil {
-					visit(g, depth+1)
-				}
-			}
-		}
-		visit(ctor, 0)
-		return out
-	}
-	routes := map[string][]*ssa.Function{}
-	for _, b := range router.Blocks {
-		ifi, ok := b.Instrs[len(b.Instrs)-1].(*ssa.If)
-		if !ok {
-			continue
-		}
-		bo, ok := ifi.Cond.(*ssa.BinOp)
-		if !ok || bo.Op != token.EQL {
-			continue
-		}
-		var s string
-		if bo.X == ssa.Value(action) {
-			s, ok = ConstString(bo.Y)
-		} else if bo.Y == ssa.Value(action) {
-			s, ok = ConstString(bo.X)
-		} else {
-			ok = false
-		}
-		if !ok {
-			continue
-		}
-		t := b.Succs[0]
-		for _, bb := range router.Blocks {
-			if bb != t && !(t.Dominates(bb) && len(t.Preds) == 1) {
-				continue
-			}
-			for _, in := range bb.Instrs {
-				cl, ok := in.(*ssa.Call)
-				if !ok {
-					continue
-				}
-				if g := (CallSite{router, cl}).Callee(); inHandlers(g) {
-					for _, h := range impls(g) {
-						dup := false
-						for _, o := range routes[s] {
-							dup = dup || o == h
-						}
-						if !dup {
-							routes[s] = append(routes[s], h)
-						}
-					}
-				}
-			}
-		}
-	}
-	return routes
-}
-
-// --- client side: request text model
-
-type c18GFact struct {
-	CondFact
-	N int // number of value-phis crossed (from the emission outward) when the fact was collected
-}
-
-type c18Frag struct {
-	At      ssa.Instruction // formatting point
-	Text    string
-	Literal bool // Text is literal text, not a format string
-	Args    []ssa.Value
-	Guards  []CondFact        // facts under which the fragment is part of the request (phi edges)
-	Phis    []*ssa.BasicBlock // phis crossed between the fragment and the request
-	Uncond  bool              // part of every request created at the call
-	Buf     *ssa.Alloc        // buffer written to (nil for expression fragments)
-}
-
-type c18Request struct {
-	Fn     *ssa.Function
-	Call   CallSite
-	Action string
-	Frags  []*c18Frag
-	Opaque []string
-}
-
-var c18ActionRE = regexp.MustCompile(`(?:^|/)camli/([a-z][a-z-]*)(?:$|\?)`)
-
-func c18EdgeFacts(pred, blk *ssa.BasicBlock) []CondFact {
-	out := append([]CondFact(nil), FactsAt(pred)...)
-	if ifi, ok := pred.Instrs[len(pred.Instrs)-1].(*ssa.If); ok && len(pred.Succs) == 2 && pred.Succs[0] != pred.Succs[1] {
-		out = append(out, CondFact{ifi.Cond, pred.Succs[0] == blk, pred})
-	}
-	return out
-}
-
-// c18Requests models every HTTP request created in fn for a /camli/<action> URL.
-func c18Requests(fn *ssa.Function) []*c18Request {
-	var out []*c18Request
-	for _, c := range CallsIn(fn, false) {
-		if c.Value() == nil {
-			continue
-		}
-		var urlArg ssa.Value
-		var bodyArgs []ssa.Value
-		args := c.Args()
-		switch {
-		case c.IsStatic("perkeep.org/pkg/client", "Client", "newRequest") && len(args) >= 5:
-			urlArg, bodyArgs = args[3], args[4:]
-		case c.IsStatic("net/http", "", "NewRequest") && len(args) == 3:
-			urlArg, bodyArgs = args[1], args[2:]
-		case c.IsStatic("net/http", "", "NewRequestWithContext") && len(args) == 4:
-			urlArg, bodyArgs = args[2], args[3:]
-		default:
-			continue
-		}
-		action := ""
-		DependsOn(urlArg, func(x ssa.Value) bool {
-			if s, ok := ConstString(x); ok {
-				if m := c18ActionRE.FindStringSubmatch(s); m != nil {
-					action = m[1]
-					return true
-				}
-			}
-			return false
-		})
-		if action == "" {
-			continue
-		}
-		rq := &c18Request{Fn: fn, Call: c, Action: action}
-		rq.walkText(urlArg, nil, nil, true, map[ssa.Value]bool{}, 0)
-		for _, b := range bodyArgs {
-			rq.walkText(b, nil, nil, true, map[ssa.Value]bool{}, 0)
-		}
-		out = append(out, rq)
-	}
-	return out
-}
-
-func (rq *c18Request) opaque(v ssa.Value) {
-	rq.Opaque = append(rq.Opaque, v.Name()+" ("+v.Type().String()+")")
-}
-
-func (rq *c18Request) walkText(v ssa.Value, guards []CondFact, phis []*ssa.BasicBlock, uncond bool, seen map[ssa.Value]bool, depth int) {
-	if v == nil || depth > 24 {
-		return
-	}
-	add := func(f *c18Frag) {
-		f.Guards = append([]CondFact(nil), guards...)
-		f.Phis = append([]*ssa.BasicBlock(nil), phis...)
-		rq.Frags = append(rq.Frags, f)
-	}
-	switch x := v.(type) {
-	case *ssa.Const:
-		if x.Value != nil && x.Value.Kind() == constant.String {
-			add(&c18Frag{At: rq.Call.Instr, Text: constant.StringVal(x.Value), Literal: true, Uncond: uncond})
-		}
-	case *ssa.MakeInterface:
-		rq.walkText(x.X, guards, phis, uncond, seen, depth+1)
-	case *ssa.ChangeType:
-		rq.walkText(x.X, guards, phis, uncond, seen, depth+1)
-	case *ssa.ChangeInterface:
-		rq.walkText(x.X, guards, phis, uncond, seen, depth+1)
-	case *ssa.Convert:
-		rq.walkText(x.X, guards, phis, uncond, seen, depth+1)
-	case *ssa.BinOp:
-		if x.Op != token.ADD {
-			rq.opaque(v)
-			return
-		}
-		n := len(rq.Frags)
-		rq.walkText(x.X, guards, phis, uncond, seen, depth+1)
-		if c18Texty(x.Y) {
-			rq.walkText(x.Y, guards, phis, uncond, seen, depth+1)
-		} else if len(rq.Frags) > n && strings.HasSuffix(rq.Frags[len(rq.Frags)-1].Text, "=") {
-			// "...key=" + value: the value of the last key of the preceding text
-			last := rq.Frags[len(rq.Frags)-1]
-			if last.Literal {
-				last.Literal = false
-				last.Text = strings.ReplaceAll(last.Text, "%", "%%")
-			}
-			last.Text += "%s"
-			last.Args = append(last.Args, x.Y)
-		} else {
-			rq.opaque(x.Y)
-		}
-	case *ssa.Phi:
-		if seen[v] {
-			return
-		}
-		seen[v] = true
-		for i, e := range x.Edges {
-			g := append(append([]CondFact(nil), guards...), c18EdgeFacts(x.Block().Preds[i], x.Block())...)
-			rq.walkText(e, g, append(append([]*ssa.BasicBlock(nil), phis...), x.Block()), false, seen, depth+1)
-		}
-		delete(seen, v)
-	case *ssa.Slice:
-		for _, e := range c18VarargElems(x) {
-			rq.walkText(e, guards, phis, uncond, seen, depth+1)
-		}
-	case *ssa.UnOp:
-		if x.Op == token.MUL {
-			if o := originValue(x); o != ssa.Value(x) {
-				rq.walkText(o, guards, phis, uncond, seen, depth+1)
-				return
-			}
-		}
-		rq.opaque(v)
-	case *ssa.Alloc:
-		if pt, ok := x.Type().(*types.Pointer); ok && (IsNamed(pt.Elem(), "bytes", "Buffer") || IsNamed(pt.Elem(), "strings", "Builder")) {
-			rq.bufferWrites(x, guards, phis, uncond)
-			return
-		}
-		rq.opaque(v)
-	case *ssa.Call:
-		cs := CallSite{x.Parent(), x}
-		switch {
-		case cs.IsStatic("fmt", "", "Sprintf"):
-			if f, ok := ConstString(x.Call.Args[0]); ok {
-				add(&c18Frag{At: x, Text: f, Args: c18VarargElems(x.Call.Args[1]), Uncond: uncond})
-				return
-			}
-			rq.opaque(v)
-		case cs.IsStatic("strings", "", "NewReader"), cs.IsStatic("bytes", "", "NewReader"), cs.IsStatic("bytes", "", "NewBufferString"), cs.IsStatic("bytes", "", "NewBuffer"),
-			cs.IsStatic("bytes", "Buffer", "String"), cs.IsStatic("strings", "Builder", "String"), cs.IsStatic("bytes", "Buffer", "Bytes"):
-			rq.walkText(x.Call.Args[0], guards, phis, uncond, seen, depth+1)
-		case cs.IsStatic("net/url", "Values", "Encode"):
-			rq.valuesWrites(x.Call.Args[0], guards, phis, uncond)
-		default:
-			rq.opaque(v)
-		}
-	default:
-		rq.opaque(v)
-	}
-}
-
-// c18Texty: v is a shape walkText models as request text (rather than as the
-// value following a trailing "key=").
-func c18Texty(v ssa.Value) bool {
-	switch x := v.(type) {
-	case *ssa.Const:
-		return true
-	case *ssa.BinOp:
-		return x.Op == token.ADD
-	case *ssa.Phi:
-		for _, e := range x.Edges {
-			if c18Texty(e) {
-				return true
-			}
-		}
-	case *ssa.Call:
-		cs := CallSite{x.Parent(), x}
-		return cs.IsStatic("fmt", "", "Sprintf") || cs.IsStatic("net/url", "Values", "Encode")
-	}
-	return false
-}
-
-func (rq *c18Request) bufferWrites(buf *ssa.Alloc, guards []CondFact, phis []*ssa.BasicBlock, uncond bool) {
-	isBuf := func(v ssa.Value) bool {
-		for i := 0; i < 4; i++ {
-			switch x := v.(type) {
-			case *ssa.MakeInterface:
-				v = x.X
-				continue
-			case *ssa.ChangeInterface:
-				v = x.X
-				continue
-			}
-			break
-		}
-		return v == ssa.Value(buf)
-	}
-	n := 0
-	for _, c := range CallsIn(rq.Fn, false) {
-		cl := c.Value()
-		if cl == nil {
-			continue
-		}
-		args := c.Args()
-		var f *c18Frag
-		switch {
-		case c.IsStatic("fmt", "", "Fprintf") && len(args) == 3 && isBuf(args[0]):
-			if s, ok := ConstString(args[1]); ok {
-				f = &c18Frag{At: cl, Text: s, Args: c18VarargElems(args[2])}
-			}
-		case (c.IsStatic("bytes", "Buffer", "WriteString") || c.IsStatic("strings", "Builder", "WriteString") || c.IsStatic("io", "", "WriteString")) && len(args) == 2 && isBuf(args[0]):
-			if s, ok := ConstString(args[1]); ok {
-				f = &c18Frag{At: cl, Text: s, Literal: true}
-			} else if sp, ok := originValue(args[1]).(*ssa.Call); ok && (CallSite{rq.Fn, sp}).IsStatic("fmt", "", "Sprintf") {
-				if s, ok := ConstString(sp.Call.Args[0]); ok {
-					f = &c18Frag{At: cl, Text: s, Args: c18VarargElems(sp.Call.Args[1])}
-				}
-			}
-		default:
-			continue
-		}
-		if f == nil {
-			rq.Opaque = append(rq.Opaque, "write to "+buf.Name()+" with non-constant text")
-			continue
-		}
-		f.Buf = buf
-		f.Uncond = uncond && Precedes(cl, rq.Call.Instr)
-		f.Guards = append([]CondFact(nil), guards...)
-		f.Phis = append([]*ssa.BasicBlock(nil), phis...)
-		rq.Frags = append(rq.Frags, f)
-		n++
-	}
-	if n == 0 {
-		rq.Opaque = append(rq.Opaque, "buffer "+buf.Name()+" without modelled writes")
-	}
-}
-
-func (rq *c18Request) valuesWrites(m ssa.Value, guards []CondFact, phis []*ssa.BasicBlock, uncond bool) {
-	mo := originValue(m)
-	if _, ok := mo.(*ssa.MakeMap); !ok {
-		rq.opaque(m)
-		return
-	}
-	for _, c := range CallsIn(rq.Fn, false) {
-		cl := c.Value()
-		if cl == nil || !(c.IsStatic("net/url", "Values", "Add") || c.IsStatic("net/url", "Values", "Set")) {
-			continue
-		}
-		args := c.Args()
-		if len(args) != 3 || originValue(args[0]) != mo {
-			continue
-		}
-		f := &c18Frag{At: cl, Uncond: uncond && Precedes(cl, rq.Call.Instr)}
-		if s, ok := ConstString(args[1]); ok {
-			f.Text, f.Args = strings.ReplaceAll(s, "%", "%%")+"=%s", []ssa.Value{args[2]}
-		} else if sp, ok := originValue(args[1]).(*ssa.Call); ok && (CallSite{rq.Fn, sp}).IsStatic("fmt", "", "Sprintf") {
-			s, ok := ConstString(sp.Call.Args[0])
-			if !ok {
-				rq.opaque(args[1])
-				continue
-			}
-			f.Text, f.Args = s+"=%s", append(c18VarargElems(sp.Call.Args[1]), args[2])
-		} else {
-			rq.opaque(args[1])
-			continue
-		}
-		f.Guards = append([]CondFact(nil), guards...)
-		f.Phis = append([]*ssa.BasicBlock(nil), phis...)
-		rq.Frags = append(rq.Frags, f)
-	}
-}
-
-type c18Emit struct {
-	Key      string
-	Numbered bool
-	Frag     *c18Frag
-	IsConst  bool
-	ConstVal string
-	Val      ssa.Value // nil: unknown value
-}
-
-var c18EmitRE = regexp.MustCompile(`(?:^|[?&])([A-Za-z]+[0-9]*)(%[dv])?=([^&]*)`)
-var c18VerbRE = regexp.MustCompile(`%[a-zA-Z]`)
-
-// Emits lists the key=value emissions of the request.
-func (rq *c18Request) Emits() []*c18Emit {
-	var out []*c18Emit
-	for _, f := range rq.Frags {
-		text := f.Text
-		if !f.Literal {
-			text = strings.ReplaceAll(text, "%%", "\x00\x00")
-		}
-		q := text
-		off := 0
-		if i := strings.Index(q, "?"); i >= 0 {
-			q, off = q[i:], i
-		}
-		for _, m := range c18EmitRE.FindAllStringSubmatchIndex(q, -1) {
-			e := &c18Emit{Key: q[m[2]:m[3]], Numbered: m[4] >= 0, Frag: f}
-			vt := q[m[6]:m[7]]
-			switch {
-			case f.Literal:
-				if m[7] == len(q) && vt == "" {
-					// the literal ends with "key=": the value is whatever follows, not modelled
-				} else {
-					e.IsConst, e.ConstVal = true, vt
-				}
-			case !strings.Contains(vt, "%"):
-				e.IsConst, e.ConstVal = true, strings.ReplaceAll(vt, "\x00\x00", "%")
-			case c18VerbRE.MatchString(vt) && len(vt) == 2:
-				idx := 0
-				for _, vb := range c18VerbRE.FindAllStringIndex(text, -1) {
-					if vb[0] < off+m[6] {
-						idx++
-					}
-				}
-				if idx < len(f.Args) {
-					e.Val = f.Args[idx]
-				}
-			}
-			out = append(out, e)
-		}
-	}
-	return out
-}
+// --- client side: leaves
 
 type c18ChainVal struct {
-	V ssa.Value
+	V c18XV
 	N int // value-phis crossed before reaching V
 }
 
@@ -2048,8 +4868,8 @@ type c18Leaf struct {
 	Atom   c18Atom
 	Emit   *c18Emit
 	Guards []c18GFact
-	Phis   []*ssa.BasicBlock // value-phis crossed, outward from the emission
-	Chain  []c18ChainVal     // values that satisfy the atom iff the leaf does
+	Phis   []c18XI       // value-phis crossed, outward from the emission
+	Chain  []c18ChainVal // values that satisfy the atom iff the leaf does
 	What   string
 	Mem    bool // the leaf is a memory load the analysis cannot follow
 }
@@ -2065,8 +4885,7 @@ func c18ConstSatisfies(c *ssa.Const, kind int) bool {
 	}
 	switch c.Value.Kind() {
 	case constant.String:
-		s := constant.StringVal(c.Value)
-		return c18TextSatisfies(s, kind)
+		return c18TextSatisfies(constant.StringVal(c.Value), kind)
 	case constant.Int:
 		if kind == c18NonEmpty {
 			return true
@@ -2109,16 +4928,16 @@ func c18EmptinessPreserving(cl *ssa.Call) bool {
 	return cs.IsStatic("net/url", "", "QueryEscape") || cs.IsStatic("net/url", "", "PathEscape")
 }
 
-// c18Leaves: the ways emission e may satisfy the positive atom of kind `kind`.
-func c18Leaves(p *Program, e *c18Emit, atom c18Atom) []*c18Leaf {
+// c18Leaves: the ways emission e may satisfy the positive atom.
+func c18Leaves(p *Program, x *c18X, e *c18Emit, atom c18Atom) []*c18Leaf {
 	var base []c18GFact
-	for _, f := range FactsAt(e.Frag.At.Block()) {
+	for _, f := range x.FactsOf(e.Frag.At) {
 		base = append(base, c18GFact{f, 0})
 	}
 	for _, f := range e.Frag.Guards {
 		base = append(base, c18GFact{f, 0})
 	}
-	mk := func(g []c18GFact, phis []*ssa.BasicBlock, chain []c18ChainVal, what string) *c18Leaf {
+	mk := func(g []c18GFact, phis []c18XI, chain []c18ChainVal, what string) *c18Leaf {
 		return &c18Leaf{Atom: atom, Emit: e, Guards: g, Phis: phis, Chain: chain, What: what}
 	}
 	if e.IsConst {
@@ -2127,35 +4946,27 @@ func c18Leaves(p *Program, e *c18Emit, atom c18Atom) []*c18Leaf {
 		}
 		return nil
 	}
-	if e.Val == nil {
+	if e.Val.V == nil {
 		return []*c18Leaf{mk(base, nil, nil, "a value the model does not follow")}
 	}
 	var out []*c18Leaf
-	seen := map[ssa.Value]bool{}
-	var walk func(v ssa.Value, g []c18GFact, phis []*ssa.BasicBlock, chain []c18ChainVal, depth int)
-	walk = func(v ssa.Value, g []c18GFact, phis []*ssa.BasicBlock, chain []c18ChainVal, depth int) {
-		for {
-			if mi, ok := v.(*ssa.MakeInterface); ok {
-				v = mi.X
-			} else if ct, ok := v.(*ssa.ChangeType); ok {
-				v = ct.X
-			} else {
-				break
-			}
-		}
+	seen := map[c18XV]bool{}
+	var walk func(v c18XV, g []c18GFact, phis []c18XI, chain []c18ChainVal, depth int)
+	walk = func(v c18XV, g []c18GFact, phis []c18XI, chain []c18ChainVal, depth int) {
+		v = x.Canon(v)
 		describe := func() string {
-			if in, ok := v.(ssa.Instruction); ok && in.Pos().IsValid() {
+			if in, ok := v.V.(ssa.Instruction); ok && in.Pos().IsValid() {
 				return fmt.Sprintf("the value computed at line %d", p.Fset.Position(in.Pos()).Line)
 			}
-			return "the value " + v.Name()
+			return "the value " + v.V.Name()
 		}
-		if c, ok := v.(*ssa.Const); ok {
+		if c, ok := v.V.(*ssa.Const); ok {
 			if c18ConstSatisfies(c, atom.Kind) {
 				out = append(out, mk(g, phis, nil, "the constant "+c.Name()))
 			}
 			return
 		}
-		if atom.Kind == c18NonEmpty && c18IsNumeric(v.Type()) {
+		if atom.Kind == c18NonEmpty && c18IsNumeric(v.V.Type()) {
 			out = append(out, mk(g, phis, nil, "a formatted number (never empty)"))
 			return
 		}
@@ -2164,46 +4975,78 @@ func c18Leaves(p *Program, e *c18Emit, atom c18Atom) []*c18Leaf {
 			out = append(out, mk(g, phis, chain, describe()))
 			return
 		}
-		switch x := v.(type) {
+		// results of an inlined helper that returns on several paths: like a phi at the call
+		multi := func(call *ssa.Call, idx int) bool {
+			child := x.child[c18XI{v.Ctx, call}]
+			if child == nil || child.Kind != c18KCall {
+				return false
+			}
+			rns := x.returnNodes(child)
+			if len(rns) == 0 {
+				return false
+			}
+			if seen[v] {
+				return true
+			}
+			seen[v] = true
+			for _, rn := range rns {
+				rt := rn.last().(*ssa.Return)
+				if idx >= len(rt.Results) {
+					continue
+				}
+				np := append(append([]c18XI(nil), phis...), c18XI{v.Ctx, call})
+				ng := append([]c18GFact(nil), g...)
+				for _, f := range x.FactsAt(rn) {
+					ng = append(ng, c18GFact{f, len(np)})
+				}
+				walk(x.resolveRaw(rn, c18RetVal(rt.Results[idx], rt)), ng, np, chain, depth+1)
+			}
+			delete(seen, v)
+			return true
+		}
+		switch t := v.V.(type) {
 		case *ssa.Phi:
 			if seen[v] {
 				return
 			}
 			seen[v] = true // on the current path only: cuts cycles, keeps every acyclic way into the phi
-			for i, ed := range x.Edges {
-				np := append(append([]*ssa.BasicBlock(nil), phis...), x.Block())
+			for _, ed := range x.PhiEdges(v) {
+				np := append(append([]c18XI(nil), phis...), c18XI{v.Ctx, t})
 				ng := append([]c18GFact(nil), g...)
-				for _, f := range c18EdgeFacts(x.Block().Preds[i], x.Block()) {
+				for _, f := range ed.Facts {
 					ng = append(ng, c18GFact{f, len(np)})
 				}
-				walk(ed, ng, np, chain, depth+1)
+				walk(ed.Val, ng, np, chain, depth+1)
 			}
 			delete(seen, v)
 			return
 		case *ssa.Convert:
 			if atom.Kind != c18NonEmpty {
-				sb, ok1 := x.X.Type().Underlying().(*types.Basic)
-				db, ok2 := x.Type().Underlying().(*types.Basic)
+				sb, ok1 := t.X.Type().Underlying().(*types.Basic)
+				db, ok2 := t.Type().Underlying().(*types.Basic)
 				if ok1 && ok2 && sb.Info()&types.IsInteger != 0 && db.Info()&types.IsInteger != 0 {
-					walk(x.X, g, phis, chain, depth+1)
+					walk(c18XV{v.Ctx, t.X}, g, phis, chain, depth+1)
 					return
 				}
 			}
 		case *ssa.Call:
-			if atom.Kind == c18NonEmpty && c18EmptinessPreserving(x) {
-				walk(x.Call.Args[0], g, phis, chain, depth+1)
+			if atom.Kind == c18NonEmpty && c18EmptinessPreserving(t) {
+				walk(c18XV{v.Ctx, t.Call.Args[0]}, g, phis, chain, depth+1)
+				return
+			}
+			if t.Call.Signature().Results().Len() == 1 && multi(t, 0) {
+				return
+			}
+		case *ssa.Extract:
+			if c, ok := t.Tuple.(*ssa.Call); ok && multi(c, t.Index) {
 				return
 			}
 		case *ssa.UnOp:
-			if x.Op == token.MUL {
-				if o := originValue(x); o != ssa.Value(x) {
-					walk(o, g, phis, chain, depth+1)
-					return
-				}
+			if t.Op == token.MUL {
 				l := mk(g, phis, chain, describe())
 				// a load of a plain variable cell with several stores (captured
 				// variable): facts about one load say nothing about another
-				_, l.Mem = varOf(x.X)
+				_, l.Mem = varOf(t.X)
 				out = append(out, l)
 				return
 			}
@@ -2215,105 +5058,121 @@ func c18Leaves(p *Program, e *c18Emit, atom c18Atom) []*c18Leaf {
 }
 
 // c18Definitely: emission e satisfies kind in every request it is part of.
-func c18Definitely(e *c18Emit, kind int) bool {
+func c18Definitely(x *c18X, e *c18Emit, kind int) bool {
 	if e.IsConst {
 		return c18TextSatisfies(e.ConstVal, kind)
 	}
-	if e.Val == nil {
+	if e.Val.V == nil {
 		return false
 	}
-	seen := map[ssa.Value]bool{}
-	var def func(v ssa.Value, depth int) bool
-	def = func(v ssa.Value, depth int) bool {
+	seen := map[c18XV]bool{}
+	var def func(v c18XV, depth int) bool
+	def = func(v c18XV, depth int) bool {
 		if depth > 16 {
 			return false
 		}
-		switch x := v.(type) {
-		case *ssa.MakeInterface:
-			return def(x.X, depth+1)
-		case *ssa.ChangeType:
-			return def(x.X, depth+1)
+		v = x.Canon(v)
+		switch t := v.V.(type) {
 		case *ssa.Const:
-			return c18ConstSatisfies(x, kind)
+			return c18ConstSatisfies(t, kind)
 		case *ssa.Phi:
 			if seen[v] {
 				return true
 			}
 			seen[v] = true
-			for _, ed := range x.Edges {
-				if !def(ed, depth+1) {
+			for _, ed := range t.Edges {
+				if !def(c18XV{v.Ctx, ed}, depth+1) {
 					return false
 				}
 			}
 			return true
 		case *ssa.Call:
-			if kind == c18NonEmpty && c18EmptinessPreserving(x) {
-				return def(x.Call.Args[0], depth+1)
+			if kind == c18NonEmpty && c18EmptinessPreserving(t) {
+				return def(c18XV{v.Ctx, t.Call.Args[0]}, depth+1)
 			}
 		}
-		return kind == c18NonEmpty && c18IsNumeric(v.Type())
+		return kind == c18NonEmpty && c18IsNumeric(v.V.Type())
 	}
 	return def(e.Val, 0)
 }
 
-// c18FactDenies: fact f says that value x does not satisfy kind.
-func c18FactDenies(f CondFact, x ssa.Value, kind int) bool {
-	v, k, pos, _, ok := c18CmpZero(f.Cond, f.Val)
+// c18FactDenies: fact f says that value v does not satisfy kind.
+func c18FactDenies(x *c18X, f c18Fact, v c18XV, kind int) bool {
+	fv, k, pos, _, ok := x.cmpZero(f.At, f.Cond, f.Val)
 	if !ok || pos {
 		return false
 	}
-	for {
-		if ct, isCT := v.(*ssa.ChangeType); isCT {
-			v = ct.X
-			continue
-		}
-		break
-	}
-	if v != x {
+	if !c18SameXV(fv, v) {
 		return false
 	}
 	// ¬k(x) denies kind when kind implies k
 	return kind >= k
 }
 
-// c18SameIncarnation: a fact about (or the identity of) value x, established
+// c18SameIncarnation: a fact about (or the identity of) value v, established
 // before crossing the given phis on the way to the request, still speaks about
-// the x that is current when the request is created: every crossed phi lies
-// strictly below x's defining block, and so does the request.
-func c18SameIncarnation(x ssa.Value, req ssa.Instruction, bufs []*ssa.Alloc, phiSets ...[]*ssa.BasicBlock) bool {
-	in, ok := x.(ssa.Instruction)
+// the v that is current when the request is created: v's definition executes
+// before every crossed phi (strictly: not in the phi's own block) and before
+// the request.
+func c18SameIncarnation(x *c18X, v c18XV, req c18XI, bufs []c18XV, phiSets ...[]c18XI) bool {
+	in, ok := v.V.(ssa.Instruction)
 	if !ok {
 		return true // parameters, free variables, constants: one incarnation per call
 	}
-	d := in.Block()
-	if d == nil || in.Parent() != req.Parent() {
+	def := c18XI{v.Ctx, in}
+	if len(x.nodesOf[def]) == 0 {
 		return false
 	}
 	for _, ps := range phiSets {
-		for _, b := range ps {
-			if b == d || !d.Dominates(b) {
+		for _, ph := range ps {
+			if _, isPhi := ph.In.(*ssa.Phi); isPhi {
+				for _, dn := range x.nodesOf[def] {
+					for _, pn := range x.nodesOf[ph] {
+						if dn == pn || (dn.Ctx == pn.Ctx && dn.B == pn.B) {
+							return false
+						}
+					}
+				}
+			}
+			if !x.Precedes(def, ph) {
 				return false
 			}
 		}
 	}
 	for _, b := range bufs {
-		if b != nil && b.Block() != d && !d.Dominates(b.Block()) {
+		if b.V == nil {
+			continue
+		}
+		bi, ok := b.V.(ssa.Instruction)
+		if !ok {
+			continue
+		}
+		bx := c18XI{b.Ctx, bi}
+		same := false
+		for _, dn := range x.nodesOf[def] {
+			for _, bn := range x.nodesOf[bx] {
+				if dn.Ctx == bn.Ctx && dn.B == bn.B {
+					same = true
+				}
+			}
+		}
+		if !same && !x.Precedes(def, bx) {
 			return false
 		}
 	}
-	return d == req.Block() || d.Dominates(req.Block())
+	return x.Precedes(def, req)
 }
 
 // c18Exclusive: leaves la and lb cannot both be realised in one request.
-func c18Exclusive(la, lb *c18Leaf, req ssa.Instruction) (bool, string) {
-	bufs := []*ssa.Alloc{la.Emit.Frag.Buf, lb.Emit.Frag.Buf}
+func c18Exclusive(x *c18X, la, lb *c18Leaf, req c18XI) (bool, string) {
+	bufs := []c18XV{la.Emit.Frag.Buf, lb.Emit.Frag.Buf}
 	try := func(a, b *c18Leaf) (bool, string) {
 		for _, f := range a.Guards {
 			for _, cv := range b.Chain {
-				if !c18FactDenies(f.CondFact, cv.V, b.Atom.Kind) {
+				if !c18FactDenies(x, f.c18Fact, cv.V, b.Atom.Kind) {
 					continue
 				}
-				if c18SameIncarnation(cv.V, req, bufs, a.Phis[:f.N], a.Emit.Frag.Phis, b.Phis[:cv.N], b.Emit.Frag.Phis) {
+				if c18SameIncarnation(x, cv.V, req, bufs, a.Phis[:f.N], a.Emit.Frag.Phis, b.Phis[:cv.N], b.Emit.Frag.Phis) {
 					return true, fmt.Sprintf("'%s' can satisfy %s only where a dominating guard says the value sent for '%s' in the same request does not satisfy %s", a.Emit.Key, a.Atom, b.Emit.Key, b.Atom)
 				}
 			}
@@ -2328,8 +5187,8 @@ func c18Exclusive(la, lb *c18Leaf, req ssa.Instruction) (bool, string) {
 	}
 	for _, f := range la.Guards {
 		for _, g := range lb.Guards {
-			if f.Cond == g.Cond && f.Val != g.Val &&
-				c18SameIncarnation(f.Cond, req, bufs, la.Phis[:f.N], la.Emit.Frag.Phis, lb.Phis[:g.N], lb.Emit.Frag.Phis) {
+			if f.Cond == g.Cond && f.At.Ctx == g.At.Ctx && f.Val != g.Val &&
+				c18SameIncarnation(x, c18XV{f.At.Ctx, f.Cond}, req, bufs, la.Phis[:f.N], la.Emit.Frag.Phis, lb.Phis[:g.N], lb.Emit.Frag.Phis) {
 				return true, fmt.Sprintf("'%s' and '%s' are emitted on opposite edges of one condition", la.Emit.Key, lb.Emit.Key)
 			}
 		}
@@ -2337,13 +5196,113 @@ func c18Exclusive(la, lb *c18Leaf, req ssa.Instruction) (bool, string) {
 	return false, ""
 }
 
-func c18Compat(p *Program, r *Reporter) {
-	routes := c18Routes(p)
-	type conj struct {
-		action string
-		rej    c18Rejection
+type c18Conj struct {
+	action string
+	rej    c18Rejection
+}
+
+// c18CompatVerdict judges request rq against rejection conjunction cj.
+// status: 0 discharged, 1 undecided, 2 violated.
+func c18CompatVerdict(p *Program, rq *c18Request, cj c18Conj) (status int, detail string) {
+	x := rq.X
+	atoms := cj.rej.Atoms
+	var rejSites []string
+	for _, xi := range cj.rej.Sites {
+		rejSites = append(rejSites, c18Pos(p, xi.In))
 	}
-	var conjs []conj
+	rejSite := strings.Join(rejSites, ", ")
+	emits := rq.Emits()
+	leaves := make([][]*c18Leaf, len(atoms))
+	never, neverWhy := false, ""
+	for i, a := range atoms {
+		var es []*c18Emit
+		for _, e := range emits {
+			if e.Key == a.Key && !e.Numbered {
+				es = append(es, e)
+			}
+		}
+		if a.Pos {
+			for _, e := range es {
+				leaves[i] = append(leaves[i], c18Leaves(p, x, e, a)...)
+			}
+			if len(leaves[i]) == 0 && len(rq.Opaque) == 0 {
+				never = true
+				if len(es) == 0 {
+					neverWhy = fmt.Sprintf("the request never carries '%s'", a.Key)
+				} else {
+					neverWhy = fmt.Sprintf("every value the request carries for '%s' fails %s", a.Key, a)
+				}
+			} else if len(leaves[i]) == 0 {
+				leaves[i] = []*c18Leaf{{Atom: a, Emit: &c18Emit{Key: a.Key, Frag: &c18Frag{At: rq.Call}}, What: "a part of the request the model does not follow (" + strings.Join(rq.Opaque, "; ") + ")"}}
+			}
+		} else {
+			for _, e := range es {
+				if e.Frag.Uncond && len(e.Frag.Phis) == 0 && c18Definitely(x, e, a.Kind) {
+					never = true
+					neverWhy = fmt.Sprintf("every request carries '%s' with a value for which %s is false", a.Key, a)
+				}
+			}
+		}
+	}
+	if never {
+		return 0, fmt.Sprintf("the %s handler rejects requests with %s (%s); %s", cj.action, c18AtomsString(atoms), rejSite, neverWhy)
+	}
+	excl, exclWhy := false, ""
+	var witness [2]*c18Leaf
+	for i := 0; i < len(atoms) && !excl; i++ {
+		for j := i + 1; j < len(atoms) && !excl; j++ {
+			if !atoms[i].Pos || !atoms[j].Pos {
+				continue
+			}
+			all, why := true, ""
+			for _, la := range leaves[i] {
+				for _, lb := range leaves[j] {
+					ok, w := c18Exclusive(x, la, lb, rq.Call)
+					if !ok {
+						all = false
+						if witness[0] == nil {
+							witness = [2]*c18Leaf{la, lb}
+						}
+					} else {
+						why = w
+					}
+				}
+			}
+			if all && len(leaves[i]) > 0 && len(leaves[j]) > 0 {
+				excl, exclWhy = true, why
+			}
+		}
+	}
+	if excl {
+		return 0, fmt.Sprintf("the %s handler rejects requests with %s (%s); in every request built here %s (checked on every pair of possible values, for the iteration that is formatted)", cj.action, c18AtomsString(atoms), rejSite, exclWhy)
+	}
+	mem := false
+	var parts []string
+	for i, a := range atoms {
+		if !a.Pos {
+			parts = append(parts, fmt.Sprintf("%s is not excluded (no unconditional emission of '%s' with a value that makes it false)", a, a.Key))
+			continue
+		}
+		for _, l := range leaves[i] {
+			mem = mem || l.Mem
+		}
+	}
+	if witness[0] != nil {
+		parts = append(parts, fmt.Sprintf("'%s' may be sent as %s together with '%s' as %s, and no guard dominating either emission (and evaluated for the same iteration's values) excludes the other", witness[0].Emit.Key, witness[0].What, witness[1].Emit.Key, witness[1].What))
+	}
+	detail = fmt.Sprintf("the %s handler answers a request with %s by an error response (%s), and this request builder can produce such a request: %s", cj.action, c18AtomsString(atoms), rejSite, strings.Join(parts, "; "))
+	switch {
+	case mem:
+		return 1, detail + " [a value involved lives in a variable the analysis cannot follow]"
+	case len(rq.Opaque) > 0:
+		return 1, detail + " [parts of the request text are built in a way the model does not follow: " + strings.Join(rq.Opaque, "; ") + "]"
+	}
+	return 2, detail
+}
+
+func c18Compat(p *Program, r *Reporter) {
+	routes := c18Handlers(p)
+	var conjs []c18Conj
 	var actions []string
 	for a := range routes {
 		actions = append(actions, a)
@@ -2357,122 +5316,96 @@ func c18Compat(p *Program, r *Reporter) {
 			nSites += sites
 			nLits += lits
 			for _, rj := range rs {
-				conjs = append(conjs, conj{a, rj})
+				conjs = append(conjs, c18Conj{a, rj})
 			}
 		}
 	}
-	var reqs []*c18Request
-	for _, fn := range p.FuncsIn("pkg/client") {
-		reqs = append(reqs, c18Requests(fn)...)
+	type res struct {
+		status int
+		detail string
 	}
-	r.Analysed("routed_handler_functions", nHandlers)
+	memo := map[*c18Request][]res{}
+	judge := func(rq *c18Request) []res {
+		if v, ok := memo[rq]; ok {
+			return v
+		}
+		out := make([]res, len(conjs))
+		for i, cj := range conjs {
+			if cj.action == rq.Action {
+				s, d := c18CompatVerdict(p, rq, cj)
+				out[i] = res{s, d}
+			}
+		}
+		memo[rq] = out
+		return out
+	}
+	reqs := c18Reported(p, func(rq *c18Request) bool {
+		for _, v := range judge(rq) {
+			if v.status != 0 {
+				return false
+			}
+		}
+		return true
+	})
+	r.Analysed("routed_handler_bodies", nHandlers)
 	r.Analysed("error_response_sites", nSites)
 	r.Analysed("request_key_literals", nLits)
 	r.Analysed("key_only_rejection_conjunctions", len(conjs))
 	r.Analysed("client_protocol_requests", len(reqs))
-	for _, cj := range conjs {
-		atoms := cj.rej.Atoms
-		var rejSites []string
-		for _, in := range cj.rej.Sites {
-			rejSites = append(rejSites, p.Pos(in.Pos()))
-		}
-		rejSite := strings.Join(rejSites, ", ")
+	for i, cj := range conjs {
 		for _, rq := range reqs {
 			if rq.Action != cj.action {
 				continue
 			}
-			key := fmt.Sprintf("%s#%s-never[%s]", FuncKey(rq.Fn), cj.action, c18AtomsString(atoms))
-			site := p.Pos(rq.Call.Pos())
-			emits := rq.Emits()
-			leaves := make([][]*c18Leaf, len(atoms))
-			never, neverWhy := false, ""
-			for i, a := range atoms {
-				var es []*c18Emit
-				for _, e := range emits {
-					if e.Key == a.Key && !e.Numbered {
-						es = append(es, e)
-					}
-				}
-				if a.Pos {
-					for _, e := range es {
-						leaves[i] = append(leaves[i], c18Leaves(p, e, a)...)
-					}
-					if len(leaves[i]) == 0 && len(rq.Opaque) == 0 {
-						never = true
-						if len(es) == 0 {
-							neverWhy = fmt.Sprintf("the request never carries '%s'", a.Key)
-						} else {
-							neverWhy = fmt.Sprintf("every value the request carries for '%s' fails %s", a.Key, a)
-						}
-					} else if len(leaves[i]) == 0 {
-						leaves[i] = []*c18Leaf{{Atom: a, Emit: &c18Emit{Key: a.Key, Frag: &c18Frag{At: rq.Call.Instr}}, What: "a part of the request the model does not follow (" + strings.Join(rq.Opaque, "; ") + ")"}}
-					}
-				} else {
-					for _, e := range es {
-						if e.Frag.Uncond && len(e.Frag.Phis) == 0 && c18Definitely(e, a.Kind) {
-							never = true
-							neverWhy = fmt.Sprintf("every request carries '%s' with a value for which %s is false", a.Key, a)
-						}
-					}
-				}
-			}
-			if never {
-				r.OK("N-compat", key, site, fmt.Sprintf("the %s handler rejects requests with %s (%s); %s", cj.action, c18AtomsString(atoms), rejSite, neverWhy))
-				continue
-			}
-			excl, exclWhy := false, ""
-			var witness [2]*c18Leaf
-			for i := 0; i < len(atoms) && !excl; i++ {
-				for j := i + 1; j < len(atoms) && !excl; j++ {
-					if !atoms[i].Pos || !atoms[j].Pos {
-						continue
-					}
-					all, why := true, ""
-					for _, la := range leaves[i] {
-						for _, lb := range leaves[j] {
-							ok, w := c18Exclusive(la, lb, rq.Call.Instr)
-							if !ok {
-								all = false
-								if witness[0] == nil {
-									witness = [2]*c18Leaf{la, lb}
-								}
-							} else {
-								why = w
-							}
-						}
-					}
-					if all && len(leaves[i]) > 0 && len(leaves[j]) > 0 {
-						excl, exclWhy = true, why
-					}
-				}
-			}
-			if excl {
-				r.OK("N-compat", key, site, fmt.Sprintf("the %s handler rejects requests with %s (%s); in every request built here %s (checked on every pair of possible values, for the iteration that is formatted)", cj.action, c18AtomsString(atoms), rejSite, exclWhy))
-				continue
-			}
-			mem := false
-			var parts []string
-			for i, a := range atoms {
-				if !a.Pos {
-					parts = append(parts, fmt.Sprintf("%s is not excluded (no unconditional emission of '%s' with a value that makes it false)", a, a.Key))
-					continue
-				}
-				for _, l := range leaves[i] {
-					mem = mem || l.Mem
-				}
-			}
-			if witness[0] != nil {
-				parts = append(parts, fmt.Sprintf("'%s' may be sent as %s together with '%s' as %s, and no guard dominating either emission (and evaluated for the same iteration's values) excludes the other", witness[0].Emit.Key, witness[0].What, witness[1].Emit.Key, witness[1].What))
-			}
-			detail := fmt.Sprintf("the %s handler answers a request with %s by an error response (%s), and this request builder can produce such a request: %s", cj.action, c18AtomsString(atoms), rejSite, strings.Join(parts, "; "))
-			if mem {
-				r.Undecided("N-compat", key, site, detail+" [a value involved lives in a variable the analysis cannot follow]")
-			} else if len(rq.Opaque) > 0 {
-				r.Undecided("N-compat", key, site, detail+" [parts of the request text are built in a way the model does not follow: "+strings.Join(rq.Opaque, "; ")+"]")
-			} else {
-				r.Violation("N-compat", key, site, detail)
+			key := fmt.Sprintf("%s#%s-never[%s]", FuncKey(rq.X.Root), cj.action, c18AtomsString(cj.rej.Atoms))
+			site := c18Pos(p, rq.X.TopSite(rq.Call))
+			v := judge(rq)[i]
+			switch v.status {
+			case 0:
+				r.OK("N-compat", key, site, v.detail)
+			case 1:
+				r.Undecided("N-compat", key, site, v.detail)
+			default:
+				r.Violation("N-compat", key, site, v.detail)
 			}
 		}
 	}
 	r.Floor("N-compat", 3)
+}
+
+// dump prints the graph (development aid, C18DEBUG=graph).
+func (x *c18X) dump() {
+	fmt.Printf("=== %s\n", x)
+	for _, n := range x.Nodes {
+		fmt.Printf("n%d ctx%d(%s) b%d[%d:%d] var=%q idom=%v succs=", n.ID, n.Ctx.ID, n.Ctx.Fn.Name(), n.B.Index, n.Lo, n.Hi, n.Var, func() int {
+			if n.idom == nil {
+				return -1
+			}
+			return n.idom.ID
+		}())
+		for i, s := range n.Succs {
+			fmt.Printf("n%d/%d ", s.ID, n.Kinds[i])
+		}
+		if n.ifInstr() != nil {
+			t, f := -1, -1
+			if n.IfSucc[0] != nil {
+				t = n.IfSucc[0].ID
+			}
+			if n.IfSucc[1] != nil {
+				f = n.IfSucc[1].ID
+			}
+			fmt.Printf(" if %v ? n%d : n%d", n.ifInstr().Cond, t, f)
+		}
+		for k, v := range n.Bind {
+			fmt.Printf(" [%s:=%v]", k.Name(), v.V)
+		}
+		fmt.Println()
+		for k := n.Lo; k < n.Hi; k++ {
+			if v, ok := n.B.Instrs[k].(ssa.Value); ok {
+				fmt.Printf("      %s = %v\n", v.Name(), n.B.Instrs[k])
+			} else {
+				fmt.Printf("      %v\n", n.B.Instrs[k])
+			}
+		}
+	}
 }
